@@ -1,28 +1,25 @@
-(* Proofs about the event-level asset replication model (Assets.v): property C06.
+(* Proofs about the event-level asset replication model (Assets.v) AFTER the two repairs of the Rust code
+   (R1: the debounce token is a counter; R2: request() always starts the download): properties C06 and C09.
 
-   Part W : the defects, as machine-checked witnesses (findings)
-   Part 0-2: channel operations, one-step characterisations, well-formedness
-   Part 3 : the single-publisher invariant [Inv] (what holds outside the S7 class)
-   Part 4 : drain separation: the counting invariant [Cnt] (no S7 inside a round)
-   Part 5 : C06 theorems (first publication, overwrites), stability, traffic
-   Part 6 : joins
-   Part M : materials *)
+   Part 0-2: channel operations, one-step characterisations, well-formedness (A1: awf_invariant)
+   Part 3 : invariants of EVERY run ([Basic]: tokens never exceed unread events, ...), no echo (A5: no_echo)
+   Part 4 : the publisher invariant [Inv w]; C06 when the publisher changes only in quiescent states
+            (C06_handover), for one publisher at any pace (A2: C06_single_publisher), for drain separated
+            publishers (A3: C06_drain_separated)
+   Part 5 : the old defect witnesses now converge (Examples); what remains false (A4): the join window
+            (join_during_download_refuted, join_during_overwrite_refuted, C06_any_join_refuted), a preloaded
+            joiner (join_preloaded_overwritten, join_preloaded_private_refuted), concurrent publishers
+   Part 6 : stability and joins (A6: quiescent_is_stable, join_gets_asset, join_from_agreement)
+   Part 7 : traffic and termination (A5: traffic_bound, publication_cost, plain_steps_bounded,
+            quiescence_reachable, only_publisher_serves, host_serves_only_for_joins)
+   Part M : materials (M1: M06_single_publisher / M06_handover, M2: M06_drain_separated, M3: mno_echo,
+            M4: mtraffic_bound, mpublication_cost, mplain_steps_bounded, mquiescence_reachable)
+   Summary: C06_holds, M06_holds *)
 From Coq Require Import NArith List Lia.
 From stdpp Require Import gmap list.
 From BS Require Import Abs.Assets.
 
 Local Open Scope N_scope.
-
-(* ================================================================================================
-   Part W: witnesses
-   ================================================================================================ *)
-
-(* The literal property: while one peer alone publishes the id (overwrites included), every quiescent
-   state shows the last published content on every peer. *)
-Definition C06_statement : Prop :=
-  forall n p tr s',
-    arun (ainit n) tr = Some s' -> only_publisher p tr -> no_joins tr -> aquiescent s' ->
-    forall q, peers s' q -> pstore s' q = last (published tr).
 
 Ltac only_pub := unfold only_publisher; vm_compute; repeat constructor.
 
@@ -35,220 +32,6 @@ Lemma mrun_obs {B} (f : mstate -> B) s0 tr v :
 Proof. destruct (mrun s0 tr) as [s'|]; simpl; intros [= <-]; eauto. Qed.
 Lemma by_decide (P : Prop) {dec : Decision P} : bool_decide P = true -> P.
 Proof. apply bool_decide_eq_true. Qed.
-
-(* S7 + S12.  The host publishes 10 and 20 in quick succession; client 1 applies both downloads before
-   its react system runs: two events, one token.  The second event is not swallowed: client 1 SERVES
-   the asset and announces itself as owner; the host relays that to client 2.  From now on client 1's
-   own cache holds the id, so request() ignores every later announcement: when the host publishes 30,
-   client 1 keeps 20 for ever.  Nobody but the host ever published. *)
-Definition w_burst : list aevent :=
-  [APublish 0 10; AReact 0; APublish 0 20; AReact 0;
-   ADeliver 0 1; ADeliver 0 1; ADownload 1; ADownload 1; AReact 1;
-   ADeliver 1 0; ADeliver 0 2; ADownload 2; AReact 2; ADeliver 0 2; ADownload 2; AReact 2;
-   ADeliver 0 2; ADownload 2; AReact 2;
-   APublish 0 30; AReact 0; ADeliver 0 1; ADeliver 0 2; ADownload 2; AReact 2].
-
-Theorem C06_burst_overwrite_refuted :
-  exists n p tr s',
-    arun (ainit n) tr = Some s' /\ only_publisher p tr /\ no_joins tr /\ aquiescent s' /\
-    known_S7 (ainit n) tr = true /\ known_S12 (ainit n) tr = true /\
-    last (published tr) = Some 30 /\ pstore s' p = Some 30 /\ pstore s' 2 = Some 30 /\
-    pstore s' 1 = Some 20 /\ pserved s' 1 = Some 20 /\ 1 ∈ aconn s'.
-Proof.
-  exists 2%nat, 0, w_burst.
-  destruct (arun_obs (fun s => (aquiescentb s, pstore s 0, pstore s 2, pstore s 1, pserved s 1, bool_decide (1 ∈ aconn s)))
-              (ainit 2) w_burst (true, Some 30, Some 30, Some 20, Some 20, true)) as (s' & Hrun & Hobs); [vm_compute; reflexivity|].
-  injection Hobs as Hq H0 H2 H1 Hs1 Hin. apply bool_decide_eq_true in Hq, Hin.
-  exists s'. split; [exact Hrun|]. split; [only_pub|]. split; [reflexivity|]. split; [exact Hq|].
-  split; [vm_compute; reflexivity|]. split; [vm_compute; reflexivity|]. split; [reflexivity|]. auto 10.
-Qed.
-
-Theorem C06_refuted : ~ C06_statement.
-Proof.
-  intros H. destruct C06_burst_overwrite_refuted as (n & p & tr & s' & Hrun & Hop & Hnj & Hq & _ & _ & Hl & _ & _ & H1 & _ & Hin).
-  specialize (H n p tr s' Hrun Hop Hnj Hq 1 (or_intror Hin)). rewrite H1, Hl in H. discriminate.
-Qed.
-
-(* S12 alone.  Drain separation does not help when the publisher changes: client 1 publishes 10
-   (and therefore serves the id); everything drains; client 2 publishes 20; the host fetches it, client 1
-   ignores the relayed announcement.  No S7 anywhere in the run. *)
-Definition w_other_publisher : list aevent :=
-  [APublish 1 10; AReact 1; ADeliver 1 0; ADownload 0; ADeliver 0 2; AReact 0; ADownload 2; AReact 2;
-   APublish 2 20; AReact 2; ADeliver 2 0; ADownload 0; AReact 0; ADeliver 0 1].
-
-Theorem C06_republish_by_other_peer_refuted :
-  exists n tr s',
-    arun (ainit n) tr = Some s' /\ no_joins tr /\ ops_at_quiescence (ainit n) tr = true /\ aquiescent s' /\
-    known_S7 (ainit n) tr = false /\ known_S12 (ainit n) tr = true /\
-    published tr = [10; 20] /\ pstore s' 0 = Some 20 /\ pstore s' 2 = Some 20 /\
-    pstore s' 1 = Some 10 /\ 1 ∈ aconn s'.
-Proof.
-  exists 2%nat, w_other_publisher.
-  destruct (arun_obs (fun s => (aquiescentb s, pstore s 0, pstore s 2, pstore s 1, bool_decide (1 ∈ aconn s)))
-              (ainit 2) w_other_publisher (true, Some 20, Some 20, Some 10, true)) as (s' & Hrun & Hobs); [vm_compute; reflexivity|].
-  injection Hobs as Hq H0 H2 H1 Hin. apply bool_decide_eq_true in Hq, Hin.
-  exists s'. split; [exact Hrun|]. split; [reflexivity|]. split; [vm_compute; reflexivity|]. split; [exact Hq|].
-  split; [vm_compute; reflexivity|]. split; [vm_compute; reflexivity|]. split; [reflexivity|]. auto 10.
-Qed.
-
-(* S12 by the client's local build_full_sync.  A client that connects while it already holds the id
-   (e.g. the same file loaded under the same uuid) serves it at once: the host's announcement in the
-   snapshot is ignored, the joiner keeps its own content. *)
-Definition w_preloaded : list aevent :=
-  [APublish 0 10; AReact 0; ADeliver 0 1; ADownload 1; AReact 1; AJoin 2 (Some 5); ADeliver 0 2].
-
-Theorem join_preloaded_refuted :
-  exists n tr c s',
-    arun (ainit n) tr = Some s' /\ only_publisher 0 tr /\ ops_at_quiescence (ainit n) tr = true /\
-    aquiescent s' /\ known_S7 (ainit n) tr = false /\ known_S12 (ainit n) tr = true /\
-    c ∈ aconn s' /\ pstore s' 0 = Some 10 /\ pstore s' c = Some 5.
-Proof.
-  exists 1%nat, w_preloaded, 2.
-  destruct (arun_obs (fun s => (aquiescentb s, pstore s 0, pstore s 2, bool_decide (2 ∈ aconn s)))
-              (ainit 1) w_preloaded (true, Some 10, Some 5, true)) as (s' & Hrun & Hobs); [vm_compute; reflexivity|].
-  injection Hobs as Hq H0 H2 Hin. apply bool_decide_eq_true in Hq, Hin.
-  exists s'. split; [exact Hrun|]. split; [only_pub|]. split; [vm_compute; reflexivity|]. split; [exact Hq|].
-  split; [vm_compute; reflexivity|]. split; [vm_compute; reflexivity|]. auto.
-Qed.
-
-(* S12 by the host's build_full_sync.  Client 1 is the only publisher, everything is drain separated.
-   Client 2 joins (fresh): the host serves its copy for the snapshot.  From then on the host ignores
-   client 1's overwrites (it still relays them: clients 1 and 2 hold 20, the host keeps 10), and a later
-   joiner is given the host's stale copy. *)
-Definition w_host_stale : list aevent :=
-  [APublish 1 10; AReact 1; ADeliver 1 0; ADownload 0; AReact 0;
-   AJoin 2 None; ADeliver 0 2; ADownload 2; AReact 2;
-   APublish 1 20; AReact 1; ADeliver 1 0; ADeliver 0 2; ADownload 2; AReact 2;
-   AJoin 3 None; ADeliver 0 3; ADownload 3; AReact 3].
-
-Theorem C06_host_stale_after_join_refuted :
-  exists n tr s',
-    arun (ainit n) tr = Some s' /\ only_publisher 1 tr /\ fresh_joins tr /\
-    ops_at_quiescence (ainit n) tr = true /\ aquiescent s' /\
-    known_S7 (ainit n) tr = false /\ known_S12 (ainit n) tr = true /\
-    last (published tr) = Some 20 /\
-    pstore s' 0 = Some 10 /\ pstore s' 1 = Some 20 /\ pstore s' 2 = Some 20 /\ pstore s' 3 = Some 10.
-Proof.
-  exists 1%nat, w_host_stale.
-  destruct (arun_obs (fun s => (aquiescentb s, pstore s 0, pstore s 1, pstore s 2, pstore s 3))
-              (ainit 1) w_host_stale (true, Some 10, Some 20, Some 20, Some 10)) as (s' & Hrun & Hobs); [vm_compute; reflexivity|].
-  injection Hobs as Hq H0 H1 H2 H3. apply bool_decide_eq_true in Hq.
-  exists s'. split; [exact Hrun|]. split; [only_pub|].
-  split; [unfold fresh_joins; vm_compute; repeat constructor|]. split; [vm_compute; reflexivity|]. split; [exact Hq|].
-  split; [vm_compute; reflexivity|]. split; [vm_compute; reflexivity|]. split; [reflexivity|]. auto.
-Qed.
-
-(* A join while the host is still downloading.  Client 1 publishes ONCE; the host has relayed the
-   announcement and started its download when client 2 joins: the snapshot is built from Assets<T>, which
-   does not hold the id yet; the completed download is swallowed by its token.  Client 2 never hears of
-   the id.  Neither S7 nor S12 is involved. *)
-Definition w_join_window : list aevent :=
-  [APublish 1 10; AReact 1; ADeliver 1 0; AJoin 2 None; ADownload 0; AReact 0].
-
-Theorem join_during_download_refuted :
-  exists n tr c s',
-    arun (ainit n) tr = Some s' /\ published tr = [10] /\ fresh_joins tr /\ aquiescent s' /\
-    known_S7 (ainit n) tr = false /\ known_S12 (ainit n) tr = false /\ known_join_window (ainit n) tr = true /\
-    c ∈ aconn s' /\ pstore s' 0 = Some 10 /\ pstore s' c = None.
-Proof.
-  exists 1%nat, w_join_window, 2.
-  destruct (arun_obs (fun s => (aquiescentb s, pstore s 0, pstore s 2, bool_decide (2 ∈ aconn s)))
-              (ainit 1) w_join_window (true, Some 10, None, true)) as (s' & Hrun & Hobs); [vm_compute; reflexivity|].
-  injection Hobs as Hq H0 H2 Hin. apply bool_decide_eq_true in Hq, Hin.
-  exists s'. split; [exact Hrun|]. split; [reflexivity|].
-  split; [unfold fresh_joins; vm_compute; repeat constructor|]. split; [exact Hq|].
-  split; [vm_compute; reflexivity|]. split; [vm_compute; reflexivity|]. split; [vm_compute; reflexivity|]. auto.
-Qed.
-
-(* S7 without a burst: the host publishes once, a client joins between the insert and the host's react
-   run: it is told twice (snapshot + broadcast), applies both downloads before reacting, serves the id,
-   and misses the next overwrite. *)
-Definition w_join_react : list aevent :=
-  [APublish 0 10; AJoin 1 None; AReact 0; ADeliver 0 1; ADeliver 0 1; ADownload 1; ADownload 1; AReact 1;
-   ADeliver 1 0; APublish 0 20; AReact 0; ADeliver 0 1].
-
-Theorem join_before_react_refuted :
-  exists tr s',
-    arun (ainit 0) tr = Some s' /\ only_publisher 0 tr /\ fresh_joins tr /\ aquiescent s' /\
-    known_S7 (ainit 0) tr = true /\ published tr = [10; 20] /\ pstore s' 0 = Some 20 /\ pstore s' 1 = Some 10.
-Proof.
-  exists w_join_react.
-  destruct (arun_obs (fun s => (aquiescentb s, pstore s 0, pstore s 1))
-              (ainit 0) w_join_react (true, Some 20, Some 10)) as (s' & Hrun & Hobs); [vm_compute; reflexivity|].
-  injection Hobs as Hq H0 H1. apply bool_decide_eq_true in Hq.
-  exists s'. split; [exact Hrun|]. split; [only_pub|].
-  split; [unfold fresh_joins; vm_compute; repeat constructor|]. split; [exact Hq|].
-  split; [vm_compute; reflexivity|]. auto.
-Qed.
-
-(* ---------- materials --------------------------------------------------------------------------- *)
-
-Definition M06_statement : Prop :=
-  forall n p tr s',
-    mrun (minit n) tr = Some s' -> monly_publisher p tr -> mquiescent s' ->
-    forall q, mpeers s' q -> mpstore s' q = last (mpublished tr).
-
-(* S7 for materials, as observed on the real code: the host writes 20 and 30 while the clients do not
-   step; each client applies both updates before its react system runs: the second event is not swallowed
-   and sends the CURRENT content (30) back to the host.  Meanwhile the host has written 40.  The echo
-   30 is applied on the host (token), the host's own event for 40 is swallowed by that token, the next
-   event announces 30 to everybody: the newest write is overwritten everywhere by an older one. *)
-Definition w_material : list mevent :=
-  [MPublish 0 20; MReact 0; MPublish 0 30; MReact 0;
-   MDeliver 0 1; MDeliver 0 1; MDeliver 0 2; MDeliver 0 2; MReact 1; MReact 2;
-   MPublish 0 40; MDeliver 1 0; MDeliver 2 0; MReact 0;
-   MDeliver 0 1; MReact 1; MDeliver 0 1; MReact 1; MDeliver 0 1; MReact 1;
-   MDeliver 0 2; MReact 2; MDeliver 0 2; MReact 2; MDeliver 0 2; MReact 2].
-
-Theorem M06_older_overwrites_newer_refuted :
-  exists n tr s',
-    mrun (minit n) tr = Some s' /\ monly_publisher 0 tr /\ mquiescent s' /\ mknown_S7 (minit n) tr = true /\
-    mpublished tr = [20; 30; 40] /\ mpstore s' 0 = Some 30 /\ mpstore s' 1 = Some 30 /\ mpstore s' 2 = Some 30.
-Proof.
-  exists 2%nat, w_material.
-  destruct (mrun_obs (fun s => (mquiescentb s, mpstore s 0, mpstore s 1, mpstore s 2))
-              (minit 2) w_material (true, Some 30, Some 30, Some 30)) as (s' & Hrun & Hobs); [vm_compute; reflexivity|].
-  injection Hobs as Hq H0 H1 H2. apply bool_decide_eq_true in Hq.
-  exists s'. split; [exact Hrun|]. split; [unfold monly_publisher; vm_compute; repeat constructor|].
-  split; [exact Hq|]. split; [vm_compute; reflexivity|]. auto.
-Qed.
-
-Theorem M06_refuted : ~ M06_statement.
-Proof.
-  intros H. destruct M06_older_overwrites_newer_refuted as (n & tr & s' & Hrun & Hop & Hq & _ & Hp & Hs & _).
-  specialize (H n 0 tr s' Hrun Hop Hq 0 (or_introl eq_refl)). rewrite Hp, Hs in H. discriminate.
-Qed.
-
-(* The echo need not die out.  After two publications of the host applied together by both clients there
-   is a CYCLE: the two echoes reach the host, which relays each to the other client and -- two events,
-   one token -- broadcasts once; each client receives two messages, applies both before reacting, and
-   echoes again.  Six messages per turn, for ever, with no further publication and the same content
-   everywhere: the traffic caused by two publications is unbounded. *)
-Global Instance mpeer_eq_dec : EqDecision mpeer.
-Proof. solve_decision. Defined.
-Global Instance mstate_eq_dec : EqDecision mstate.
-Proof. solve_decision. Defined.
-
-Definition w_echo_pre : list mevent :=
-  [MPublish 0 20; MReact 0; MPublish 0 30; MReact 0;
-   MDeliver 0 1; MDeliver 0 1; MDeliver 0 2; MDeliver 0 2; MReact 1; MReact 2].
-Definition w_echo_loop : list mevent :=
-  [MDeliver 1 0; MDeliver 2 0; MReact 0; MDeliver 0 1; MDeliver 0 1; MDeliver 0 2; MDeliver 0 2; MReact 1; MReact 2].
-Definition s_echo : mstate :=
-  MState (list_to_map [(0, MPeer (Some 30) 0 false); (1, MPeer (Some 30) 0 false); (2, MPeer (Some 30) 0 false)])
-         [1; 2] (list_to_map [((0, 1), []); ((0, 2), []); ((1, 0), [30]); ((2, 0), [30])]).
-
-Theorem material_echo_cycle :
-  exists n pre loop s,
-    mrun (minit n) pre = Some s /\ monly_publisher 0 pre /\ length (mpublished pre) = 2%nat /\
-    Forall mplain loop /\ mrun s loop = Some s /\ mtotal_sent s loop = 6%nat.
-Proof.
-  exists 2%nat, w_echo_pre, w_echo_loop, s_echo.
-  split; [apply (by_decide _ (dec := decide _)); vm_compute; reflexivity|].
-  split; [unfold monly_publisher; vm_compute; repeat constructor|]. split; [reflexivity|].
-  split; [repeat constructor|].
-  split; [apply (by_decide _ (dec := decide _)); vm_compute; reflexivity|vm_compute; reflexivity].
-Qed.
 
 (* ================================================================================================
    Part 0: channel operations
@@ -341,19 +124,20 @@ Proof.
   - intros q Hne. unfold set_peer. destruct s; simpl. apply getp_insert_ne. exact Hne.
 Qed.
 
+
 (* AReact1 *)
 Lemma react1_cases x :
   (events x = 0%nat /\ react1_peer x = (x, false)) \/
   (exists k, events x = S k /\ store x = None /\
              react1_peer x = (APeer None k (tok x) (served x) (pending x), false)) \/
-  (exists k c, events x = S k /\ store x = Some c /\ tok x = true /\
-               react1_peer x = (APeer (Some c) k false (served x) (pending x), false)) \/
-  (exists k c, events x = S k /\ store x = Some c /\ tok x = false /\
-               react1_peer x = (APeer (Some c) k false (Some c) (pending x), true)).
+  (exists k c t, events x = S k /\ store x = Some c /\ tok x = S t /\
+               react1_peer x = (APeer (Some c) k t (served x) (pending x), false)) \/
+  (exists k c, events x = S k /\ store x = Some c /\ tok x = 0%nat /\
+               react1_peer x = (APeer (Some c) k 0 (Some c) (pending x), true)).
 Proof.
   unfold react1_peer. destruct (events x) as [|k]; [left; auto|]. right.
   destruct (store x) as [c|]; [|left; eauto]. right.
-  destruct (tok x); [left|right]; eauto 10.
+  destruct (tok x) as [|t]; [right|left]; eauto 10.
 Qed.
 
 Lemma step_react1 s p s' :
@@ -401,12 +185,10 @@ Proof.
   - destruct (areact1 s p) as [s1|] eqn:H1; [|discriminate]. eapply IH; [|exact Hrun]. eapply Hstep; eauto.
 Qed.
 
+
 (* ADeliver *)
 Definition request_peer (x : apeer) (o : peer) : apeer :=
-  match served x with
-  | Some _ => x
-  | None => APeer (store x) (events x) (tok x) (served x) (pending x ++ [o])
-  end.
+  APeer (store x) (events x) (tok x) (served x) (pending x ++ [o]).
 
 Lemma step_deliver s src dst s' :
   NoDup (aconn s) ->
@@ -437,11 +219,12 @@ Proof.
       destruct (decide (dst = host /\ _)) as [[Hy _]|_]; [contradiction|]. rewrite app_nil_r. reflexivity.
 Qed.
 
+
 (* ADownload *)
 Definition download_peer (x : apeer) (got : option content) : apeer :=
   match got with
   | None => APeer (store x) (events x) (tok x) (served x) (tail (pending x))
-  | Some c => APeer (Some c) (S (events x)) true (served x) (tail (pending x))
+  | Some c => APeer (Some c) (S (events x)) (S (tok x)) (served x) (tail (pending x))
   end.
 
 Lemma step_download s p s' :
@@ -470,7 +253,7 @@ Lemma step_join s c pre s' :
   astep s (AJoin c pre) = Some s' ->
   c <> host /\ c ∉ aconn s /\ ap s !! c = None /\ aconn s' = aconn s ++ [c] /\
   (forall q, is_Some (ap s' !! q) <-> is_Some (ap s !! q) \/ q = c \/ q = host) /\
-  getp s' c = APeer pre 0 false pre [] /\
+  getp s' c = APeer pre 0 0 pre [] /\
   getp s' host = serve_store (getp s host) /\
   (forall q, q <> c -> q <> host -> getp s' q = getp s q) /\
   (forall a b, link s' a b = if decide ((a, b) = (host, c)) then link s host c ++ snapshot s else link s a b).
@@ -598,13 +381,13 @@ Lemma quiescent_link s a b : aquiescent s -> link s a b = [].
 Proof.
   intros [H _]. unfold link, lget. destruct (alinks s !! (a, b)) as [l|] eqn:Hl; [|reflexivity]. simpl. eapply H. exact Hl.
 Qed.
-Lemma quiescent_peer s p : aquiescent s -> pevents s p = 0%nat /\ ptok s p = false /\ ppending s p = [].
+Lemma quiescent_peer s p : aquiescent s -> pevents s p = 0%nat /\ ptok s p = 0%nat /\ ppending s p = [].
 Proof.
   intros [_ H]. unfold pevents, ptok, ppending, getp. destruct (ap s !! p) as [x|] eqn:Hx; simpl; [|auto].
   apply (H p x Hx).
 Qed.
 Lemma quiescent_intro s :
-  (forall a b, link s a b = []) -> (forall p, pevents s p = 0%nat /\ ptok s p = false /\ ppending s p = []) -> aquiescent s.
+  (forall a b, link s a b = []) -> (forall p, pevents s p = 0%nat /\ ptok s p = 0%nat /\ ppending s p = []) -> aquiescent s.
 Proof.
   intros Hl Hp. split.
   - intros [a b] l Hx. specialize (Hl a b). unfold link, lget in Hl. rewrite Hx in Hl. exact Hl.
@@ -622,54 +405,226 @@ Tactic Notation "cdec" "as" simple_intropattern(pat) :=
   | H : context [decide ?P] |- _ => destruct (decide P) as pat
   end.
 
+
+(* A1 *)
+Theorem awf_invariant n tr s' : arun (ainit n) tr = Some s' -> awf s'.
+Proof. intros Hrun. eapply run_wf; [apply ainit_wf|exact Hrun]. Qed.
+Print Assumptions awf_invariant.
+
+Lemma arun_app s tr1 tr2 : arun s (tr1 ++ tr2) = match arun s tr1 with Some s1 => arun s1 tr2 | None => None end.
+Proof. revert s. induction tr1 as [|e tr1 IH]; intros s; simpl; [reflexivity|]. destruct (astep s e); auto. Qed.
+
+(* an invariant of the one-event steps is an invariant of every run *)
+Definition single (e : aevent) : Prop := match e with AReact _ => False | _ => True end.
+
+Lemma step_lift (P : astate -> Prop) (ok : aevent -> Prop) :
+  (forall s e s', single e -> awf s -> P s -> ok e -> astep s e = Some s' -> P s') ->
+  (forall p, ok (AReact1 p)) ->
+  forall s e s', awf s -> P s -> ok e -> astep s e = Some s' -> P s'.
+Proof.
+  intros H1 Hr s e s' Hwf HP Hok Hstep.
+  destruct e as [p v|p|p|src dst|p|c pre]; try (eapply H1; eauto; exact I).
+  apply step_react_runs in Hstep.
+  pose (Q := fun s1 => awf s1 /\ P s1). assert (HQ : Q s'); [|apply HQ].
+  eapply (react1s_ind Q p); [|split; [exact Hwf|exact HP]|exact Hstep].
+  intros s1 s2 [Hw1 HP1] H12. split; [eapply step_wf; eauto|]. exact (H1 s1 (AReact1 p) s2 I Hw1 HP1 (Hr p) H12).
+Qed.
+
+Lemma run_lift (P : astate -> Prop) (ok : aevent -> Prop) :
+  (forall s e s', single e -> awf s -> P s -> ok e -> astep s e = Some s' -> P s') ->
+  (forall p, ok (AReact1 p)) ->
+  forall tr s s', awf s -> P s -> Forall ok tr -> arun s tr = Some s' -> P s'.
+Proof.
+  intros H1 Hr. induction tr as [|e tr IH]; intros s s' Hwf HP Hok Hrun; simpl in Hrun.
+  - inversion Hrun; subst. exact HP.
+  - destruct (astep s e) as [s1|] eqn:Hstep; [|discriminate]. apply Forall_cons in Hok as [He Hok].
+    eapply (IH s1); [eapply step_wf; eauto| |exact Hok|exact Hrun].
+    eapply (step_lift P ok); eauto.
+Qed.
+
 (* ================================================================================================
-   Part 3: the single-publisher invariant
-   [Inv w s]: w is the only peer that ever published.  Nothing travels towards w, only w uses an uplink,
-   every announcement names w as owner, no other peer serves the id, every unread event of another
-   peer is covered by its token, w's cache is its store unless an event of w is still unread, and every
-   other peer holds what w serves unless an announcement is still on its way to it.
-   Preserved by every event except: a publication by another peer, a join when w is a client or of a
-   client that already holds the id, and a download of the class S7.
+   Part 3: invariants of every run
    ================================================================================================ *)
 
-Definition notified (w : peer) (s : astate) (q : peer) : Prop :=
-  ppending s q <> [] \/ link s host q <> [] \/ link s w host <> [].
+(* [Basic]: on every peer the tokens never exceed the unread events (so "no unread event" implies "no
+   token"), an unread event implies a stored content, a cache entry implies a stored content *)
+Definition Basic (s : astate) : Prop :=
+  forall p, (ptok s p <= pevents s p)%nat /\ (pevents s p <> 0%nat -> pstore s p <> None) /\
+            (pserved s p <> None -> pstore s p <> None).
+
+Lemma basic_step1 s e s' : single e -> awf s -> Basic s -> True -> astep s e = Some s' -> Basic s'.
+Proof.
+  intros He Hwf HB _ Hstep. pose proof (wf_nodup s Hwf) as Hnd.
+  destruct e as [p v|p|p|src dst|p|c pre]; [|contradiction| | | |]; intros q.
+  - apply step_publish in Hstep as (_ & _ & _ & _ & Hp & Hq).
+    destruct (decide (q = p)) as [->|Hne]; unfold ptok, pevents, pstore, pserved.
+    + rewrite Hp. simpl. pose proof (HB p) as (HB1 & _). split; [lia|]. split; intros; discriminate.
+    + rewrite Hq by assumption. apply HB.
+  - apply step_react1 in Hstep as (_ & _ & _ & Hp & Hq & _); [|exact Hnd].
+    destruct (decide (q = p)) as [->|Hne]; unfold ptok, pevents, pstore, pserved; [|rewrite Hq by assumption; apply HB].
+    rewrite Hp. specialize (HB p). unfold ptok, pevents, pstore, pserved in HB. destruct HB as (HB1 & HB2 & HB3).
+    destruct (react1_cases (getp s p)) as [[E0 E]|[(k & E0 & E1 & E)|[(k & c & t & E0 & E1 & E2 & E)|(k & c & E0 & E1 & E2 & E)]]];
+      rewrite E; cbn [fst]; [auto| | |].
+    + exfalso. apply HB2; [rewrite E0; discriminate|exact E1].
+    + simpl. split; [lia|]. split; intros; discriminate.
+    + simpl. split; [lia|]. split; intros; discriminate.
+  - apply step_deliver in Hstep as (o & rest & _ & _ & _ & _ & Hp & Hq & _); [|exact Hnd].
+    destruct (decide (q = dst)) as [->|Hne]; unfold ptok, pevents, pstore, pserved; [|rewrite Hq by assumption; apply HB].
+    rewrite Hp. apply HB.
+  - apply step_download in Hstep as (o & rest & _ & _ & _ & _ & _ & Hp & Hq).
+    destruct (decide (q = p)) as [->|Hne]; unfold ptok, pevents, pstore, pserved; [|rewrite Hq by assumption; apply HB].
+    rewrite Hp. specialize (HB p). unfold ptok, pevents, pstore, pserved in HB. unfold download_peer.
+    destruct (pserved s o); simpl; [|exact HB]. split; [lia|]. split; intros; discriminate.
+  - apply step_join in Hstep as (_ & _ & _ & _ & _ & Hpc & Hph & Hq & _).
+    destruct (decide (q = c)) as [->|Hne]; unfold ptok, pevents, pstore, pserved.
+    + rewrite Hpc. simpl. split; [lia|]. split; [congruence|auto].
+    + destruct (decide (q = host)) as [->|Hnh]; [|rewrite Hq by assumption; apply HB].
+      rewrite Hph. specialize (HB host). unfold ptok, pevents, pstore, pserved in HB. destruct HB as (HB1 & HB2 & HB3).
+      unfold serve_store. simpl. split; [exact HB1|]. split; [exact HB2|].
+      destruct (store (getp s host)) eqn:E; [intros; discriminate|exact HB3].
+Qed.
+
+Lemma all_true (tr : list aevent) : Forall (fun _ => True) tr.
+Proof. induction tr; constructor; auto. Qed.
+
+Lemma basic_run tr s s' : awf s -> Basic s -> arun s tr = Some s' -> Basic s'.
+Proof.
+  intros Hwf HB Hrun.
+  eapply (run_lift Basic (fun _ => True)); [exact basic_step1|auto|exact Hwf|exact HB|apply all_true|exact Hrun].
+Qed.
+
+Lemma basic_init n : Basic (ainit n).
+Proof. intros p. unfold ptok, pevents, pstore, pserved. rewrite ainit_getp. simpl. split; [lia|]. split; congruence. Qed.
+
+Theorem basic_invariant n tr s' : arun (ainit n) tr = Some s' -> Basic s'.
+Proof. intros Hrun. eapply basic_run; [apply ainit_wf|apply basic_init|exact Hrun]. Qed.
+
+(* "links empty, no pending downloads, no unread events" IS quiescence *)
+Theorem quiescent_is_drained n tr s' :
+  arun (ainit n) tr = Some s' ->
+  (aquiescent s' <->
+   (forall a b, link s' a b = []) /\ (forall p, ppending s' p = []) /\ (forall p, pevents s' p = 0%nat)).
+Proof.
+  intros Hrun. split.
+  - intros Hq. split; [intros; apply quiescent_link; exact Hq|]. split; intros p; apply (quiescent_peer s' p Hq).
+  - intros (Hl & Hp & He). apply quiescent_intro; [exact Hl|]. intros p. split; [apply He|]. split; [|apply Hp].
+    pose proof (basic_invariant n tr s' Hrun p) as (Hle & _). rewrite (He p) in Hle. lia.
+Qed.
+Print Assumptions quiescent_is_drained.
+
+(* ---------- no echo (C09) ---------------------------------------------------------------------------
+   A peer that never published holds exactly one token per unread event: every event the react system
+   will ever see on it is swallowed; it never announces and never serves. *)
+Definition pub_ok (w : peer) (e : aevent) : Prop := match e with APublish q _ => q = w | _ => True end.
+
+Definition Covered (w : peer) (s : astate) : Prop :=
+  Basic s /\ forall q, q <> w -> ptok s q = pevents s q.
+
+Lemma covered_step1 w s e s' :
+  single e -> awf s -> Covered w s -> pub_ok w e -> astep s e = Some s' -> Covered w s'.
+Proof.
+  intros He Hwf [HB HC] Hok Hstep. split; [eapply basic_step1; eauto|]. pose proof (wf_nodup s Hwf) as Hnd.
+  destruct e as [p v|p|p|src dst|p|c pre]; [|contradiction| | | |]; intros q Hqw.
+  - simpl in Hok. subst p. apply step_publish in Hstep as (_ & _ & _ & _ & _ & Hq).
+    unfold ptok, pevents. rewrite Hq by assumption. apply HC. exact Hqw.
+  - apply step_react1 in Hstep as (_ & _ & _ & Hp & Hq & _); [|exact Hnd].
+    destruct (decide (q = p)) as [->|Hne]; unfold ptok, pevents; [|rewrite Hq by assumption; apply HC; exact Hqw].
+    rewrite Hp. specialize (HC p Hqw). unfold ptok, pevents in HC.
+    destruct (react1_cases (getp s p)) as [[E0 E]|[(k & E0 & E1 & E)|[(k & c & t & E0 & E1 & E2 & E)|(k & c & E0 & E1 & E2 & E)]]];
+      rewrite E; cbn [fst]; simpl; try lia.
+    exfalso. destruct (HB p) as (_ & HB2 & _). apply HB2; [unfold pevents; rewrite E0; discriminate|exact E1].
+  - apply step_deliver in Hstep as (o & rest & _ & _ & _ & _ & Hp & Hq & _); [|exact Hnd].
+    destruct (decide (q = dst)) as [->|Hne]; unfold ptok, pevents; [|rewrite Hq by assumption; apply HC; exact Hqw].
+    rewrite Hp. apply HC. exact Hqw.
+  - apply step_download in Hstep as (o & rest & _ & _ & _ & _ & _ & Hp & Hq).
+    destruct (decide (q = p)) as [->|Hne]; unfold ptok, pevents; [|rewrite Hq by assumption; apply HC; exact Hqw].
+    rewrite Hp. specialize (HC p Hqw). unfold ptok, pevents in HC. unfold download_peer.
+    destruct (pserved s o); simpl; lia.
+  - apply step_join in Hstep as (_ & _ & _ & _ & _ & Hpc & Hph & Hq & _).
+    destruct (decide (q = c)) as [->|Hne]; unfold ptok, pevents; [rewrite Hpc; reflexivity|].
+    destruct (decide (q = host)) as [->|Hnh]; [rewrite Hph; apply HC; exact Hqw|rewrite Hq by assumption; apply HC; exact Hqw].
+Qed.
+
+Lemma pub_ok_of w tr : only_publisher w tr -> Forall (pub_ok w) tr.
+Proof.
+  unfold only_publisher. induction tr as [|e tr IH]; intros Hp; [constructor|].
+  destruct e as [p v|p|p|src dst|p|c pre]; simpl in Hp; try (constructor; [exact I|apply IH; assumption]).
+  apply Forall_cons in Hp as [-> Hp]. constructor; [reflexivity|apply IH; assumption].
+Qed.
+
+Lemma covered_run w tr s s' : awf s -> Covered w s -> Forall (pub_ok w) tr -> arun s tr = Some s' -> Covered w s'.
+Proof.
+  intros Hwf HC Hok Hrun.
+  eapply (run_lift (Covered w) (pub_ok w)); [apply covered_step1|intros; exact I|exact Hwf|exact HC|exact Hok|exact Hrun].
+Qed.
+
+Lemma covered_init w n : Covered w (ainit n).
+Proof. split; [apply basic_init|]. intros q _. unfold ptok, pevents. rewrite ainit_getp. reflexivity. Qed.
+
+Lemma originates_covered s q : ptok s q = pevents s q -> originates s q = false.
+Proof.
+  unfold originates, ptok, pevents. intros H.
+  destruct (react1_cases (getp s q)) as [[E0 E]|[(k & E0 & E1 & E)|[(k & c & t & E0 & E1 & E2 & E)|(k & c & E0 & E1 & E2 & E)]]];
+    rewrite E; try reflexivity. exfalso. lia.
+Qed.
+
+(* NO ECHO, operationally: in every state of every run in which w alone publishes (any pace, any joins,
+   preloaded joiners included), a react step of any OTHER peer announces nothing: whatever a peer applied
+   from the network is never announced by it *)
+Theorem no_echo n w tr s' :
+  arun (ainit n) tr = Some s' -> only_publisher w tr ->
+  forall q, q <> w -> ptok s' q = pevents s' q /\ originates s' q = false.
+Proof.
+  intros Hrun Hop q Hne.
+  pose proof (proj2 (covered_run w tr (ainit n) s' (ainit_wf n) (covered_init w n) (pub_ok_of w tr Hop) Hrun) q Hne) as H.
+  split; [exact H|apply originates_covered; exact H].
+Qed.
+Print Assumptions no_echo.
+
+(* ================================================================================================
+   Part 4: the publisher invariant
+   [Inv w s]: w is the peer whose publications are being replicated.  Nothing travels towards w, only w
+   uses an uplink, every other peer holds one token per unread event, every owner named in a message or
+   in a pending download serves the id (no 404), w's cache is its store unless an event of w is still
+   unread, and every other peer q is "on its way" to w's cache: either an event of w is unread, or an
+   announcement of w is on its way to the host (it will be relayed to everybody), or the LAST owner in
+   q's queue (pending downloads, then the channel from the host) serves what w serves -- a download
+   fetches the owner's cache AT THAT MOMENT -- or, the queue being empty, q already holds what w serves.
+   ================================================================================================ *)
+
+Definition queue (s : astate) (q : peer) : list peer := ppending s q ++ link s host q.
+
+Definition final_ok (w : peer) (s : astate) (q : peer) : Prop :=
+  match last (queue s q) with
+  | None => pstore s q = pserved s w
+  | Some o => pserved s o = pserved s w
+  end.
 
 Record Inv (w : peer) (s : astate) : Prop := {
-  inv_tok : ptok s w = false;
+  inv_basic : Basic s;
+  inv_tok : ptok s w = 0%nat;
   inv_pend : ppending s w = [];
   inv_in : forall a, link s a w = [];
   inv_up : forall c, c <> w -> link s c host = [];
-  inv_recv : forall q, q <> w -> pserved s q = None /\
-               (pevents s q = 0%nat /\ ptok s q = false \/ pevents s q = 1%nat /\ ptok s q = true);
-  inv_ev_store : forall q, pevents s q <> 0%nat -> pstore s q <> None;
-  inv_owner_l : forall a b o, o ∈ link s a b -> o = w;
-  inv_owner_p : forall q o, o ∈ ppending s q -> o = w;
+  inv_up_owner : forall o, o ∈ link s w host -> o = w;
+  inv_recv : forall q, q <> w -> ptok s q = pevents s q;
+  inv_live_l : forall a b o, o ∈ link s a b -> pserved s o <> None;
+  inv_live_p : forall q o, o ∈ ppending s q -> pserved s o <> None;
   inv_served : pserved s w = pstore s w \/ pevents s w <> 0%nat;
-  inv_live_l : forall a b, link s a b <> [] -> pserved s w <> None;
-  inv_live_p : forall q, ppending s q <> [] -> pserved s w <> None;
   inv_store : forall q, peers s q -> q <> w ->
-               pstore s q = pserved s w \/ notified w s q \/ pevents s w <> 0%nat
+               pevents s w <> 0%nat \/ link s w host <> [] \/ final_ok w s q
 }.
 
-Definition ev_ok (w : peer) (e : aevent) : Prop :=
+(* what the invariant tolerates: publications by w, fresh joiners outside the join window *)
+Definition ev_ok (w : peer) (s : astate) (e : aevent) : Prop :=
   match e with
   | APublish q _ => q = w
-  | AJoin _ pre => w = host /\ pre = None
+  | AJoin _ pre => pre = None /\ ppending s host = []
   | _ => True
   end.
 
 Definition store_after (w : peer) (s : astate) (e : aevent) : option content :=
   match e with APublish _ c => Some c | _ => pstore s w end.
-
-Lemma inv_ext w s s' :
-  (forall q, getp s' q = getp s q) -> (forall a b, link s' a b = link s a b) -> aconn s' = aconn s ->
-  Inv w s -> Inv w s'.
-Proof.
-  intros Hg Hl Hc HI. destruct HI.
-  constructor; unfold notified, peers, pstore, pevents, ptok, pserved, ppending in *;
-    intros; rewrite ?Hg, ?Hl, ?Hc in *; eauto.
-Qed.
 
 Lemma app_not_nil_l {A} (l1 l2 : list A) : l1 <> [] -> l1 ++ l2 <> [].
 Proof. destruct l1; [congruence|discriminate]. Qed.
@@ -683,269 +638,378 @@ Proof.
   - apply N.eqb_neq in E. intros H. apply elem_of_list_singleton in H. contradiction.
 Qed.
 
+Lemma final_ok_ext w s s' q :
+  queue s' q = queue s q -> pstore s' q = pstore s q -> (forall o, pserved s' o = pserved s o) ->
+  final_ok w s q -> final_ok w s' q.
+Proof. intros Hqu Hst Hsv. unfold final_ok. rewrite Hqu, Hst, !Hsv. destruct (last (queue s q)); [rewrite Hsv|]; auto. Qed.
+
+Lemma final_ok_last w s q o : last (queue s q) = Some o -> pserved s o = pserved s w -> final_ok w s q.
+Proof. intros H1 H2. unfold final_ok. rewrite H1. exact H2. Qed.
+
+Lemma inv_ext w s s' :
+  (forall q, getp s' q = getp s q) -> (forall a b, link s' a b = link s a b) -> aconn s' = aconn s ->
+  Inv w s -> Inv w s'.
+Proof.
+  intros Hg Hl Hc HI. destruct HI.
+  constructor; unfold Basic, final_ok, queue, peers, pstore, pevents, ptok, pserved, ppending in *;
+    intros; rewrite ?Hg, ?Hl, ?Hc in *; eauto.
+  destruct (inv_store0 q H H0) as [H1|[H1|H1]]; [auto|auto|]. right. right.
+  destruct (last (pending (getp s q) ++ link s host q)); [rewrite Hg|]; exact H1.
+Qed.
+
+(* the shape of a delivery under the invariant *)
+Lemma deliver_shape w s src dst o rest :
+  awf s -> Inv w s -> link s src dst = o :: rest ->
+  dst <> w /\ pserved s o <> None /\
+  ((src = host /\ dst ∈ aconn s /\ dst <> host) \/ (dst = host /\ src = w /\ o = w /\ w <> host /\ w ∈ aconn s)).
+Proof.
+  intros Hwf HI Hl0.
+  assert (Hne0 : link s src dst <> []) by (rewrite Hl0; discriminate).
+  assert (Hdw : dst <> w). { intros ->. rewrite (inv_in _ _ HI) in Hne0. congruence. }
+  split; [exact Hdw|]. split; [apply (inv_live_l _ _ HI src dst); rewrite Hl0; left|].
+  destruct (wf_link s src dst Hwf Hne0) as [[-> Hin]|[-> Hin]].
+  - left. split; [reflexivity|]. split; [exact Hin|]. intros ->. apply (wf_host s Hwf Hin).
+  - right. split; [reflexivity|]. destruct (decide (src = w)) as [->|Hn].
+    + split; [reflexivity|]. split; [apply (inv_up_owner _ _ HI); rewrite Hl0; left|].
+      split; [|exact Hin]. intros ->. apply (wf_host s Hwf Hin).
+    + rewrite (inv_up _ _ HI src Hn) in Hne0. congruence.
+Qed.
+
+Lemma inv_publish w s v s' :
+  awf s -> Inv w s -> astep s (APublish w v) = Some s' -> Inv w s' /\ pstore s' w = Some v.
+Proof.
+  intros Hwf HI Hstep. pose proof (basic_step1 s (APublish w v) s' I Hwf (inv_basic _ _ HI) I Hstep) as HB'.
+  apply step_publish in Hstep as (_ & Hc & Hl & _ & Hp & Hq).
+  assert (Hlk : forall a b, link s' a b = link s a b) by (intros; unfold link; rewrite Hl; reflexivity).
+  split; [|unfold pstore; rewrite Hp; reflexivity].
+  assert (Hsv : forall o, pserved s' o = pserved s o).
+  { intros o. unfold pserved. destruct (decide (o = w)) as [->|Hne]; [rewrite Hp; reflexivity|rewrite Hq by assumption; reflexivity]. }
+  assert (Hpd : forall q, ppending s' q = ppending s q).
+  { intros o. unfold ppending. destruct (decide (o = w)) as [->|Hne]; [rewrite Hp; reflexivity|rewrite Hq by assumption; reflexivity]. }
+  destruct HI as [iB iT iP iI iU iO iR iL iLp iS iSt]. constructor; intros; rewrite ?Hlk, ?Hsv, ?Hpd in *; eauto.
+  - unfold ptok. rewrite Hp. exact iT.
+  - unfold ptok, pevents. rewrite Hq by assumption. apply iR. assumption.
+  - right. unfold pevents. rewrite Hp. discriminate.
+  - left. unfold pevents. rewrite Hp. discriminate.
+Qed.
+
+Lemma inv_react1 w s p s' :
+  awf s -> Inv w s -> astep s (AReact1 p) = Some s' -> Inv w s' /\ pstore s' w = pstore s w.
+Proof.
+  intros Hwf HI Hstep. pose proof (wf_nodup s Hwf) as Hnd.
+  pose proof (basic_step1 s (AReact1 p) s' I Hwf (inv_basic _ _ HI) I Hstep) as HB'.
+  apply step_react1 in Hstep as (Hex & Hc & _ & Hp & Hq & Hl); [|exact Hnd].
+  assert (Hst : forall q, pstore s' q = pstore s q).
+  { intros q. unfold pstore. destruct (decide (q = p)) as [->|Hne]; [|rewrite Hq by assumption; reflexivity].
+    rewrite Hp. destruct (react1_cases (getp s p)) as [[_ E]|[(k & _ & E0 & E)|[(k & c & t & _ & E0 & _ & E)|(k & c & _ & E0 & _ & E)]]];
+      rewrite E; simpl; congruence. }
+  split; [|apply Hst].
+  destruct (react1_cases (getp s p)) as [[E0 E]|[(k & E0 & E1 & E)|[(k & c & t & E0 & E1 & E2 & E)|(k & c & E0 & E1 & E2 & E)]]].
+  - (* nothing unread *)
+    eapply inv_ext; [| |exact Hc|exact HI].
+    + intros q. destruct (decide (q = p)) as [->|Hne]; [rewrite Hp, E; reflexivity|apply Hq; exact Hne].
+    + intros a b. rewrite Hl, E. cbn [snd]. cdec as [[Hf _]|_]; [discriminate|reflexivity].
+  - exfalso. destruct (inv_basic _ _ HI p) as (_ & H2 & _). apply H2; [unfold pevents; rewrite E0; discriminate|exact E1].
+  - (* swallowed by a token *)
+    assert (Hpw : p <> w). { intros ->. pose proof (inv_tok _ _ HI) as Ht. unfold ptok in Ht. congruence. }
+    rewrite E in Hp, Hl. cbn [fst snd] in Hp, Hl.
+    assert (Hlk : forall a b, link s' a b = link s a b).
+    { intros a b. rewrite Hl. cdec as [[Hf _]|_]; [discriminate|reflexivity]. }
+    assert (Hsv : forall o, pserved s' o = pserved s o).
+    { intros o. unfold pserved. destruct (decide (o = p)) as [->|Hne]; [rewrite Hp; reflexivity|rewrite Hq by assumption; reflexivity]. }
+    assert (Hpd : forall q, ppending s' q = ppending s q).
+    { intros o. unfold ppending. destruct (decide (o = p)) as [->|Hne]; [rewrite Hp; reflexivity|rewrite Hq by assumption; reflexivity]. }
+    assert (Hew : pevents s' w = pevents s w) by (unfold pevents; rewrite Hq by congruence; reflexivity).
+    destruct HI as [iB iT iP iI iU iO iR iL iLp iS iSt]. constructor; intros; rewrite ?Hlk, ?Hsv, ?Hpd, ?Hst, ?Hew in *; eauto.
+    + unfold ptok. rewrite Hq by congruence. exact iT.
+    + destruct (decide (q = p)) as [->|Hne].
+      * unfold ptok, pevents. rewrite Hp. simpl. specialize (iR p Hpw). unfold ptok, pevents in iR. lia.
+      * unfold ptok, pevents. rewrite Hq by assumption. apply iR. assumption.
+    + unfold peers in H. rewrite Hc in H. destruct (iSt q H H0) as [H1|[H1|H1]]; [auto|auto|]. right. right.
+      eapply final_ok_ext; [| | |exact H1]; [unfold queue; rewrite Hpd, Hlk; reflexivity|apply Hst|apply Hsv].
+  - (* a local change: served and announced *)
+    destruct (decide (p = w)) as [->|Hpw].
+    2:{ exfalso. pose proof (inv_recv _ _ HI p Hpw) as H. unfold pevents, ptok in *. congruence. }
+    rewrite E in Hp, Hl. cbn [fst snd] in Hp, Hl.
+    assert (Hlk : forall a b, link s' a b = if decide (a = w /\ b ∈ dsts_of s w) then link s a b ++ [w] else link s a b).
+    { intros a b. rewrite Hl. destruct (decide (a = w /\ b ∈ dsts_of s w)) as [Hy|Hn].
+      - destruct (decide (true = true /\ _)) as [_|Hn]; [reflexivity|tauto].
+      - destruct (decide (true = true /\ _)) as [[_ Hy]|_]; [tauto|reflexivity]. }
+    assert (Hsvw : pserved s' w = Some c) by (unfold pserved; rewrite Hp; reflexivity).
+    assert (Hsv : forall o, o <> w -> pserved s' o = pserved s o).
+    { intros o Hne. unfold pserved. rewrite Hq by assumption. reflexivity. }
+    assert (Hmono : forall o, pserved s o <> None -> pserved s' o <> None).
+    { intros o Ho. destruct (decide (o = w)) as [->|Hne]; [rewrite Hsvw; discriminate|rewrite Hsv by assumption; exact Ho]. }
+    assert (Hpd : forall q, ppending s' q = ppending s q).
+    { intros o. unfold ppending. destruct (decide (o = w)) as [->|Hne]; [rewrite Hp; reflexivity|rewrite Hq by assumption; reflexivity]. }
+    destruct HI as [iB iT iP iI iU iO iR iL iLp iS iSt]. constructor; intros; rewrite ?Hpd in *.
+    + exact HB'.
+    + unfold ptok. rewrite Hp. reflexivity.
+    + exact iP.
+    + rewrite Hlk. cdec as [[_ Hin]|_]; [exfalso; eapply not_in_dsts; eauto|apply iI].
+    + rewrite Hlk. cdec as [[Heq _]|_]; [contradiction|apply iU; assumption].
+    + rewrite Hlk in H. cdec as [_|_]; [|apply iO; exact H].
+      apply elem_of_app in H as [H|H]; [apply iO; exact H|]. apply elem_of_list_singleton in H. exact H.
+    + unfold ptok, pevents. rewrite Hq by assumption. apply iR. assumption.
+    + rewrite Hlk in H. cdec as [_|_]; [|apply Hmono; eapply iL; exact H].
+      apply elem_of_app in H as [H|H]; [apply Hmono; eapply iL; exact H|].
+      apply elem_of_list_singleton in H. subst o. rewrite Hsvw. discriminate.
+    + apply Hmono. eapply iLp; exact H.
+    + left. rewrite Hsvw. unfold pstore. rewrite Hp. reflexivity.
+    + unfold peers in H. rewrite Hc in H. right. destruct (decide (w = host)) as [->|Hwh].
+      * right. apply (final_ok_last _ _ _ host); [|reflexivity].
+        unfold queue. rewrite Hpd, Hlk. cdec as [_|Hn]; [rewrite app_assoc; apply last_snoc|].
+        exfalso. apply Hn. split; [reflexivity|]. unfold dsts_of. change (host =? host)%N with true. cbv iota.
+        destruct H as [H|H]; [contradiction|exact H].
+      * left. rewrite Hlk. cdec as [_|Hn]; [apply app_not_nil_r; discriminate|].
+        exfalso. apply Hn. split; [reflexivity|]. unfold dsts_of.
+        destruct (w =? host)%N eqn:E'; [apply N.eqb_eq in E'; contradiction|]. apply elem_of_list_singleton. reflexivity.
+Qed.
+
+Lemma last_tail_ne {A} (o : A) (l : list A) : l <> [] -> last (o :: l) = last l.
+Proof. destruct l; [congruence|]. intros _. apply last_cons_cons. Qed.
+
+Lemma inv_deliver w s src dst s' :
+  awf s -> Inv w s -> astep s (ADeliver src dst) = Some s' -> Inv w s' /\ pstore s' w = pstore s w.
+Proof.
+  intros Hwf HI Hstep. pose proof (wf_nodup s Hwf) as Hnd. pose proof (wf_link_hh s Hwf) as Hhh.
+  pose proof (basic_step1 s (ADeliver src dst) s' I Hwf (inv_basic _ _ HI) I Hstep) as HB'.
+  apply step_deliver in Hstep as (o & rest & Hl0 & Hd & Hc & _ & Hp & Hq & Hl); [|exact Hnd].
+  destruct (deliver_shape w s src dst o rest Hwf HI Hl0) as (Hdw & Hlive & Hshape).
+  assert (Hst : forall q, pstore s' q = pstore s q).
+  { intros q. unfold pstore. destruct (decide (q = dst)) as [->|Hne]; [rewrite Hp; reflexivity|rewrite Hq by assumption; reflexivity]. }
+  assert (Hsv : forall q, pserved s' q = pserved s q).
+  { intros q. unfold pserved. destruct (decide (q = dst)) as [->|Hne]; [rewrite Hp; reflexivity|rewrite Hq by assumption; reflexivity]. }
+  assert (Hev : forall q, pevents s' q = pevents s q).
+  { intros q. unfold pevents. destruct (decide (q = dst)) as [->|Hne]; [rewrite Hp; reflexivity|rewrite Hq by assumption; reflexivity]. }
+  assert (Htk : forall q, ptok s' q = ptok s q).
+  { intros q. unfold ptok. destruct (decide (q = dst)) as [->|Hne]; [rewrite Hp; reflexivity|rewrite Hq by assumption; reflexivity]. }
+  assert (Hpd : forall q, ppending s' q = if decide (q = dst) then ppending s q ++ [o] else ppending s q).
+  { intros q. unfold ppending. destruct (decide (q = dst)) as [->|Hne]; [rewrite Hp; reflexivity|rewrite Hq by assumption; reflexivity]. }
+  split; [|apply Hst].
+  destruct HI as [iB iT iP iI iU iO iR iL iLp iS iSt]. constructor; intros; rewrite ?Hsv, ?Hev, ?Htk, ?Hst in *.
+  - exact HB'.
+  - exact iT.
+  - rewrite Hpd. destruct (decide (w = dst)); [congruence|exact iP].
+  - rewrite Hl. destruct (decide ((a, w) = (src, dst))) as [Heq|_]; [inversion Heq; congruence|].
+    rewrite iI. cbn [app]. cdec as [(Hdh & _ & Hin)|_]; [|reflexivity].
+    apply elem_of_others in Hin as [Hn _]. destruct Hshape as [(_ & _ & ?)|(? & ? & _)]; congruence.
+  - rewrite Hl. destruct (decide ((c, host) = (src, dst))) as [Heq|_].
+    + inversion Heq; subst. destruct Hshape as [(_ & _ & ?)|(_ & ? & _)]; congruence.
+    + rewrite iU by assumption. cbn [app]. cdec as [(_ & _ & Hin)|_]; [|reflexivity].
+      apply elem_of_others in Hin as [_ Hin]. exfalso. apply (wf_host s Hwf Hin).
+  - rewrite Hl in H. apply elem_of_app in H as [H|H].
+    + destruct (decide ((w, host) = (src, dst))) as [Heq|_]; [|apply iO; exact H].
+      inversion Heq; subst src dst. apply iO. rewrite Hl0. right. exact H.
+    + cdec as [(_ & _ & Hin)|_]; [|inversion H]. apply elem_of_others in Hin as [_ Hin]. exfalso. apply (wf_host s Hwf Hin).
+  - apply iR. assumption.
+  - rewrite Hl in H. apply elem_of_app in H as [H|H].
+    + destruct (decide ((a, b) = (src, dst))) as [Heq|_]; [|eapply iL; exact H].
+      apply (iL src dst). rewrite Hl0. right. exact H.
+    + cdec as [_|_]; [|inversion H]. apply elem_of_list_singleton in H. subst o0. exact Hlive.
+  - rewrite Hpd in H. destruct (decide (q = dst)) as [->|_]; [|eapply iLp; exact H].
+    apply elem_of_app in H as [H|H]; [eapply iLp; exact H|]. apply elem_of_list_singleton in H. subst o0. exact Hlive.
+  - exact iS.
+  - unfold peers in H. rewrite Hc in H.
+    destruct Hshape as [(-> & Hin & Hdh)|(-> & -> & -> & Hwh & Hin)].
+    + (* host -> client dst: the announcement moves from the channel into the pending list *)
+      assert (Hwl : link s' w host = link s w host).
+      { rewrite Hl. destruct (decide ((w, host) = (host, dst))) as [Heq|_]; [inversion Heq; congruence|].
+        destruct (decide (dst = host /\ _)) as [[? _]|_]; [contradiction|]. apply app_nil_r. }
+      rewrite Hwl. destruct (iSt q H H0) as [H1|[H1|H1]]; [auto|auto|]. right. right.
+      eapply final_ok_ext; [| | |exact H1]; [|apply Hst|apply Hsv].
+      unfold queue. rewrite Hpd, Hl. destruct (decide (dst = host /\ _)) as [[? _]|_]; [contradiction|]. rewrite app_nil_r.
+      destruct (decide (q = dst)) as [->|Hnq].
+      * destruct (decide ((host, dst) = (host, dst))) as [_|?]; [|congruence]. rewrite Hl0, <- app_assoc. reflexivity.
+      * destruct (decide ((host, q) = (host, dst))) as [Heq|_]; [inversion Heq; congruence|reflexivity].
+    + (* w -> host: the host queues the download and relays to every other client *)
+      right. right. apply (final_ok_last _ _ _ w); [|rewrite !Hsv; reflexivity].
+      unfold queue. rewrite Hpd, Hl. destruct (decide (q = host)) as [->|Hnq].
+      * destruct (decide ((host, host) = (w, host))) as [Heq|_]; [inversion Heq; congruence|].
+        destruct (decide (host = host /\ host = host /\ host ∈ others w (aconn s))) as [(_ & _ & Hin')|_].
+        { apply elem_of_others in Hin' as [_ Hin']. exfalso. apply (wf_host s Hwf Hin'). }
+        rewrite Hhh, !app_nil_r. apply last_snoc.
+      * destruct (decide ((host, q) = (w, host))) as [Heq|_]; [inversion Heq; congruence|].
+        destruct (decide (host = host /\ host = host /\ q ∈ others w (aconn s))) as [_|Hn].
+        -- rewrite !app_assoc. apply last_snoc.
+        -- exfalso. apply Hn. split; [reflexivity|]. split; [reflexivity|]. apply elem_of_others. split; [assumption|].
+           destruct H as [?|?]; [contradiction|assumption].
+Qed.
+
+Lemma inv_download w s p s' :
+  awf s -> Inv w s -> astep s (ADownload p) = Some s' -> Inv w s' /\ pstore s' w = pstore s w.
+Proof.
+  intros Hwf HI Hstep.
+  pose proof (basic_step1 s (ADownload p) s' I Hwf (inv_basic _ _ HI) I Hstep) as HB'.
+  apply step_download in Hstep as (o & rest & Hp0 & Hex & Hc & Hl & _ & Hp & Hq).
+  assert (Hlk : forall a b, link s' a b = link s a b) by (intros; unfold link; rewrite Hl; reflexivity).
+  assert (Hpw : p <> w). { intros ->. rewrite (inv_pend _ _ HI) in Hp0. discriminate. }
+  assert (Hlive : pserved s o <> None). { apply (inv_live_p _ _ HI p). rewrite Hp0. left. }
+  destruct (pserved s o) as [c|] eqn:Hso; [|congruence].
+  assert (Hp' : getp s' p = APeer (Some c) (S (pevents s p)) (S (ptok s p)) (pserved s p) rest).
+  { rewrite Hp. unfold download_peer. unfold ppending in Hp0. rewrite Hp0. reflexivity. }
+  assert (Hsv : forall q, pserved s' q = pserved s q).
+  { intros q. unfold pserved. destruct (decide (q = p)) as [->|Hne]; [rewrite Hp'; reflexivity|rewrite Hq by assumption; reflexivity]. }
+  assert (Hstw : pstore s' w = pstore s w) by (unfold pstore; rewrite Hq by congruence; reflexivity).
+  assert (Hew : pevents s' w = pevents s w) by (unfold pevents; rewrite Hq by congruence; reflexivity).
+  split; [|exact Hstw].
+  destruct HI as [iB iT iP iI iU iO iR iL iLp iS iSt]. constructor; intros; rewrite ?Hlk, ?Hsv, ?Hstw, ?Hew in *; eauto.
+  - unfold ptok. rewrite Hq by congruence. exact iT.
+  - unfold ppending. rewrite Hq by congruence. exact iP.
+  - destruct (decide (q = p)) as [->|Hne].
+    + unfold ptok, pevents. rewrite Hp'. simpl. f_equal. apply iR. assumption.
+    + unfold ptok, pevents. rewrite Hq by assumption. apply iR. assumption.
+  - destruct (decide (q = p)) as [->|Hne]; unfold ppending in H.
+    + rewrite Hp' in H. simpl in H. apply (iLp p). rewrite Hp0. right. exact H.
+    + rewrite Hq in H by assumption. eapply iLp; exact H.
+  - unfold peers in H. rewrite Hc in H. destruct (iSt q H H0) as [H1|[H1|H1]]; [auto|auto|]. right. right.
+    destruct (decide (q = p)) as [->|Hne].
+    + unfold final_ok, queue in *. rewrite Hlk. unfold ppending at 1. rewrite Hp'. cbn [pending].
+      rewrite Hp0 in H1. cbn [app] in H1.
+      destruct (rest ++ link s host p) as [|y l] eqn:Hr.
+      * simpl in H1. simpl. unfold pstore. rewrite Hp'. simpl. rewrite <- Hso, Hsv. exact H1.
+      * rewrite last_tail_ne in H1 by discriminate. revert H1.
+        destruct (last (y :: l)) as [z|] eqn:Hla; intros H1; [rewrite ?Hsv; exact H1|]. apply last_None in Hla. discriminate.
+    + eapply final_ok_ext; [| | |exact H1]; [|unfold pstore; rewrite Hq by assumption; reflexivity|apply Hsv].
+      unfold queue, ppending. rewrite Hlk, Hq by assumption. reflexivity.
+Qed.
+
+Lemma inv_join w s c s' :
+  awf s -> Inv w s -> ppending s host = [] -> astep s (AJoin c None) = Some s' ->
+  Inv w s' /\ pstore s' w = pstore s w.
+Proof.
+  intros Hwf HI Hwin Hstep. pose proof (wf_link_hh s Hwf) as Hhh.
+  pose proof (basic_step1 s (AJoin c None) s' I Hwf (inv_basic _ _ HI) I Hstep) as HB'.
+  apply step_join in Hstep as (Hch & Hcn & Hnone & Hc & _ & Hpc & Hph & Hq & Hl).
+  pose proof (getp_none _ _ Hnone) as Hc0.
+  assert (Hlc : link s host c = []) by (apply wf_link_nil; [exact Hwf|apply wf_host; exact Hwf|exact Hcn]).
+  assert (Hlc' : link s c host = []) by (apply wf_link_nil; [exact Hwf|exact Hcn|apply wf_host; exact Hwf]).
+  assert (Hst : forall q, pstore s' q = pstore s q).
+  { intros q. unfold pstore. destruct (decide (q = c)) as [->|Hne]; [rewrite Hpc, Hc0; reflexivity|].
+    destruct (decide (q = host)) as [->|Hnh]; [rewrite Hph; reflexivity|rewrite Hq by assumption; reflexivity]. }
+  assert (Hev : forall q, pevents s' q = pevents s q).
+  { intros q. unfold pevents. destruct (decide (q = c)) as [->|Hne]; [rewrite Hpc, Hc0; reflexivity|].
+    destruct (decide (q = host)) as [->|Hnh]; [rewrite Hph; reflexivity|rewrite Hq by assumption; reflexivity]. }
+  assert (Htk : forall q, ptok s' q = ptok s q).
+  { intros q. unfold ptok. destruct (decide (q = c)) as [->|Hne]; [rewrite Hpc, Hc0; reflexivity|].
+    destruct (decide (q = host)) as [->|Hnh]; [rewrite Hph; reflexivity|rewrite Hq by assumption; reflexivity]. }
+  assert (Hpd : forall q, ppending s' q = ppending s q).
+  { intros q. unfold ppending. destruct (decide (q = c)) as [->|Hne]; [rewrite Hpc, Hc0; reflexivity|].
+    destruct (decide (q = host)) as [->|Hnh]; [rewrite Hph; reflexivity|rewrite Hq by assumption; reflexivity]. }
+  assert (Hsv : forall o, o <> host -> pserved s' o = pserved s o).
+  { intros q Hnh. unfold pserved. destruct (decide (q = c)) as [->|Hne]; [rewrite Hpc, Hc0; reflexivity|].
+    rewrite Hq by assumption; reflexivity. }
+  assert (Hsvh : pserved s' host = match pstore s host with Some v => Some v | None => pserved s host end).
+  { unfold pserved, pstore. rewrite Hph. reflexivity. }
+  assert (Hmono : forall o, pserved s o <> None -> pserved s' o <> None).
+  { intros o Ho. destruct (decide (o = host)) as [->|Hne]; [|rewrite Hsv by assumption; exact Ho].
+    rewrite Hsvh. destruct (pstore s host); [discriminate|exact Ho]. }
+  assert (Hlw : link s' w host = link s w host).
+  { rewrite Hl. cdec as [Heq|_]; [inversion Heq; congruence|reflexivity]. }
+  (* unless something of w is still on its way to the host, the host now serves what w serves *)
+  assert (HK : (pevents s w <> 0%nat \/ link s w host <> []) \/
+               (pserved s' host = pserved s w /\ pserved s' w = pserved s w /\ (pstore s host = None -> pserved s w = None))).
+  { destruct (decide (w = host)) as [->|Hwh].
+    - destruct (inv_served _ _ HI) as [Hs|Hs]; [|left; left; exact Hs]. right.
+      assert (H1 : pserved s' host = pserved s host) by (rewrite Hsvh, <- Hs; destruct (pserved s host); reflexivity).
+      split; [exact H1|]. split; [exact H1|]. intros Hn. rewrite Hs. exact Hn.
+    - destruct (inv_store _ _ HI host (or_introl eq_refl) (not_eq_sym Hwh)) as [H1|[H1|H1]]; [left; left; exact H1|left; right; exact H1|].
+      right. unfold final_ok, queue in H1. rewrite Hwin, Hhh in H1. simpl in H1.
+      assert (H2 : pserved s' host = pserved s w).
+      { rewrite Hsvh, <- H1. destruct (pstore s host) eqn:E; [reflexivity|].
+        destruct (inv_basic _ _ HI host) as (_ & _ & H3). destruct (pserved s host); [exfalso; apply H3; [discriminate|exact E]|reflexivity]. }
+      split; [exact H2|]. split; [apply Hsv; exact Hwh|]. intros Hn. rewrite <- H1. exact Hn. }
+  split; [|apply Hst].
+  destruct HI as [iB iT iP iI iU iO iR iL iLp iS iSt]. constructor; intros; rewrite ?Hev, ?Htk, ?Hpd, ?Hst, ?Hlw in *.
+  - exact HB'.
+  - exact iT.
+  - exact iP.
+  - rewrite Hl. cdec as [Heq|_]; [|apply iI]. inversion Heq; subst a w. rewrite Hlc. cbn [app].
+    unfold snapshot. destruct HK as [[H1|H1]|(_ & _ & H1)].
+    + exfalso. apply H1. unfold pevents. rewrite Hc0. reflexivity.
+    + exfalso. apply H1. exact Hlc'.
+    + destruct (pstore s host) eqn:E; [|reflexivity]. exfalso.
+      destruct (iSt host (or_introl eq_refl) (not_eq_sym Hch)) as [H2|[H2|H2]].
+      * apply H2. unfold pevents. rewrite Hc0. reflexivity.
+      * apply H2. exact Hlc'.
+      * unfold final_ok, queue in H2. rewrite Hwin, Hhh in H2. simpl in H2. unfold pserved at 1 in H2. rewrite Hc0 in H2. simpl in H2. congruence.
+  - rewrite Hl. cdec as [Heq|_]; [inversion Heq; congruence|apply iU; assumption].
+  - apply iO. exact H.
+  - apply iR. assumption.
+  - rewrite Hl in H. cdec as [Heq|_]; [|apply Hmono; eapply iL; exact H].
+    rewrite Hlc in H. cbn [app] in H. unfold snapshot in H. destruct (pstore s host) eqn:E; [|inversion H].
+    apply elem_of_list_singleton in H. subst o. rewrite Hsvh. discriminate.
+  - apply Hmono. eapply iLp; exact H.
+  - destruct (decide (w = host)) as [->|Hwh]; [|rewrite Hsv by assumption; exact iS].
+    rewrite Hsvh. destruct (pstore s host) eqn:E; [left; reflexivity|exact iS].
+  - destruct HK as [[HK0|HK0]|(HK1 & HK2 & HK3)]; [left; exact HK0|right; left; exact HK0|].
+    destruct (Nat.eq_dec (pevents s w) 0%nat) as [He0|He0]; [|left; exact He0].
+    destruct (decide (link s w host = [])) as [Hl0|Hl0]; [|right; left; exact Hl0]. right. right.
+    destruct (decide (q = c)) as [->|Hnq].
+    + unfold final_ok, queue. rewrite Hpd. unfold ppending at 1. rewrite Hc0. cbn [pending app].
+      rewrite Hl. destruct (decide ((host, c) = (host, c))) as [_|?]; [|congruence]. rewrite Hlc. cbn [app].
+      unfold snapshot. destruct (pstore s host) eqn:E.
+      * simpl. rewrite HK1, HK2. reflexivity.
+      * simpl. rewrite Hst, HK2, (HK3 eq_refl). unfold pstore. rewrite Hc0. reflexivity.
+    + assert (Hpq : peers s q).
+      { destruct H as [H|H]; [left; exact H|]. rewrite Hc in H. apply elem_of_app in H as [H|H]; [right; exact H|].
+        apply elem_of_list_singleton in H. contradiction. }
+      assert (Hqu : queue s' q = queue s q).
+      { unfold queue. rewrite Hpd, Hl. destruct (decide ((host, q) = (host, c))) as [Heq|_]; [inversion Heq; congruence|reflexivity]. }
+      destruct (iSt q Hpq H0) as [H1|[H1|H1]]; [contradiction|contradiction|].
+      unfold final_ok in *. rewrite Hqu, Hst, HK2. destruct (last (queue s q)) as [o|]; [|exact H1].
+      destruct (decide (o = host)) as [->|Hno]; [exact HK1|]. rewrite Hsv by assumption. exact H1.
+Qed.
+
+Lemma inv_publish_quiescent p s c s' :
+  awf s -> Basic s -> aquiescent s -> astep s (APublish p c) = Some s' -> Inv p s' /\ pstore s' p = Some c.
+Proof.
+  intros Hwf HB Hqs Hstep. pose proof (basic_step1 s (APublish p c) s' I Hwf HB I Hstep) as HB'.
+  apply step_publish in Hstep as (_ & Hc & Hl & _ & Hp & Hq).
+  assert (Hlk : forall a b, link s' a b = []) by (intros; unfold link; rewrite Hl; apply (quiescent_link s _ _ Hqs)).
+  assert (Hpd : forall q, ppending s' q = []).
+  { intros q. destruct (quiescent_peer s q Hqs) as (_ & _ & H). unfold ppending in *.
+    destruct (decide (q = p)) as [->|Hne]; [rewrite Hp; exact H|rewrite Hq by assumption; exact H]. }
+  split; [|unfold pstore; rewrite Hp; reflexivity].
+  constructor; intros; rewrite ?Hlk, ?Hpd in *; auto.
+  - unfold ptok. rewrite Hp. apply (quiescent_peer s p Hqs).
+  - inversion H.
+  - unfold ptok, pevents. rewrite Hq by assumption. destruct (quiescent_peer s q Hqs) as (H1 & H2 & _).
+    unfold ptok, pevents in *. congruence.
+  - inversion H.
+  - inversion H.
+  - right. unfold pevents. rewrite Hp. discriminate.
+  - left. unfold pevents. rewrite Hp. discriminate.
+Qed.
+
 Lemma inv_step1 w s e s' :
-  match e with AReact _ => False | _ => True end ->
-  awf s -> Inv w s -> ev_ok w e -> bad_S7 s e = false -> astep s e = Some s' ->
+  single e -> awf s -> Inv w s -> ev_ok w s e -> astep s e = Some s' ->
   Inv w s' /\ pstore s' w = store_after w s e.
 Proof.
-  intros Hnb Hwf HI Hok Hbad Hstep. pose proof (wf_nodup s Hwf) as Hnd.
-  destruct e as [p v|p|p|src dst|p|c pre]; [|contradiction| | | |].
-  - (* APublish *)
-    simpl in Hok. subst p.
-    apply step_publish in Hstep as (_ & Hc & Hl & _ & Hp & Hq).
-    assert (Hlk : forall a b, link s' a b = link s a b) by (intros; unfold link; rewrite Hl; reflexivity).
-    destruct HI. split; [|unfold pstore; rewrite Hp; reflexivity].
-    constructor; unfold notified, peers; intros; rewrite ?Hlk, ?Hc in *; eauto.
-    + unfold ptok. rewrite Hp. exact inv_tok0.
-    + unfold ppending. rewrite Hp. exact inv_pend0.
-    + unfold pserved, pevents, ptok. rewrite Hq by assumption. apply inv_recv0. assumption.
-    + destruct (decide (q = w)) as [->|Hne]; [unfold pstore; rewrite Hp; discriminate|].
-      unfold pstore, pevents in *. rewrite Hq in * by assumption. auto.
-    + destruct (decide (q = w)) as [->|Hne].
-      * unfold ppending in H. rewrite Hp in H. simpl in H. eapply inv_owner_p0; exact H.
-      * unfold ppending in H. rewrite Hq in H by assumption. eapply inv_owner_p0; exact H.
-    + right. unfold pevents. rewrite Hp. discriminate.
-    + unfold pserved. rewrite Hp. simpl. eapply inv_live_l0; eauto.
-    + unfold pserved. rewrite Hp. simpl. destruct (decide (q = w)) as [->|Hne].
-      * unfold ppending in H. rewrite Hp in H. simpl in H. contradiction.
-      * unfold ppending in H. rewrite Hq in H by assumption. eapply inv_live_p0; eauto.
-    + right. right. unfold pevents. rewrite Hp. discriminate.
-  - (* AReact1 *)
-    apply step_react1 in Hstep as (Hex & Hc & _ & Hp & Hq & Hl); [|exact Hnd].
-    assert (Hst : pstore s' w = pstore s w).
-    { unfold pstore. destruct (decide (w = p)) as [->|Hne]; [|rewrite Hq by assumption; reflexivity].
-      rewrite Hp. destruct (react1_cases (getp s p)) as [[_ E]|[(k & _ & E0 & E)|[(k & c & _ & E0 & _ & E)|(k & c & _ & E0 & _ & E)]]];
-        rewrite E; simpl; congruence. }
-    split; [|exact Hst].
-    destruct (react1_cases (getp s p)) as [[E0 E]|[(k & E0 & E1 & E)|[(k & c & E0 & E1 & E2 & E)|(k & c & E0 & E1 & E2 & E)]]].
-    + (* nothing unread *)
-      eapply inv_ext; [| |exact Hc|exact HI].
-      * intros q. destruct (decide (q = p)) as [->|Hne]; [rewrite Hp, E; reflexivity|apply Hq; exact Hne].
-      * intros a b. rewrite Hl, E. cbn [snd]. cdec as [[Hf _]|_]; [discriminate|reflexivity].
-    + exfalso. eapply (inv_ev_store _ _ HI p); [unfold pevents; rewrite E0; discriminate|exact E1].
-    + (* swallowed *)
-      assert (Hpw : p <> w). { intros ->. pose proof (inv_tok _ _ HI) as Ht. unfold ptok in Ht. congruence. }
-      assert (Hk : k = 0%nat).
-      { destruct (inv_recv _ _ HI p Hpw) as [_ [[H0 _]|[H1 _]]]; unfold pevents in *; [congruence|lia]. }
-      subst k. rewrite E in Hp, Hl. cbn [fst snd] in Hp, Hl.
-      assert (Hlk : forall a b, link s' a b = link s a b).
-      { intros a b. rewrite Hl. cdec as [[Hf _]|_]; [discriminate|reflexivity]. }
-      assert (Hserved : pserved s p = None) by apply (inv_recv _ _ HI p Hpw).
-      destruct HI. constructor; unfold notified, peers; intros; rewrite ?Hlk, ?Hc in *; eauto.
-      * unfold ptok. rewrite Hq by congruence. exact inv_tok0.
-      * unfold ppending. rewrite Hq by congruence. exact inv_pend0.
-      * destruct (decide (q = p)) as [->|Hne].
-        -- unfold pserved, pevents, ptok. rewrite Hp. simpl. split; [exact Hserved|left; auto].
-        -- unfold pserved, pevents, ptok. rewrite Hq by assumption. apply inv_recv0. assumption.
-      * destruct (decide (q = p)) as [->|Hne]; [unfold pevents in H; rewrite Hp in H; simpl in H; congruence|].
-        unfold pstore, pevents in *. rewrite Hq in * by assumption. auto.
-      * destruct (decide (q = p)) as [->|Hne]; unfold ppending in H.
-        -- rewrite Hp in H. simpl in H. eapply inv_owner_p0; exact H.
-        -- rewrite Hq in H by assumption. eapply inv_owner_p0; exact H.
-      * unfold pserved, pstore, pevents. rewrite Hq by congruence. exact inv_served0.
-      * unfold pserved. rewrite Hq by congruence. eapply inv_live_l0; eauto.
-      * unfold pserved. rewrite Hq by congruence. destruct (decide (q = p)) as [->|Hne]; unfold ppending in H.
-        -- rewrite Hp in H. simpl in H. eapply inv_live_p0; exact H.
-        -- rewrite Hq in H by assumption. eapply inv_live_p0; exact H.
-      * unfold pserved, pevents. rewrite (Hq w) by congruence.
-        destruct (decide (q = p)) as [->|Hne].
-        -- unfold pstore, ppending. rewrite Hp. simpl. rewrite <- E1. apply inv_store0; assumption.
-        -- unfold pstore, ppending. rewrite Hq by assumption. apply inv_store0; assumption.
-    + (* announced *)
-      destruct (decide (p = w)) as [->|Hpw].
-      2:{ exfalso. destruct (inv_recv _ _ HI p Hpw) as [_ [[H0 _]|[_ H1]]]; unfold pevents, ptok in *; congruence. }
-      rewrite E in Hp, Hl. cbn [fst snd] in Hp, Hl.
-      assert (Hlk : forall a b, link s' a b = if decide (a = w /\ b ∈ dsts_of s w) then link s a b ++ [w] else link s a b).
-      { intros a b. rewrite Hl. destruct (decide (a = w /\ b ∈ dsts_of s w)) as [Hy|Hn].
-        - destruct (decide (true = true /\ _)) as [_|Hn]; [reflexivity|tauto].
-        - destruct (decide (true = true /\ _)) as [[_ Hy]|_]; [tauto|reflexivity]. }
-      assert (Hsv : pserved s' w = Some c) by (unfold pserved; rewrite Hp; reflexivity).
-      destruct HI. constructor; unfold notified, peers; intros; rewrite ?Hc in *.
-      * unfold ptok. rewrite Hp. reflexivity.
-      * unfold ppending. rewrite Hp. exact inv_pend0.
-      * rewrite Hlk. cdec as [[_ Hin]|_]; [exfalso; eapply not_in_dsts; eauto|apply inv_in0].
-      * rewrite Hlk. cdec as [[Heq _]|_]; [contradiction|apply inv_up0; assumption].
-      * unfold pserved, pevents, ptok. rewrite Hq by assumption. apply inv_recv0. assumption.
-      * destruct (decide (q = w)) as [->|Hne]; [unfold pstore; rewrite Hp; discriminate|].
-        unfold pstore, pevents in *. rewrite Hq in * by assumption. auto.
-      * rewrite Hlk in H. cdec as [_|_]; [|eapply inv_owner_l0; exact H].
-        apply elem_of_app in H as [H|H]; [eapply inv_owner_l0; exact H|]. apply elem_of_list_singleton in H. exact H.
-      * destruct (decide (q = w)) as [->|Hne]; unfold ppending in H.
-        -- rewrite Hp in H. simpl in H. eapply inv_owner_p0; exact H.
-        -- rewrite Hq in H by assumption. eapply inv_owner_p0; exact H.
-      * left. rewrite Hsv. unfold pstore. rewrite Hp. reflexivity.
-      * rewrite Hsv. discriminate.
-      * rewrite Hsv. discriminate.
-      * right. left. right. destruct (decide (w = host)) as [->|Hwh].
-        -- left. rewrite Hlk. cdec as [_|Hn]; [apply app_not_nil_r; discriminate|].
-           exfalso. apply Hn. split; [reflexivity|]. unfold dsts_of. change (host =? host)%N with true. cbv iota.
-           destruct H as [H|H]; [contradiction|exact H].
-        -- right. rewrite Hlk. cdec as [_|Hn]; [apply app_not_nil_r; discriminate|].
-           exfalso. apply Hn. split; [reflexivity|]. unfold dsts_of.
-           destruct (w =? host)%N eqn:E'; [apply N.eqb_eq in E'; contradiction|]. apply elem_of_list_singleton. reflexivity.
-  - (* ADeliver *)
-    apply step_deliver in Hstep as (o & rest & Hl0 & Hd & Hc & _ & Hp & Hq & Hl); [|exact Hnd].
-    assert (Hne0 : link s src dst <> []) by (rewrite Hl0; discriminate).
-    assert (Hdw : dst <> w). { intros ->. rewrite (inv_in _ _ HI) in Hne0. congruence. }
-    assert (How : o = w). { eapply (inv_owner_l _ _ HI src dst). rewrite Hl0. left. }
-    subst o.
-    assert (Hshape : (src = host /\ dst ∈ aconn s /\ dst <> host) \/ (dst = host /\ src = w /\ w <> host /\ w ∈ aconn s)).
-    { destruct (wf_link s src dst Hwf Hne0) as [[-> Hin]|[-> Hin]].
-      - left. split; [reflexivity|]. split; [exact Hin|]. intros ->. apply (wf_host s Hwf Hin).
-      - right. split; [reflexivity|]. destruct (decide (src = w)) as [->|Hn].
-        + split; [reflexivity|]. split; [|exact Hin]. intros ->. apply (wf_host s Hwf Hin).
-        + rewrite (inv_up _ _ HI src Hn) in Hne0. congruence. }
-    assert (Hsd : pserved s dst = None) by apply (inv_recv _ _ HI dst Hdw).
-    assert (Hp' : getp s' dst = APeer (pstore s dst) (pevents s dst) (ptok s dst) None (ppending s dst ++ [w])).
-    { rewrite Hp. unfold request_peer. unfold pserved in Hsd. rewrite Hsd. reflexivity. }
-    assert (Hsvw : pserved s' w = pserved s w) by (unfold pserved; rewrite Hq by congruence; reflexivity).
-    assert (Hlive : pserved s w <> None) by (eapply (inv_live_l _ _ HI); exact Hne0).
-    split; [|unfold store_after, pstore; rewrite Hq by congruence; reflexivity].
-    destruct HI. constructor; unfold notified, peers; intros; rewrite ?Hc in *.
-    + unfold ptok. rewrite Hq by congruence. exact inv_tok0.
-    + unfold ppending. rewrite Hq by congruence. exact inv_pend0.
-    + rewrite Hl. destruct (decide ((a, w) = (src, dst))) as [Heq|_]; [inversion Heq; congruence|].
-      rewrite inv_in0. cbn [app]. cdec as [(Hdh & _ & Hin)|_]; [|reflexivity].
-      apply elem_of_others in Hin as [Hn _]. destruct Hshape as [(_ & _ & ?)|(? & ? & _)]; congruence.
-    + rewrite Hl. destruct (decide ((c, host) = (src, dst))) as [Heq|_].
-      * inversion Heq; subst. destruct Hshape as [(_ & _ & ?)|(_ & ? & _)]; congruence.
-      * rewrite inv_up0 by assumption. cbn [app]. cdec as [(_ & _ & Hin)|_]; [|reflexivity].
-        apply elem_of_others in Hin as [_ Hin]. exfalso. apply (wf_host s Hwf Hin).
-    + destruct (decide (q = dst)) as [->|Hne].
-      * unfold pserved, pevents, ptok. rewrite Hp'. simpl. split; [reflexivity|apply inv_recv0; assumption].
-      * unfold pserved, pevents, ptok. rewrite Hq by assumption. apply inv_recv0. assumption.
-    + destruct (decide (q = dst)) as [->|Hne].
-      * unfold pstore, pevents in *. rewrite Hp' in *. simpl in *. apply inv_ev_store0. exact H.
-      * unfold pstore, pevents in *. rewrite Hq in * by assumption. auto.
-    + rewrite Hl in H. apply elem_of_app in H as [H|H].
-      * destruct (decide ((a, b) = (src, dst))) as [_|_]; [|eapply inv_owner_l0; exact H].
-        eapply (inv_owner_l0 src dst). rewrite Hl0. right. exact H.
-      * cdec as [?|?]; [apply elem_of_list_singleton in H; exact H|inversion H].
-    + destruct (decide (q = dst)) as [->|Hne]; unfold ppending in H.
-      * rewrite Hp' in H. simpl in H. apply elem_of_app in H as [H|H]; [eapply inv_owner_p0; exact H|].
-        apply elem_of_list_singleton in H. exact H.
-      * rewrite Hq in H by assumption. eapply inv_owner_p0; exact H.
-    + unfold pserved, pstore, pevents. rewrite Hq by congruence. exact inv_served0.
-    + rewrite Hsvw. exact Hlive.
-    + rewrite Hsvw. exact Hlive.
-    + rewrite Hsvw. unfold pevents. rewrite (Hq w) by congruence. fold (pevents s w).
-      destruct (decide (q = dst)) as [->|Hne].
-      * right. left. left. unfold ppending. rewrite Hp'. simpl. apply app_not_nil_r. discriminate.
-      * unfold pstore, ppending. rewrite Hq by assumption. fold (pstore s q). fold (ppending s q).
-        destruct (inv_store0 q H H0) as [Hs|[[Hn|[Hn|Hn]]|He]]; [left; exact Hs| | | |right; right; exact He];
-          right; left.
-        -- left. exact Hn.
-        -- right. left. rewrite Hl. apply app_not_nil_l.
-           destruct (decide ((host, q) = (src, dst))) as [Heq|_]; [inversion Heq; congruence|exact Hn].
-        -- destruct (decide ((w, host) = (src, dst))) as [Heq|Hneq].
-           ++ inversion Heq; subst src dst. right. left. rewrite Hl. apply app_not_nil_r.
-              cdec as [_|Hnn]; [discriminate|]. exfalso. apply Hnn. split; [reflexivity|]. split; [reflexivity|].
-              apply elem_of_others. split; [assumption|]. destruct H as [H|H]; [contradiction|exact H].
-           ++ right. right. rewrite Hl. apply app_not_nil_l.
-              destruct (decide ((w, host) = (src, dst))) as [?|_]; [contradiction|exact Hn].
-  - (* ADownload *)
-    apply step_download in Hstep as (o & rest & Hp0 & Hex & Hc & Hl & _ & Hp & Hq).
-    assert (Hlk : forall a b, link s' a b = link s a b) by (intros; unfold link; rewrite Hl; reflexivity).
-    assert (Hpw : p <> w). { intros ->. rewrite (inv_pend _ _ HI) in Hp0. discriminate. }
-    assert (How : o = w). { eapply (inv_owner_p _ _ HI p). rewrite Hp0. left. }
-    subst o.
-    assert (Hlive : pserved s w <> None). { eapply (inv_live_p _ _ HI p). rewrite Hp0. discriminate. }
-    destruct (pserved s w) as [c|] eqn:Hsw; [|congruence].
-    simpl in Hbad. rewrite Hp0, Hsw in Hbad. apply negb_false_iff, Nat.eqb_eq in Hbad.
-    assert (Htk : ptok s p = false).
-    { destruct (inv_recv _ _ HI p Hpw) as [_ [[_ Ht]|[He _]]]; [exact Ht|lia]. }
-    assert (Hp' : getp s' p = APeer (Some c) 1 true (pserved s p) rest).
-    { rewrite Hp. unfold download_peer. unfold pevents, ppending in *. rewrite Hbad, Hp0. reflexivity. }
-    assert (Hsvw : pserved s' w = Some c) by (unfold pserved in *; rewrite Hq by congruence; exact Hsw).
-    split; [|unfold store_after, pstore; rewrite Hq by congruence; reflexivity].
-    destruct HI. constructor; unfold notified, peers; intros; rewrite ?Hlk, ?Hc in *; eauto.
-    + unfold ptok. rewrite Hq by congruence. exact inv_tok0.
-    + unfold ppending. rewrite Hq by congruence. exact inv_pend0.
-    + destruct (decide (q = p)) as [->|Hne].
-      * unfold pserved, pevents, ptok. rewrite Hp'. simpl. split; [apply inv_recv0; assumption|right; auto].
-      * unfold pserved, pevents, ptok. rewrite Hq by assumption. apply inv_recv0. assumption.
-    + destruct (decide (q = p)) as [->|Hne]; [unfold pstore; rewrite Hp'; discriminate|].
-      unfold pstore, pevents in *. rewrite Hq in * by assumption. auto.
-    + destruct (decide (q = p)) as [->|Hne]; unfold ppending in H.
-      * rewrite Hp' in H. simpl in H. eapply (inv_owner_p0 p). rewrite Hp0. right. exact H.
-      * rewrite Hq in H by assumption. eapply inv_owner_p0; exact H.
-    + unfold pserved, pstore, pevents. rewrite Hq by congruence. fold (pserved s w). rewrite Hsw.
-      unfold pserved, pstore, pevents in inv_served0. rewrite <- Hsw. exact inv_served0.
-    + rewrite Hsvw. discriminate.
-    + rewrite Hsvw. discriminate.
-    + rewrite Hsvw. unfold pevents. rewrite (Hq w) by congruence. fold (pevents s w).
-      destruct (decide (q = p)) as [->|Hne].
-      * left. unfold pstore. rewrite Hp'. reflexivity.
-      * unfold pstore, ppending. rewrite Hq by assumption. fold (pstore s q). fold (ppending s q).
-        rewrite <- Hsw. apply inv_store0; assumption.
-  - (* AJoin *)
-    destruct Hok as [-> ->].
-    apply step_join in Hstep as (Hch & Hcn & Hnone & Hc & _ & Hpc & Hph & Hq & Hl).
-    assert (Hsv' : pserved s' host = match pstore s host with Some v => Some v | None => pserved s host end).
-    { unfold pserved, pstore. rewrite Hph. reflexivity. }
-    assert (Hsnap : pstore s host = None -> snapshot s = []) by (intros H; unfold snapshot; rewrite H; reflexivity).
-    assert (Hkeep : pevents s host = 0%nat -> pserved s' host = pserved s host).
-    { intros He. rewrite Hsv'. destruct (inv_served _ _ HI) as [Hs|Hs]; [|contradiction].
-      rewrite Hs. destruct (pstore s host); reflexivity. }
-    split; [|unfold store_after, pstore; rewrite Hph; reflexivity].
-    destruct HI. constructor; unfold notified, peers; intros.
-    + unfold ptok. rewrite Hph. exact inv_tok0.
-    + unfold ppending. rewrite Hph. exact inv_pend0.
-    + rewrite Hl. cdec as [Heq|_]; [inversion Heq; congruence|apply inv_in0].
-    + rewrite Hl. cdec as [Heq|_]; [inversion Heq; congruence|apply inv_up0; assumption].
-    + destruct (decide (q = c)) as [->|Hne].
-      * unfold pserved, pevents, ptok. rewrite Hpc. simpl. auto.
-      * unfold pserved, pevents, ptok. rewrite Hq by assumption. apply inv_recv0. assumption.
-    + destruct (decide (q = c)) as [->|Hne]; [unfold pevents in H; rewrite Hpc in H; simpl in H; congruence|].
-      destruct (decide (q = host)) as [->|Hnh].
-      * unfold pstore, pevents in *. rewrite Hph in *. simpl in *. auto.
-      * unfold pstore, pevents in *. rewrite Hq in * by assumption. auto.
-    + rewrite Hl in H. cdec as [_|_]; [|eapply inv_owner_l0; exact H].
-      apply elem_of_app in H as [H|H]; [eapply inv_owner_l0; exact H|].
-      unfold snapshot in H. destruct (pstore s host); [apply elem_of_list_singleton in H; exact H|inversion H].
-    + destruct (decide (q = c)) as [->|Hne]; [unfold ppending in H; rewrite Hpc in H; inversion H|].
-      destruct (decide (q = host)) as [->|Hnh]; unfold ppending in H.
-      * rewrite Hph in H. simpl in H. eapply inv_owner_p0; exact H.
-      * rewrite Hq in H by assumption. eapply inv_owner_p0; exact H.
-    + rewrite Hsv'. unfold pstore at 2, pevents. rewrite Hph. simpl. fold (pstore s host). fold (pevents s host).
-      destruct (pstore s host) eqn:Hs; [left; reflexivity|exact inv_served0].
-    + rewrite Hsv'. destruct (pstore s host) eqn:Hs; [discriminate|]. rewrite Hl, (Hsnap eq_refl) in H.
-      cdec as [_|_]; [rewrite app_nil_r in H|]; eapply inv_live_l0; exact H.
-    + rewrite Hsv'. destruct (pstore s host) eqn:Hs; [discriminate|].
-      destruct (decide (q = c)) as [->|Hne]; [unfold ppending in H; rewrite Hpc in H; contradiction|].
-      destruct (decide (q = host)) as [->|Hnh]; unfold ppending in H.
-      * rewrite Hph in H. simpl in H. eapply inv_live_p0; exact H.
-      * rewrite Hq in H by assumption. eapply inv_live_p0; exact H.
-    + unfold pevents. rewrite Hph. simpl. fold (pevents s host).
-      destruct (Nat.eq_dec (pevents s host) 0%nat) as [He|He]; [|right; right; exact He].
-      rewrite (Hkeep He). destruct (decide (q = c)) as [->|Hne].
-      * unfold pstore at 1. rewrite Hpc. simpl. destruct (pstore s host) eqn:Hs.
-        -- right. left. right. left. rewrite Hl. cdec as [_|?]; [|congruence].
-           apply app_not_nil_r. unfold snapshot. rewrite Hs. discriminate.
-        -- left. destruct (inv_served0) as [H1|H1]; [|contradiction]. rewrite H1. reflexivity.
-      * assert (Hpq : peers s q).
-        { destruct H as [H|H]; [left; exact H|]. rewrite Hc in H. apply elem_of_app in H as [H|H]; [right; exact H|].
-          apply elem_of_list_singleton in H. contradiction. }
-        unfold pstore at 1, ppending. rewrite Hq by assumption. fold (pstore s q). fold (ppending s q).
-        destruct (inv_store0 q Hpq H0) as [Hs|[[Hn|[Hn|Hn]]|He']]; [left; exact Hs| | | |contradiction]; right; left.
-        -- left. exact Hn.
-        -- right. left. rewrite Hl. cdec as [Heq|_]; [inversion Heq; congruence|exact Hn].
-        -- right. right. rewrite Hl. cdec as [Heq|_]; [inversion Heq; congruence|exact Hn].
+  intros He Hwf HI Hok Hstep. destruct e as [p v|p|p|src dst|p|c pre]; [|contradiction| | | |].
+  - simpl in Hok. subst p. eapply inv_publish; eauto.
+  - eapply inv_react1; eauto.
+  - eapply inv_deliver; eauto.
+  - eapply inv_download; eauto.
+  - destruct Hok as [-> Hwin]. eapply inv_join; eauto.
+Qed.
+
+Lemma inv_react w s p s' :
+  awf s -> Inv w s -> astep s (AReact p) = Some s' -> Inv w s' /\ pstore s' w = pstore s w.
+Proof.
+  intros Hwf HI Hstep. apply step_react_runs in Hstep.
+  pose (P := fun s1 => awf s1 /\ Inv w s1 /\ pstore s1 w = pstore s w).
+  assert (HP : P s'); [|destruct HP as (_ & H1 & H2); split; [exact H1|exact H2]].
+  eapply (react1s_ind P p); [|split; [exact Hwf|split; [exact HI|reflexivity]]|exact Hstep].
+  intros s1 s2 (Hw1 & HI1 & Hs1) H12. split; [eapply step_wf; eauto|].
+  destruct (inv_react1 w s1 p s2 Hw1 HI1 H12) as [HI2 Hs2]. split; [exact HI2|]. rewrite Hs2. exact Hs1.
 Qed.
 
 Lemma inv_step w s e s' :
-  awf s -> Inv w s -> ev_ok w e -> bad_S7 s e = false -> astep s e = Some s' ->
-  Inv w s' /\ pstore s' w = store_after w s e.
+  awf s -> Inv w s -> ev_ok w s e -> astep s e = Some s' -> Inv w s' /\ pstore s' w = store_after w s e.
 Proof.
-  intros Hwf HI Hok Hbad Hstep.
-  destruct e as [p v|p|p|src dst|p|c pre]; try (eapply inv_step1; eauto; exact I).
-  apply step_react_runs in Hstep.
-  pose (P := fun s1 => awf s1 /\ Inv w s1 /\ pstore s1 w = pstore s w).
-  assert (HP : P s') ; [|destruct HP as (_ & H1 & H2); split; [exact H1|exact H2]].
-  eapply (react1s_ind P p); [|split; [exact Hwf|split; [exact HI|reflexivity]]|exact Hstep].
-  intros s1 s2 (Hw1 & HI1 & Hs1) H12. split; [eapply step_wf; eauto|].
-  destruct (inv_step1 w s1 (AReact1 p) s2 I Hw1 HI1 I eq_refl H12) as [HI2 Hs2].
-  split; [exact HI2|]. rewrite Hs2. exact Hs1.
+  intros Hwf HI Hok Hstep. destruct e as [p v|p|p|src dst|p|c pre]; try (eapply inv_step1; eauto; exact I).
+  eapply inv_react; eauto.
 Qed.
 
 Definition lastd (d : option content) (l : list content) : option content := foldl (fun _ v => Some v) d l.
@@ -969,35 +1033,58 @@ Lemma store_after_lastd w s e tr :
   lastd (store_after w s e) (published tr) = lastd (pstore s w) (published (e :: tr)).
 Proof. rewrite published_cons. destruct e; reflexivity. Qed.
 
-Lemma inv_run w tr : forall s s',
-  awf s -> Inv w s -> Forall (ev_ok w) tr -> scan bad_S7 s tr = false -> arun s tr = Some s' ->
-  awf s' /\ Inv w s' /\ pstore s' w = lastd (pstore s w) (published tr).
+Lemma joins_cons e tr :
+  joins (e :: tr) = match e with AJoin c pre => (c, pre) :: joins tr | _ => joins tr end.
+Proof. destruct e; reflexivity. Qed.
+
+Lemma fresh_joins_cons e tr :
+  fresh_joins (e :: tr) -> (match e with AJoin _ pre => pre = None | _ => True end) /\ fresh_joins tr.
 Proof.
-  induction tr as [|e tr IH]; intros s s' Hwf HI Hok Hbad Hrun.
-  - simpl in Hrun. inversion Hrun; subst. auto.
-  - cbn [arun] in Hrun. cbn [scan] in Hbad. destruct (astep s e) as [s1|] eqn:Hstep; [|discriminate].
-    apply orb_false_iff in Hbad as [Hb1 Hb2]. apply Forall_cons in Hok as [He Hok].
-    destruct (inv_step w s e s1 Hwf HI He Hb1 Hstep) as [HI1 Hs1].
-    destruct (IH s1 s' (step_wf _ _ _ Hwf Hstep) HI1 Hok Hb2 Hrun) as (Hwf' & HI' & Hs').
-    split; [exact Hwf'|]. split; [exact HI'|]. rewrite Hs', Hs1. apply store_after_lastd.
+  unfold fresh_joins. rewrite joins_cons. destruct e as [p v|p|p|src dst|p|c pre]; auto.
+  intros H. apply Forall_cons in H as [H1 H2]. auto.
+Qed.
+
+(* the run lemma: the current publisher [w] changes at a hand-over *)
+Lemma inv_run tr : forall w s s',
+  awf s -> Inv w s -> fresh_joins tr -> known_join_window s tr = false ->
+  handover_at_quiescence w s tr = true -> arun s tr = Some s' ->
+  exists w', awf s' /\ Inv w' s' /\ pstore s' w' = lastd (pstore s w) (published tr).
+Proof.
+  unfold known_join_window.
+  induction tr as [|e tr IH]; intros w s s' Hwf HI Hfj Hwin Hho Hrun.
+  - simpl in Hrun. inversion Hrun; subst. exists w. auto.
+  - cbn [arun] in Hrun. cbn [scan] in Hwin. cbn [handover_at_quiescence] in Hho.
+    destruct (astep s e) as [s1|] eqn:Hstep; [|discriminate].
+    apply orb_false_iff in Hwin as [Hw1 Hwin]. apply fresh_joins_cons in Hfj as [Hf1 Hfj].
+    pose proof (step_wf _ _ _ Hwf Hstep) as Hwf1.
+    assert (H1 : exists w1, Inv w1 s1 /\ handover_at_quiescence w1 s1 tr = true /\
+                            lastd (pstore s1 w1) (published tr) = lastd (pstore s w) (published (e :: tr))).
+    { destruct e as [p v|p|p|src dst|p|c pre].
+      - apply andb_true_iff in Hho as [Hh1 Hho]. exists p. rewrite published_cons, lastd_cons.
+        apply orb_true_iff in Hh1 as [Hh1|Hh1].
+        + apply bool_decide_eq_true in Hh1. subst p.
+          destruct (inv_publish w s v s1 Hwf HI Hstep) as [HI1 Hs1]. rewrite Hs1. auto.
+        + apply bool_decide_eq_true in Hh1.
+          destruct (inv_publish_quiescent p s v s1 Hwf (inv_basic _ _ HI) Hh1 Hstep) as [HI1 Hs1]. rewrite Hs1. auto.
+      - exists w.  destruct (inv_step w s (AReact p) s1 Hwf HI I Hstep) as [HI1 Hs1]. rewrite Hs1. auto.
+      - exists w.  destruct (inv_step w s (AReact1 p) s1 Hwf HI I Hstep) as [HI1 Hs1]. rewrite Hs1. auto.
+      - exists w.  destruct (inv_step w s (ADeliver src dst) s1 Hwf HI I Hstep) as [HI1 Hs1]. rewrite Hs1. auto.
+      - exists w.  destruct (inv_step w s (ADownload p) s1 Hwf HI I Hstep) as [HI1 Hs1]. rewrite Hs1. auto.
+      - exists w. subst pre. simpl in Hw1.
+        assert (Hp0 : ppending s host = []) by (destruct (ppending s host); [reflexivity|discriminate]).
+        destruct (inv_step w s (AJoin c None) s1 Hwf HI (conj eq_refl Hp0) Hstep) as [HI1 Hs1]. rewrite Hs1. auto. }
+    destruct H1 as (w1 & HI1 & Hho1 & Hla).
+    destruct (IH w1 s1 s' Hwf1 HI1 Hfj Hwin Hho1 Hrun) as (w' & Hwf' & HI' & Hs').
+    exists w'. split; [exact Hwf'|]. split; [exact HI'|]. rewrite Hs'. exact Hla.
 Qed.
 
 Lemma inv_init w n : Inv w (ainit n).
 Proof.
-  constructor; unfold notified, pstore, pevents, ptok, pserved, ppending; intros; rewrite ?ainit_getp, ?ainit_link in *; simpl; auto.
+  constructor; try apply basic_init; unfold final_ok, queue, pstore, pevents, ptok, pserved, ppending; intros;
+    rewrite ?ainit_getp, ?ainit_link in *; simpl; auto.
+  - inversion H.
   - inversion H.
   - simpl in H. inversion H.
-Qed.
-
-Lemma ev_ok_of w tr : only_publisher w tr -> joins_ok w tr -> Forall (ev_ok w) tr.
-Proof.
-  unfold only_publisher, joins_ok, fresh_joins, no_joins.
-  induction tr as [|e tr IH]; intros Hp Hj; [constructor|].
-  destruct e as [p v|p|p|src dst|p|c pre]; simpl in Hp, Hj; try (constructor; [exact I|apply IH; assumption]).
-  - apply Forall_cons in Hp as [-> Hp]. constructor; [reflexivity|apply IH; assumption].
-  - destruct (decide (w = host)) as [->|Hne]; [|discriminate].
-    apply Forall_cons in Hj as [Hpre Hj]. simpl in Hpre. constructor; [split; auto|].
-    apply IH; [exact Hp|]. destruct (decide (host = host)); [exact Hj|congruence].
 Qed.
 
 Lemma inv_quiescent_agree w s : Inv w s -> aquiescent s -> forall q, peers s q -> pstore s q = pstore s w.
@@ -1005,323 +1092,342 @@ Proof.
   intros HI Hq q Hpq. destruct (decide (q = w)) as [->|Hne]; [reflexivity|].
   destruct (quiescent_peer s w Hq) as (Hew & _ & _).
   destruct (inv_served _ _ HI) as [Hs|Hs]; [|contradiction].
-  destruct (inv_store _ _ HI q Hpq Hne) as [H|[[H|[H|H]]|H]].
-  - congruence.
-  - destruct (quiescent_peer s q Hq) as (_ & _ & Hp). contradiction.
-  - rewrite (quiescent_link s host q Hq) in H. contradiction.
+  destruct (inv_store _ _ HI q Hpq Hne) as [H|[H|H]]; [contradiction| |].
   - rewrite (quiescent_link s w host Hq) in H. contradiction.
-  - contradiction.
+  - unfold final_ok, queue in H. destruct (quiescent_peer s q Hq) as (_ & _ & Hp).
+    rewrite Hp, (quiescent_link s host q Hq) in H. simpl in H. congruence.
 Qed.
 
-(* ---------- C06, the general form: one publisher, bursts and overwrites included, every interleaving;
-   outside the class S7 every quiescent state shows the last published content everywhere ---------- *)
-Theorem C06_single_publisher_outside_S7 n w tr s' :
-  arun (ainit n) tr = Some s' -> only_publisher w tr -> joins_ok w tr ->
-  known_S7 (ainit n) tr = false -> aquiescent s' ->
+(* ---------- C06, the general form --------------------------------------------------------------------
+   The publisher may change, but only in quiescent states (the same peer may publish at ANY pace: bursts,
+   overwrites while the previous content is still travelling); fresh clients may join at any moment
+   outside the join window.  Then every quiescent state shows the last published content on every peer. *)
+Theorem C06_handover n w0 tr s' :
+  arun (ainit n) tr = Some s' -> joins_ok (ainit n) tr -> handover_at_quiescence w0 (ainit n) tr = true ->
+  aquiescent s' ->
   forall q, peers s' q -> pstore s' q = last (published tr).
 Proof.
-  intros Hrun Hop Hj Hk Hq q Hpq.
-  destruct (inv_run w tr (ainit n) s' (ainit_wf n) (inv_init w n) (ev_ok_of w tr Hop Hj) Hk Hrun) as (_ & HI & Hs).
-  rewrite (inv_quiescent_agree w s' HI Hq q Hpq), Hs.
+  intros Hrun [Hfj Hwin] Hho Hq q Hpq.
+  destruct (inv_run tr w0 (ainit n) s' (ainit_wf n) (inv_init w0 n) Hfj Hwin Hho Hrun) as (w' & _ & HI & Hs).
+  rewrite (inv_quiescent_agree w' s' HI Hq q Hpq), Hs.
   unfold pstore at 1. rewrite ainit_getp. apply lastd_None_last.
 Qed.
-Print Assumptions C06_single_publisher_outside_S7.
+Print Assumptions C06_handover.
 
-(* ... and in such runs no peer but the publisher ever serves the id, so S12 cannot occur either *)
-Theorem single_publisher_outside_S7_never_serves n w tr s' :
-  arun (ainit n) tr = Some s' -> only_publisher w tr -> joins_ok w tr ->
-  known_S7 (ainit n) tr = false ->
-  forall q, q <> w -> pserved s' q = None.
+Lemma handover_only_publisher w tr : only_publisher w tr -> forall s, handover_at_quiescence w s tr = true.
 Proof.
-  intros Hrun Hop Hj Hk q Hne.
-  destruct (inv_run w tr (ainit n) s' (ainit_wf n) (inv_init w n) (ev_ok_of w tr Hop Hj) Hk Hrun) as (_ & HI & _).
-  apply (inv_recv _ _ HI q Hne).
+  unfold only_publisher. induction tr as [|e tr IH]; intros Hop s; [reflexivity|]. cbn [handover_at_quiescence].
+  destruct (astep s e) as [s1|]; [|reflexivity].
+  destruct e as [p v|p|p|src dst|p|c pre]; simpl in Hop; try (apply IH; exact Hop).
+  apply Forall_cons in Hop as [-> Hop]. rewrite bool_decide_eq_true_2 by reflexivity. simpl. apply IH. exact Hop.
 Qed.
 
-(* ================================================================================================
-   Part 4: drain separation.  [Cnt w s]: at most one notification is on its way to each receiver
-   (counting the publisher's unread event, the uplink message, the relayed message, the pending download
-   and the receiver's own unread event).  Established by a publication or a join in a quiescent state,
-   preserved by everything else; it excludes S7.
-   ================================================================================================ *)
-
-Definition K (w : peer) (s : astate) : nat := (pevents s w + length (link s w host))%nat.
-Definition Cnt (w : peer) (s : astate) : Prop :=
-  forall q, peers s q -> q <> w ->
-    (K w s + length (link s host q) + length (ppending s q) + pevents s q <= 1)%nat.
-
-Lemma cnt_ext w s s' :
-  (forall q, getp s' q = getp s q) -> (forall a b, link s' a b = link s a b) -> aconn s' = aconn s ->
-  Cnt w s -> Cnt w s'.
+Lemma handover_drain_separated tr : forall w s, ops_at_quiescence s tr = true -> handover_at_quiescence w s tr = true.
 Proof.
-  intros Hg Hl Hc HC q Hp Hne. unfold K, peers, pevents, ppending in *. rewrite ?Hg, ?Hl, ?Hc in *. apply HC; assumption.
+  induction tr as [|e tr IH]; intros w s Hops; [reflexivity|]. cbn [handover_at_quiescence ops_at_quiescence] in *.
+  destruct (astep s e) as [s1|]; [|reflexivity]. apply andb_true_iff in Hops as [H1 Hops].
+  destruct e as [p v|p|p|src dst|p|c pre]; try (apply IH; exact Hops).
+  simpl in H1. rewrite H1, orb_true_r. simpl. apply IH. exact Hops.
 Qed.
 
-Lemma deliver_shape w s src dst o rest :
-  awf s -> Inv w s -> link s src dst = o :: rest ->
-  o = w /\ dst <> w /\ pserved s dst = None /\
-  ((src = host /\ dst ∈ aconn s /\ dst <> host) \/ (dst = host /\ src = w /\ w <> host /\ w ∈ aconn s)).
-Proof.
-  intros Hwf HI Hl0.
-  assert (Hne0 : link s src dst <> []) by (rewrite Hl0; discriminate).
-  assert (Hdw : dst <> w). { intros ->. rewrite (inv_in _ _ HI) in Hne0. congruence. }
-  split; [eapply (inv_owner_l _ _ HI src dst); rewrite Hl0; left|]. split; [exact Hdw|].
-  split; [apply (inv_recv _ _ HI dst Hdw)|].
-  destruct (wf_link s src dst Hwf Hne0) as [[-> Hin]|[-> Hin]].
-  - left. split; [reflexivity|]. split; [exact Hin|]. intros ->. apply (wf_host s Hwf Hin).
-  - right. split; [reflexivity|]. destruct (decide (src = w)) as [->|Hn].
-    + split; [reflexivity|]. split; [|exact Hin]. intros ->. apply (wf_host s Hwf Hin).
-    + rewrite (inv_up _ _ HI src Hn) in Hne0. congruence.
-Qed.
-
-Lemma cnt_step1 w s e s' :
-  match e with AReact1 _ | ADeliver _ _ | ADownload _ => True | _ => False end ->
-  awf s -> Inv w s -> Cnt w s -> astep s e = Some s' -> Cnt w s' /\ bad_S7 s e = false.
-Proof.
-  intros He Hwf HI HC Hstep. pose proof (wf_nodup s Hwf) as Hnd. pose proof (wf_link_hh s Hwf) as Hhh.
-  destruct e as [p v|p|p|src dst|p|c pre]; try contradiction.
-  - (* AReact1 *)
-    split; [|reflexivity].
-    apply step_react1 in Hstep as (Hex & Hc & _ & Hp & Hq & Hl); [|exact Hnd].
-    destruct (react1_cases (getp s p)) as [[E0 E]|[(k & E0 & E1 & E)|[(k & c & E0 & E1 & E2 & E)|(k & c & E0 & E1 & E2 & E)]]].
-    + eapply cnt_ext; [| |exact Hc|exact HC].
-      * intros q. destruct (decide (q = p)) as [->|Hne]; [rewrite Hp, E; reflexivity|apply Hq; exact Hne].
-      * intros a b. rewrite Hl, E. cbn [snd]. cdec as [[Hf _]|_]; [discriminate|reflexivity].
-    + exfalso. eapply (inv_ev_store _ _ HI p); [unfold pevents; rewrite E0; discriminate|exact E1].
-    + assert (Hpw : p <> w). { intros ->. pose proof (inv_tok _ _ HI) as Ht. unfold ptok in Ht. congruence. }
-      rewrite E in Hp, Hl. cbn [fst snd] in Hp, Hl.
-      assert (Hlk : forall a b, link s' a b = link s a b).
-      { intros a b. rewrite Hl. cdec as [[Hf _]|_]; [discriminate|reflexivity]. }
-      intros q Hpq Hne. unfold peers in Hpq. rewrite Hc in Hpq. specialize (HC q Hpq Hne).
-      unfold K, pevents, ppending in *. rewrite !Hlk, (Hq w) by congruence.
-      destruct (decide (q = p)) as [->|Hnq]; [rewrite Hp; simpl; lia|rewrite Hq by assumption; exact HC].
-    + destruct (decide (p = w)) as [->|Hpw].
-      2:{ exfalso. destruct (inv_recv _ _ HI p Hpw) as [_ [[H0 _]|[_ H1]]]; unfold pevents, ptok in *; congruence. }
-      rewrite E in Hp, Hl. cbn [fst snd] in Hp, Hl.
-      assert (Hlk : forall a b, link s' a b = if decide (a = w /\ b ∈ dsts_of s w) then link s a b ++ [w] else link s a b).
-      { intros a b. rewrite Hl. destruct (decide (a = w /\ b ∈ dsts_of s w)) as [Hy|Hn].
-        - destruct (decide (true = true /\ _)) as [_|Hn]; [reflexivity|tauto].
-        - destruct (decide (true = true /\ _)) as [[_ Hy]|_]; [tauto|reflexivity]. }
-      intros q Hpq Hne. unfold peers in Hpq. rewrite Hc in Hpq. specialize (HC q Hpq Hne).
-      unfold K, pevents, ppending in *. rewrite (Hq q) by assumption. rewrite Hp. cbn [events].
-      rewrite E0 in HC. rewrite !Hlk. unfold dsts_of. destruct (decide (w = host)) as [->|Hwh].
-      * change (host =? host)%N with true. cbv iota.
-        destruct (decide (host = host /\ host ∈ aconn s)) as [[_ Hin]|_]; [exfalso; apply (wf_host s Hwf Hin)|].
-        destruct (decide (host = host /\ q ∈ aconn s)) as [_|Hn].
-        -- rewrite app_length. simpl. lia.
-        -- exfalso. apply Hn. split; [reflexivity|]. destruct Hpq as [?|?]; [contradiction|assumption].
-      * destruct (w =? host)%N eqn:E'; [apply N.eqb_eq in E'; contradiction|].
-        destruct (decide (w = w /\ host ∈ [host])) as [_|Hn]; [|exfalso; apply Hn; split; [reflexivity|apply elem_of_list_singleton; reflexivity]].
-        destruct (decide (host = w /\ _)) as [[Hf _]|_]; [congruence|].
-        rewrite app_length. simpl. lia.
-  - (* ADeliver *)
-    split; [|reflexivity].
-    apply step_deliver in Hstep as (o & rest & Hl0 & Hd & Hc & _ & Hp & Hq & Hl); [|exact Hnd].
-    destruct (deliver_shape w s src dst o rest Hwf HI Hl0) as (-> & Hdw & Hsd & Hshape).
-    assert (Hp' : ppending s' dst = ppending s dst ++ [w] /\ pevents s' dst = pevents s dst).
-    { unfold ppending, pevents. rewrite Hp. unfold request_peer. unfold pserved in Hsd. rewrite Hsd. split; reflexivity. }
-    destruct Hp' as [Hpp Hpe].
-    intros q Hpq Hne. unfold peers in Hpq. rewrite Hc in Hpq. pose proof (HC q Hpq Hne) as HCq.
-    assert (Hew : pevents s' w = pevents s w) by (unfold pevents; rewrite Hq by congruence; reflexivity).
-    unfold K in *. rewrite Hew. rewrite !Hl.
-    destruct Hshape as [(-> & Hin & Hdh)|(-> & -> & Hwh & Hin)].
-    + (* host -> client dst *)
-      destruct (decide ((w, host) = (host, dst))) as [Heq|_]; [inversion Heq; congruence|].
-      destruct (decide (dst = host /\ _)) as [[? _]|_]; [contradiction|].
-      destruct (decide (dst = host /\ _)) as [[? _]|_]; [contradiction|]. rewrite !app_nil_r.
-      destruct (decide (q = dst)) as [->|Hnq].
-      * destruct (decide ((host, dst) = (host, dst))) as [_|?]; [|congruence].
-        rewrite Hpp, Hpe, app_length. rewrite Hl0 in HCq. simpl in *. lia.
-      * destruct (decide ((host, q) = (host, dst))) as [Heq|_]; [inversion Heq; congruence|].
-        unfold ppending, pevents in *. rewrite (Hq q) by assumption. exact HCq.
-    + (* publisher -> host *)
-      destruct (decide ((w, host) = (w, host))) as [_|?]; [|congruence].
-      destruct (decide (host = host /\ w = host /\ _)) as [(_ & ? & _)|_]; [contradiction|]. rewrite app_nil_r.
-      rewrite Hl0 in HCq. cbn [length] in HCq.
-      destruct (decide (q = host)) as [->|Hnq].
-      * destruct (decide ((host, host) = (w, host))) as [Heq|_]; [inversion Heq; congruence|].
-        destruct (decide (host = host /\ host = host /\ host ∈ others w (aconn s))) as [(_ & _ & Hin')|_].
-        { apply elem_of_others in Hin' as [_ Hin']. exfalso. apply (wf_host s Hwf Hin'). }
-        rewrite app_nil_r, Hpp, Hpe, app_length. simpl. lia.
-      * destruct (decide ((host, q) = (w, host))) as [Heq|_]; [inversion Heq; congruence|].
-        destruct (decide (host = host /\ host = host /\ q ∈ others w (aconn s))) as [_|Hn].
-        -- unfold ppending, pevents in *. rewrite (Hq q) by assumption. rewrite app_length. simpl. lia.
-        -- exfalso. apply Hn. split; [reflexivity|]. split; [reflexivity|]. apply elem_of_others. split; [exact Hne|].
-           destruct Hpq as [?|?]; [contradiction|assumption].
-  - (* ADownload *)
-    pose proof Hstep as Hstep0.
-    apply step_download in Hstep as (o & rest & Hp0 & Hex & Hc & Hl & _ & Hp & Hq).
-    assert (Hlk : forall a b, link s' a b = link s a b) by (intros; unfold link; rewrite Hl; reflexivity).
-    assert (Hpw : p <> w). { intros ->. rewrite (inv_pend _ _ HI) in Hp0. discriminate. }
-    assert (Hpp : peers s p) by (apply (wf_exists s p Hwf); exact Hex).
-    pose proof (HC p Hpp Hpw) as HCp. rewrite Hp0 in HCp. cbn [length] in HCp.
-    assert (He0 : pevents s p = 0%nat) by lia.
-    split.
-    + intros q Hpq Hne. unfold peers in Hpq. rewrite Hc in Hpq. specialize (HC q Hpq Hne).
-      unfold K, pevents, ppending in *. rewrite !Hlk, (Hq w) by congruence.
-      destruct (decide (q = p)) as [->|Hnq]; [|rewrite Hq by assumption; exact HC].
-      rewrite Hp. unfold download_peer. rewrite Hp0 in *. destruct (pserved s o); simpl in *; lia.
-    + simpl. rewrite Hp0. destruct (pserved s o); [|reflexivity]. rewrite He0. reflexivity.
-Qed.
-
-Lemma cnt_quiescent w s : aquiescent s -> Cnt w s.
-Proof.
-  intros Hq q _ _. unfold K. rewrite !(quiescent_link s _ _ Hq).
-  destruct (quiescent_peer s w Hq) as (-> & _ & _). destruct (quiescent_peer s q Hq) as (-> & _ & ->). simpl. lia.
-Qed.
-
-Lemma cnt_publish w s c s' : aquiescent s -> astep s (APublish w c) = Some s' -> Cnt w s'.
-Proof.
-  intros Hqs Hstep. apply step_publish in Hstep as (_ & Hc & Hl & _ & Hp & Hq).
-  intros q _ Hne. unfold K, link, pevents, ppending. rewrite Hl, Hp, (Hq q) by assumption. cbn [events].
-  fold (link s w host). fold (link s host q). rewrite !(quiescent_link s _ _ Hqs).
-  destruct (quiescent_peer s w Hqs) as (-> & _ & _). destruct (quiescent_peer s q Hqs) as (He & _ & Hpe).
-  unfold pevents, ppending in *. rewrite He, Hpe. simpl. lia.
-Qed.
-
-Lemma cnt_join s c s' : awf s -> aquiescent s -> astep s (AJoin c None) = Some s' -> Cnt host s'.
-Proof.
-  intros Hwf Hqs Hstep. apply step_join in Hstep as (Hch & Hcn & Hnone & Hc & _ & Hpc & Hph & Hq & Hl).
-  intros q _ Hne. unfold K. rewrite !Hl.
-  destruct (decide ((host, host) = (host, c))) as [Heq|_]; [inversion Heq; congruence|].
-  rewrite !(quiescent_link s _ _ Hqs).
-  assert (Heh : pevents s' host = 0%nat).
-  { unfold pevents. rewrite Hph. simpl. apply (quiescent_peer s host Hqs). }
-  rewrite Heh. destruct (decide (q = c)) as [->|Hnq].
-  - destruct (decide ((host, c) = (host, c))) as [_|?]; [|congruence].
-    unfold ppending, pevents. rewrite Hpc. simpl. unfold snapshot. destruct (pstore s host); simpl; lia.
-  - destruct (decide ((host, q) = (host, c))) as [Heq|_]; [inversion Heq; congruence|].
-    unfold ppending, pevents. rewrite Hq by assumption.
-    destruct (quiescent_peer s q Hqs) as (He & _ & Hpe). unfold pevents, ppending in *. rewrite He, Hpe. simpl. lia.
-Qed.
-
-Lemma ds_run w tr : forall s s',
-  awf s -> Inv w s -> Cnt w s -> Forall (ev_ok w) tr -> ops_at_quiescence s tr = true -> arun s tr = Some s' ->
-  awf s' /\ Inv w s' /\ Cnt w s' /\ scan bad_S7 s tr = false /\ pstore s' w = lastd (pstore s w) (published tr).
-Proof.
-  induction tr as [|e tr IH]; intros s s' Hwf HI HC Hok Hops Hrun.
-  - simpl in Hrun. inversion Hrun; subst. auto.
-  - cbn [arun] in Hrun. cbn [ops_at_quiescence] in Hops. cbn [scan].
-    destruct (astep s e) as [s1|] eqn:Hstep; [|discriminate].
-    apply andb_true_iff in Hops as [Hop1 Hops]. apply Forall_cons in Hok as [He Hok].
-    assert (H1 : Inv w s1 /\ Cnt w s1 /\ bad_S7 s e = false /\ pstore s1 w = store_after w s e).
-    { destruct e as [p v|p|p|src dst|p|c pre].
-      - simpl in He. subst p. simpl in Hop1. apply bool_decide_eq_true in Hop1.
-        destruct (inv_step1 w s (APublish w v) s1 I Hwf HI eq_refl eq_refl Hstep) as [HI1 Hs1].
-        split; [exact HI1|]. split; [eapply cnt_publish; eauto|]. split; [reflexivity|exact Hs1].
-      - pose proof Hstep as Hstep0. apply step_react_runs in Hstep.
-        pose (P := fun s1 => awf s1 /\ Inv w s1 /\ Cnt w s1 /\ pstore s1 w = pstore s w).
-        assert (HP : P s1); [|destruct HP as (_ & HI1 & HC1 & Hs1); auto].
-        eapply (react1s_ind P p); [|split; [exact Hwf|split; [exact HI|split; [exact HC|reflexivity]]]|exact Hstep].
-        intros s2 s3 (Hw2 & HI2 & HC2 & Hs2) H23. split; [eapply step_wf; eauto|].
-        destruct (inv_step1 w s2 (AReact1 p) s3 I Hw2 HI2 I eq_refl H23) as [HI3 Hs3].
-        destruct (cnt_step1 w s2 (AReact1 p) s3 I Hw2 HI2 HC2 H23) as [HC3 _].
-        split; [exact HI3|]. split; [exact HC3|]. rewrite Hs3. exact Hs2.
-      - destruct (cnt_step1 w s (AReact1 p) s1 I Hwf HI HC Hstep) as [HC1 Hb].
-        destruct (inv_step1 w s (AReact1 p) s1 I Hwf HI I Hb Hstep) as [HI1 Hs1]. auto.
-      - destruct (cnt_step1 w s (ADeliver src dst) s1 I Hwf HI HC Hstep) as [HC1 Hb].
-        destruct (inv_step1 w s (ADeliver src dst) s1 I Hwf HI I Hb Hstep) as [HI1 Hs1]. auto.
-      - destruct (cnt_step1 w s (ADownload p) s1 I Hwf HI HC Hstep) as [HC1 Hb].
-        destruct (inv_step1 w s (ADownload p) s1 I Hwf HI I Hb Hstep) as [HI1 Hs1]. auto.
-      - pose proof He as [-> ->]. simpl in Hop1. apply bool_decide_eq_true in Hop1.
-        destruct (inv_step1 host s (AJoin c None) s1 I Hwf HI He eq_refl Hstep) as [HI1 Hs1].
-        split; [exact HI1|]. split; [eapply cnt_join; eauto|]. split; [reflexivity|exact Hs1]. }
-    destruct H1 as (HI1 & HC1 & Hb & Hs1).
-    destruct (IH s1 s' (step_wf _ _ _ Hwf Hstep) HI1 HC1 Hok Hops Hrun) as (Hwf' & HI' & HC' & Hsc & Hs').
-    split; [exact Hwf'|]. split; [exact HI'|]. split; [exact HC'|]. split; [rewrite Hb, Hsc; reflexivity|].
-    rewrite Hs', Hs1. apply store_after_lastd.
-Qed.
-
-(* ================================================================================================
-   Part 5: C06 for what holds
-   ================================================================================================ *)
-
-(* Overwrites, each published in a quiescent state by the same peer (joins of fresh clients, also in
-   quiescent states, when that peer is the host): every quiescent state shows the last content on every
-   peer.  The receivers swallowed their event with the token, so they never served, so request()
-   proceeds at the next round. *)
-Theorem C06_drain_separated_overwrites_replicate n w tr s' :
-  arun (ainit n) tr = Some s' -> only_publisher w tr -> joins_ok w tr ->
-  ops_at_quiescence (ainit n) tr = true -> aquiescent s' ->
+(* A2.  C06 for ONE publisher (the host or a client) at ANY pace, fresh clients joining at any moment
+   outside the join window *)
+Theorem C06_single_publisher n w tr s' :
+  arun (ainit n) tr = Some s' -> only_publisher w tr -> joins_ok (ainit n) tr -> aquiescent s' ->
   forall q, peers s' q -> pstore s' q = last (published tr).
 Proof.
-  intros Hrun Hop Hj Hops Hq q Hpq.
-  destruct (ds_run w tr (ainit n) s' (ainit_wf n) (inv_init w n) (cnt_quiescent w _ (ainit_quiescent n))
-              (ev_ok_of w tr Hop Hj) Hops Hrun) as (_ & HI & _ & _ & Hs).
-  rewrite (inv_quiescent_agree w s' HI Hq q Hpq), Hs.
-  unfold pstore at 1. rewrite ainit_getp. apply lastd_None_last.
+  intros Hrun Hop Hj. apply (C06_handover n w tr s' Hrun Hj). apply handover_only_publisher. exact Hop.
 Qed.
-Print Assumptions C06_drain_separated_overwrites_replicate.
+Print Assumptions C06_single_publisher.
 
-(* drain separation excludes S7 (and S12: nobody but the publisher serves) *)
-Theorem drain_separated_never_S7 n w tr s' :
-  arun (ainit n) tr = Some s' -> only_publisher w tr -> joins_ok w tr ->
-  ops_at_quiescence (ainit n) tr = true ->
-  known_S7 (ainit n) tr = false /\ forall q, q <> w -> pserved s' q = None.
+Lemma ops_no_window tr : forall s s',
+  arun s tr = Some s' -> ops_at_quiescence s tr = true -> known_join_window s tr = false.
 Proof.
-  intros Hrun Hop Hj Hops.
-  destruct (ds_run w tr (ainit n) s' (ainit_wf n) (inv_init w n) (cnt_quiescent w _ (ainit_quiescent n))
-              (ev_ok_of w tr Hop Hj) Hops Hrun) as (_ & HI & _ & Hsc & _).
-  split; [exact Hsc|]. intros q Hne. apply (inv_recv _ _ HI q Hne).
+  unfold known_join_window. induction tr as [|e tr IH]; intros s s' Hrun Hops; [reflexivity|].
+  cbn [scan ops_at_quiescence arun] in *. destruct (astep s e) as [s1|] eqn:Hs; [|discriminate].
+  apply andb_true_iff in Hops as [H1 Hops]. rewrite (IH s1 s' Hrun Hops), orb_false_r.
+  destruct e as [p v|p|p|src dst|p|c pre]; try reflexivity. simpl in H1. apply bool_decide_eq_true in H1.
+  simpl. destruct (quiescent_peer s host H1) as (_ & _ & ->). reflexivity.
 Qed.
 
-Lemma plain_trace rest :
-  Forall plain rest -> published rest = [] /\ publishers rest = [] /\ joins rest = [] /\
-  forall s, ops_at_quiescence s rest = true.
+(* A3.  C06 for any number of publishers whose publications (and the joins) are drain separated *)
+Theorem C06_drain_separated n tr s' :
+  arun (ainit n) tr = Some s' -> fresh_joins tr -> ops_at_quiescence (ainit n) tr = true -> aquiescent s' ->
+  forall q, peers s' q -> pstore s' q = last (published tr).
 Proof.
-  induction 1 as [|e rest He _ (IH1 & IH2 & IH3 & IH4)]; [repeat split|].
-  destruct e; simpl in He; try contradiction; (split; [exact IH1|]; split; [exact IH2|]; split; [exact IH3|]);
-    intros s; cbn [ops_at_quiescence]; (destruct (astep s _); [|reflexivity]); rewrite IH4; reflexivity.
+  intros Hrun Hfj Hops. apply (C06_handover n host tr s' Hrun); [|apply handover_drain_separated; exact Hops].
+  split; [exact Hfj|]. eapply ops_no_window; eauto.
 Qed.
+Print Assumptions C06_drain_separated.
 
-(* The first publication: a single APublish (by the host or by a client: client -> host -> the other
-   clients), then any interleaving of react runs, deliveries and downloads of any number of clients:
-   every reachable quiescent state holds the content on every peer. *)
-Theorem C06_first_publication_replicates n p c rest s' :
-  Forall plain rest -> arun (ainit n) (APublish p c :: rest) = Some s' -> aquiescent s' ->
-  forall q, peers s' q -> pstore s' q = Some c.
+(* every quiescent state ALONG a run: the premises are closed under prefixes *)
+Lemma fresh_joins_app tr1 tr2 : fresh_joins (tr1 ++ tr2) -> fresh_joins tr1.
+Proof. unfold fresh_joins, joins. rewrite omap_app. intros H. apply Forall_app in H as [H _]. exact H. Qed.
+
+Lemma scan_app bad tr1 tr2 : forall s, scan bad s (tr1 ++ tr2) = false -> scan bad s tr1 = false.
 Proof.
-  intros Hpl Hrun Hq q Hpq. destruct (plain_trace rest Hpl) as (H1 & H2 & H3 & H4).
-  rewrite (C06_drain_separated_overwrites_replicate n p (APublish p c :: rest) s' Hrun); try assumption.
-  - rewrite published_cons, H1. reflexivity.
-  - unfold only_publisher. simpl. rewrite H2. repeat constructor.
-  - unfold joins_ok, fresh_joins, no_joins. simpl. rewrite H3. destruct (decide (p = host)); [constructor|reflexivity].
-  - cbn [ops_at_quiescence]. cbn [arun] in Hrun. destruct (astep (ainit n) (APublish p c)) as [s1|]; [|discriminate].
-    rewrite H4. simpl. rewrite andb_true_r. apply bool_decide_eq_true. apply ainit_quiescent.
+  induction tr1 as [|e tr1 IH]; intros s H; [reflexivity|]. cbn [app scan] in *.
+  apply orb_false_iff in H as [H1 H2]. rewrite H1. simpl. destruct (astep s e) as [s1|]; [apply IH; exact H2|reflexivity].
 Qed.
-Print Assumptions C06_first_publication_replicates.
 
-Example C06_first_publication_nonvacuous :
-  (* a client publishes: client -> host -> other client *)
-  (let rest := [AReact 1; ADeliver 1 0; ADownload 0; ADeliver 0 2; AReact 0; ADownload 2; AReact 2] in
-   Forall plain rest /\ (aquiescentb <$> arun (ainit 2) (APublish 1 10 :: rest)) = Some true) /\
-  (* the host publishes *)
-  (let rest := [AReact1 0; ADeliver 0 2; ADeliver 0 1; ADownload 1; ADownload 2; AReact 1; AReact 2] in
-   Forall plain rest /\ (aquiescentb <$> arun (ainit 2) (APublish 0 10 :: rest)) = Some true).
-Proof. split; (split; [repeat constructor|vm_compute; reflexivity]). Qed.
-
-Example C06_drain_separated_nonvacuous :
-  let tr := [APublish 0 10; AReact 0; ADeliver 0 1; ADownload 1; AReact 1;
-             AJoin 2 None; ADeliver 0 2; ADownload 2; AReact 2;
-             APublish 0 20; AReact 0; ADeliver 0 2; ADeliver 0 1; ADownload 1; ADownload 2; AReact 1; AReact 2] in
-  only_publisher 0 tr /\ joins_ok 0 tr /\ ops_at_quiescence (ainit 1) tr = true /\
-  (fun s => aview s [0; 1; 2]) <$> arun (ainit 1) tr = Some ([Some 20; Some 20; Some 20], true).
+Lemma handover_app tr1 tr2 : forall w s, handover_at_quiescence w s (tr1 ++ tr2) = true -> handover_at_quiescence w s tr1 = true.
 Proof.
-  split; [only_pub|]. split; [unfold joins_ok, fresh_joins; vm_compute; repeat constructor|]. split; vm_compute; reflexivity.
+  induction tr1 as [|e tr1 IH]; intros w s H; [reflexivity|]. cbn [app handover_at_quiescence] in *.
+  destruct (astep s e) as [s1|]; [|reflexivity].
+  destruct e as [p v|p|p|src dst|p|c pre]; try (apply (IH _ _ H)).
+  apply andb_true_iff in H as [H1 H2]. rewrite H1. simpl. apply (IH _ _ H2).
 Qed.
 
-(* bursts are fine as long as no receiver applies two downloads between two of its react runs *)
-Example C06_outside_S7_nonvacuous :
+Theorem C06_handover_every_quiescent_state n w0 tr1 tr2 s1 :
+  arun (ainit n) tr1 = Some s1 -> joins_ok (ainit n) (tr1 ++ tr2) ->
+  handover_at_quiescence w0 (ainit n) (tr1 ++ tr2) = true -> aquiescent s1 ->
+  forall q, peers s1 q -> pstore s1 q = last (published tr1).
+Proof.
+  intros Hrun [Hfj Hwin] Hho. apply (C06_handover n w0 tr1 s1 Hrun).
+  - split; [eapply fresh_joins_app; exact Hfj|eapply scan_app; exact Hwin].
+  - eapply handover_app; exact Hho.
+Qed.
+Print Assumptions C06_handover_every_quiescent_state.
+
+(* ================================================================================================
+   Part 5: the old defect witnesses now converge; what remains false
+   ================================================================================================ *)
+
+Definition aobs (s : astate) (ps : list peer) := (aview s ps, pserved s <$> ps).
+
+(* S7 + S12 (burst overwrite).  The host publishes 10 and 20 in quick succession; client 1 applies both
+   downloads before its react system runs: two events, TWO tokens: both are swallowed, client 1 neither
+   serves nor announces; the host publishes 30: everybody ends with 30. *)
+Definition w_burst : list aevent :=
+  [APublish 0 10; AReact 0; APublish 0 20; AReact 0;
+   ADeliver 0 1; ADeliver 0 1; ADownload 1; ADownload 1; AReact 1;
+   ADeliver 0 2; ADownload 2; AReact 2; ADeliver 0 2; ADownload 2; AReact 2;
+   APublish 0 30; AReact 0; ADeliver 0 1; ADeliver 0 2; ADownload 2; AReact 2; ADownload 1; AReact 1].
+
+Example burst_overwrite_converges :
+  (fun s => aobs s [0; 1; 2]) <$> arun (ainit 2) w_burst
+    = Some (([Some 30; Some 30; Some 30], true), [Some 30; None; None]) /\
+  only_publisher 0 w_burst /\ joins_ok (ainit 2) w_burst /\ ops_at_quiescence (ainit 2) w_burst = false /\
+  total_sent (ainit 2) w_burst = 6%nat /\ total_downloads (ainit 2) w_burst = 6%nat.
+Proof.
+  split; [vm_compute; reflexivity|]. split; [only_pub|].
+  split; [split; [unfold fresh_joins; vm_compute; constructor|vm_compute; reflexivity]|]. repeat split; vm_compute; reflexivity.
+Qed.
+
+(* S12 alone (the publisher changes in a quiescent state).  Client 1 publishes 10 (and serves the id);
+   everything drains; client 2 publishes 20; client 1 now FETCHES it although its own cache holds the id. *)
+Definition w_other_publisher : list aevent :=
+  [APublish 1 10; AReact 1; ADeliver 1 0; ADownload 0; ADeliver 0 2; AReact 0; ADownload 2; AReact 2;
+   APublish 2 20; AReact 2; ADeliver 2 0; ADownload 0; AReact 0; ADeliver 0 1; ADownload 1; AReact 1].
+
+Example republish_by_other_peer_converges :
+  (fun s => aobs s [0; 1; 2]) <$> arun (ainit 2) w_other_publisher
+    = Some (([Some 20; Some 20; Some 20], true), [None; Some 10; Some 20]) /\
+  published w_other_publisher = [10; 20] /\ ops_at_quiescence (ainit 2) w_other_publisher = true.
+Proof. repeat split; vm_compute; reflexivity. Qed.
+
+(* S12 by the host's build_full_sync.  Client 1 is the only publisher.  Client 2 joins: the host serves its
+   copy for the snapshot; the host nevertheless fetches client 1's overwrite, and the later joiner 3 is
+   given the NEW content. *)
+Definition w_host_stale : list aevent :=
+  [APublish 1 10; AReact 1; ADeliver 1 0; ADownload 0; AReact 0;
+   AJoin 2 None; ADeliver 0 2; ADownload 2; AReact 2;
+   APublish 1 20; AReact 1; ADeliver 1 0; ADownload 0; AReact 0; ADeliver 0 2; ADownload 2; AReact 2;
+   AJoin 3 None; ADeliver 0 3; ADownload 3; AReact 3].
+
+Example host_stale_after_join_converges :
+  (fun s => aobs s [0; 1; 2; 3]) <$> arun (ainit 1) w_host_stale
+    = Some (([Some 20; Some 20; Some 20; Some 20], true), [Some 20; Some 20; None; None]) /\
+  only_publisher 1 w_host_stale /\ joins_ok (ainit 1) w_host_stale.
+Proof.
+  split; [vm_compute; reflexivity|]. split; [only_pub|].
+  split; [unfold fresh_joins; vm_compute; repeat constructor|vm_compute; reflexivity].
+Qed.
+
+(* S7 without a burst: a client joins between the host's insert and the host's react run: it is told twice
+   (snapshot + broadcast), applies both downloads before reacting: two tokens; it follows the next overwrite *)
+Definition w_join_react : list aevent :=
+  [APublish 0 10; AJoin 1 None; AReact 0; ADeliver 0 1; ADeliver 0 1; ADownload 1; ADownload 1; AReact 1;
+   APublish 0 20; AReact 0; ADeliver 0 1; ADownload 1; AReact 1].
+
+Example join_before_react_converges :
+  (fun s => aobs s [0; 1]) <$> arun (ainit 0) w_join_react = Some (([Some 20; Some 20], true), [Some 20; None]) /\
+  only_publisher 0 w_join_react /\ joins_ok (ainit 0) w_join_react.
+Proof.
+  split; [vm_compute; reflexivity|]. split; [only_pub|].
+  split; [unfold fresh_joins; vm_compute; repeat constructor|vm_compute; reflexivity].
+Qed.
+
+(* ---------- what remains false ----------------------------------------------------------------------- *)
+
+(* (i) The join window.  Client 1 publishes ONCE; the host has relayed the announcement and started its
+   download when client 2 joins: the snapshot is built from Assets<T>, which does not hold the id yet; the
+   completed download is swallowed by its token.  Client 2 never hears of the id. *)
+Definition w_join_window : list aevent :=
+  [APublish 1 10; AReact 1; ADeliver 1 0; AJoin 2 None; ADownload 0; AReact 0].
+
+Theorem join_during_download_refuted :
+  exists n tr c s',
+    arun (ainit n) tr = Some s' /\ published tr = [10] /\ only_publisher 1 tr /\ fresh_joins tr /\ aquiescent s' /\
+    known_join_window (ainit n) tr = true /\
+    c ∈ aconn s' /\ pstore s' 0 = Some 10 /\ pstore s' 1 = Some 10 /\ pstore s' c = None.
+Proof.
+  exists 1%nat, w_join_window, 2.
+  destruct (arun_obs (fun s => (aquiescentb s, pstore s 0, pstore s 1, pstore s 2, bool_decide (2 ∈ aconn s)))
+              (ainit 1) w_join_window (true, Some 10, Some 10, None, true)) as (s' & Hrun & Hobs); [vm_compute; reflexivity|].
+  injection Hobs as Hq H0 H1 H2 Hin. apply bool_decide_eq_true in Hq, Hin.
+  exists s'. split; [exact Hrun|]. split; [reflexivity|]. split; [only_pub|].
+  split; [unfold fresh_joins; vm_compute; repeat constructor|]. split; [exact Hq|].
+  split; [vm_compute; reflexivity|]. auto.
+Qed.
+
+(* ... and with an overwrite in flight the joiner is left with the OLD content for ever: the literal event
+   order of the old "host stale" witness: client 3 joins while the host is fetching 20 *)
+Definition w_join_window_stale : list aevent :=
+  [APublish 1 10; AReact 1; ADeliver 1 0; ADownload 0; AReact 0;
+   APublish 1 20; AReact 1; ADeliver 1 0; AJoin 3 None; ADeliver 0 3; ADownload 3; AReact 3; ADownload 0; AReact 0].
+
+Theorem join_during_overwrite_refuted :
+  exists n tr c s',
+    arun (ainit n) tr = Some s' /\ published tr = [10; 20] /\ only_publisher 1 tr /\ fresh_joins tr /\ aquiescent s' /\
+    known_join_window (ainit n) tr = true /\
+    c ∈ aconn s' /\ pstore s' 0 = Some 20 /\ pstore s' 1 = Some 20 /\ pstore s' c = Some 10.
+Proof.
+  exists 1%nat, w_join_window_stale, 3.
+  destruct (arun_obs (fun s => (aquiescentb s, pstore s 0, pstore s 1, pstore s 3, bool_decide (3 ∈ aconn s)))
+              (ainit 1) w_join_window_stale (true, Some 20, Some 20, Some 10, true)) as (s' & Hrun & Hobs); [vm_compute; reflexivity|].
+  injection Hobs as Hq H0 H1 H2 Hin. apply bool_decide_eq_true in Hq, Hin.
+  exists s'. split; [exact Hrun|]. split; [reflexivity|]. split; [only_pub|].
+  split; [unfold fresh_joins; vm_compute; repeat constructor|]. split; [exact Hq|].
+  split; [vm_compute; reflexivity|]. auto.
+Qed.
+
+(* the premise on the join window cannot be dropped from C06_single_publisher *)
+Definition C06_any_join_statement : Prop :=
+  forall n w tr s',
+    arun (ainit n) tr = Some s' -> only_publisher w tr -> fresh_joins tr -> aquiescent s' ->
+    forall q, peers s' q -> pstore s' q = last (published tr).
+
+Theorem C06_any_join_refuted : ~ C06_any_join_statement.
+Proof.
+  intros H. destruct join_during_download_refuted as (n & tr & c & s' & Hrun & Hp & Hop & Hfj & Hq & _ & Hin & _ & _ & Hc).
+  specialize (H n 1 tr s' Hrun Hop Hfj Hq c (or_intror Hin)). rewrite Hc, Hp in H. discriminate.
+Qed.
+
+(* (ii) A joiner that already holds a DIFFERENT content under the uuid.  When the host holds the id, the
+   joiner is told to fetch the host's copy (R2: its own cache entry no longer stops the download) and its own
+   content is overwritten: the session wins. *)
+Definition w_preloaded : list aevent :=
+  [APublish 0 10; AReact 0; ADeliver 0 1; ADownload 1; AReact 1; AJoin 2 (Some 5); ADeliver 0 2; ADownload 2; AReact 2].
+
+Example join_preloaded_overwritten :
+  (fun s => aobs s [0; 1; 2]) <$> arun (ainit 1) w_preloaded
+    = Some (([Some 10; Some 10; Some 10], true), [Some 10; None; Some 5]).
+Proof. vm_compute. reflexivity. Qed.
+
+(* ... but when the host does not hold the id, the joiner's content stays private: its local full sync
+   serves it and announces nothing: a quiescent state in which the peers disagree, with no publication at all *)
+Theorem join_preloaded_private_refuted :
+  exists n tr c s',
+    arun (ainit n) tr = Some s' /\ published tr = [] /\ aquiescent s' /\ ops_at_quiescence (ainit n) tr = true /\
+    c ∈ aconn s' /\ pstore s' 0 = None /\ pstore s' c = Some 5.
+Proof.
+  exists 1%nat, [AJoin 2 (Some 5)], 2.
+  destruct (arun_obs (fun s => (aquiescentb s, pstore s 0, pstore s 2, bool_decide (2 ∈ aconn s)))
+              (ainit 1) [AJoin 2 (Some 5)] (true, None, Some 5, true)) as (s' & Hrun & Hobs); [vm_compute; reflexivity|].
+  injection Hobs as Hq H0 H2 Hin. apply bool_decide_eq_true in Hq, Hin.
+  exists s'. split; [exact Hrun|]. split; [reflexivity|]. split; [exact Hq|]. split; [vm_compute; reflexivity|]. auto.
+Qed.
+
+(* (iii) Two publishers that are NOT drain separated (outside the property): clients 1 and 2 publish
+   concurrently; the host applies 10 then 20; each client fetches the other's content: quiescent, and the
+   peers disagree for ever *)
+Definition w_concurrent : list aevent :=
+  [APublish 1 10; APublish 2 20; AReact 1; AReact 2; ADeliver 1 0; ADeliver 2 0; ADownload 0; ADownload 0;
+   ADeliver 0 2; ADeliver 0 1; ADownload 1; ADownload 2; AReact 0; AReact 1; AReact 2].
+
+Theorem concurrent_publishers_disagree :
+  exists n tr s',
+    arun (ainit n) tr = Some s' /\ no_joins tr /\ aquiescent s' /\ published tr = [10; 20] /\
+    ops_at_quiescence (ainit n) tr = false /\ handover_at_quiescence 1 (ainit n) tr = false /\
+    pstore s' 0 = Some 20 /\ pstore s' 1 = Some 20 /\ pstore s' 2 = Some 10.
+Proof.
+  exists 2%nat, w_concurrent.
+  destruct (arun_obs (fun s => (aquiescentb s, pstore s 0, pstore s 1, pstore s 2))
+              (ainit 2) w_concurrent (true, Some 20, Some 20, Some 10)) as (s' & Hrun & Hobs); [vm_compute; reflexivity|].
+  injection Hobs as Hq H0 H1 H2. apply bool_decide_eq_true in Hq.
+  exists s'. split; [exact Hrun|]. split; [reflexivity|]. split; [exact Hq|]. split; [reflexivity|].
+  split; [vm_compute; reflexivity|]. split; [vm_compute; reflexivity|]. auto.
+Qed.
+
+(* ... or agree on an OLDER content: the host publishes 40 while its download of client 1's 30 is pending:
+   the completed download overwrites the store, the token swallows the host's own event, the second event
+   announces the CURRENT content 30: the publication 40 is lost everywhere *)
+Definition w_lost_update : list aevent :=
+  [APublish 1 30; AReact 1; ADeliver 1 0; APublish 0 40; ADownload 0; AReact 0; ADeliver 0 1; ADownload 1; AReact 1].
+
+Theorem concurrent_publishers_lose_update :
+  exists n tr s',
+    arun (ainit n) tr = Some s' /\ no_joins tr /\ aquiescent s' /\ published tr = [30; 40] /\
+    handover_at_quiescence 1 (ainit n) tr = false /\ pstore s' 0 = Some 30 /\ pstore s' 1 = Some 30.
+Proof.
+  exists 1%nat, w_lost_update.
+  destruct (arun_obs (fun s => (aquiescentb s, pstore s 0, pstore s 1))
+              (ainit 1) w_lost_update (true, Some 30, Some 30)) as (s' & Hrun & Hobs); [vm_compute; reflexivity|].
+  injection Hobs as Hq H0 H1. apply bool_decide_eq_true in Hq.
+  exists s'. split; [exact Hrun|]. split; [reflexivity|]. split; [exact Hq|]. split; [reflexivity|].
+  split; [vm_compute; reflexivity|]. auto.
+Qed.
+
+(* ---------- non-vacuity of the C06 theorems ---------------------------------------------------------- *)
+
+(* a client publishes at any pace (a burst, an overwrite in flight), a client joins in mid-flight *)
+Example C06_single_publisher_nonvacuous :
   let tr := [APublish 1 10; AReact 1; APublish 1 20; ADeliver 1 0; APublish 1 30; AReact 1; ADownload 0; AReact1 0;
-             ADeliver 0 2; ADeliver 1 0; ADeliver 1 0; ADownload 0; AReact 0; ADownload 0; AReact 0;
-             ADeliver 0 2; ADownload 2; AReact 2; ADeliver 0 2; ADownload 2; AReact 2; ADownload 2; AReact 2] in
-  only_publisher 1 tr /\ joins_ok 1 tr /\ known_S7 (ainit 2) tr = false /\ ops_at_quiescence (ainit 2) tr = false /\
-  (fun s => aview s [0; 1; 2]) <$> arun (ainit 2) tr = Some ([Some 30; Some 30; Some 30], true).
+             AJoin 3 None; ADeliver 0 2; ADeliver 1 0; ADeliver 1 0; ADownload 0; ADownload 0; AReact 0;
+             ADeliver 0 3; ADeliver 0 3; ADeliver 0 3; ADownload 3; ADownload 3; ADownload 3; AReact 3;
+             ADeliver 0 2; ADownload 2; AReact 2; ADeliver 0 2; ADownload 2; ADownload 2; AReact 2] in
+  only_publisher 1 tr /\ joins_ok (ainit 2) tr /\ ops_at_quiescence (ainit 2) tr = false /\
+  (fun s => aview s [0; 1; 2; 3]) <$> arun (ainit 2) tr = Some ([Some 30; Some 30; Some 30; Some 30], true).
 Proof.
-  split; [only_pub|]. split; [reflexivity|]. split; [vm_compute; reflexivity|]. split; vm_compute; reflexivity.
+  split; [only_pub|]. split; [split; [unfold fresh_joins; vm_compute; repeat constructor|vm_compute; reflexivity]|].
+  split; vm_compute; reflexivity.
 Qed.
 
-(* ---------- stability ------------------------------------------------------------------------------ *)
+(* the host publishes at any pace, a client joins before the host's react run *)
+Example C06_single_publisher_host_nonvacuous :
+  joins_ok (ainit 0) w_join_react /\ only_publisher 0 w_burst /\ joins_ok (ainit 2) w_burst.
+Proof.
+  split; [split; [unfold fresh_joins; vm_compute; repeat constructor|vm_compute; reflexivity]|].
+  split; [only_pub|]. split; [unfold fresh_joins; vm_compute; constructor|vm_compute; reflexivity].
+Qed.
+
+(* three publishers in turn, overwrites, a join, everything drain separated *)
+Example C06_drain_separated_nonvacuous :
+  let tr := [APublish 1 10; AReact 1; ADeliver 1 0; ADownload 0; ADeliver 0 2; AReact 0; ADownload 2; AReact 2;
+             APublish 2 20; AReact 2; ADeliver 2 0; ADownload 0; AReact 0; ADeliver 0 1; ADownload 1; AReact 1;
+             AJoin 3 None; ADeliver 0 3; ADownload 3; AReact 3;
+             APublish 0 30; AReact 0; ADeliver 0 3; ADeliver 0 1; ADeliver 0 2; ADownload 1; ADownload 2; ADownload 3;
+             AReact 1; AReact 2; AReact 3;
+             APublish 3 40; AReact 3; ADeliver 3 0; ADeliver 0 1; ADeliver 0 2; ADownload 0; ADownload 1; ADownload 2;
+             AReact 0; AReact 1; AReact 2] in
+  fresh_joins tr /\ ops_at_quiescence (ainit 2) tr = true /\
+  (fun s => aview s [0; 1; 2; 3]) <$> arun (ainit 2) tr = Some ([Some 40; Some 40; Some 40; Some 40], true).
+Proof. split; [unfold fresh_joins; vm_compute; repeat constructor|]. split; vm_compute; reflexivity. Qed.
+
+(* the hand-over form: client 1 publishes a burst, drains, then the host publishes a burst *)
+Example C06_handover_nonvacuous :
+  let tr := [APublish 1 10; APublish 1 20; AReact 1; ADeliver 1 0; ADeliver 1 0; ADownload 0; ADownload 0; AReact 0;
+             ADeliver 0 2; ADeliver 0 2; ADownload 2; ADownload 2; AReact 2;
+             APublish 0 30; AReact 0; APublish 0 40; ADeliver 0 1; ADownload 1; AReact 0; ADeliver 0 1; ADeliver 0 2;
+             ADeliver 0 2; ADownload 2; ADownload 2; ADownload 1; AReact 1; AReact 2] in
+  joins_ok (ainit 2) tr /\ handover_at_quiescence 1 (ainit 2) tr = true /\ ops_at_quiescence (ainit 2) tr = false /\
+  (fun s => aview s [0; 1; 2]) <$> arun (ainit 2) tr = Some ([Some 40; Some 40; Some 40], true).
+Proof. split; [split; [unfold fresh_joins; vm_compute; repeat constructor|vm_compute; reflexivity]|]. repeat split; vm_compute; reflexivity. Qed.
+
+(* ================================================================================================
+   Part 6: stability, joins (A6)
+   ================================================================================================ *)
 
 (* from a quiescent state nothing but a publication or a join changes anything *)
 Theorem quiescent_is_stable s :
@@ -1343,470 +1449,789 @@ Proof.
 Qed.
 Print Assumptions quiescent_is_stable.
 
-(* On reachable states a token never outlives its event (and an unread event implies a stored content):
-   "links empty, no pending downloads, no unread events" IS quiescence. *)
-Definition TokEv (s : astate) : Prop :=
-  forall p, (ptok s p = true -> pevents s p <> 0%nat) /\ (pevents s p <> 0%nat -> pstore s p <> None).
-
-Lemma tokev_step1 s e s' :
-  match e with AReact _ => False | _ => True end -> NoDup (aconn s) -> TokEv s -> astep s e = Some s' -> TokEv s'.
+Lemma quiescent_plain_run s tr s' : aquiescent s -> Forall plain tr -> arun s tr = Some s' -> s' = s.
 Proof.
-  intros He Hnd HT Hstep. destruct e as [p v|p|p|src dst|p|c pre]; [|contradiction| | | |]; intros q.
-  - apply step_publish in Hstep as (_ & _ & _ & _ & Hp & Hq).
-    destruct (decide (q = p)) as [->|Hne]; unfold ptok, pevents, pstore.
-    + rewrite Hp. simpl. split; intros; discriminate.
-    + rewrite Hq by assumption. apply HT.
-  - apply step_react1 in Hstep as (_ & _ & _ & Hp & Hq & _); [|exact Hnd].
-    destruct (decide (q = p)) as [->|Hne]; unfold ptok, pevents, pstore; [|rewrite Hq by assumption; apply HT].
-    rewrite Hp. specialize (HT p). unfold ptok, pevents, pstore in HT.
-    destruct (react1_cases (getp s p)) as [[E0 E]|[(k & E0 & E1 & E)|[(k & c & E0 & E1 & E2 & E)|(k & c & E0 & E1 & E2 & E)]]];
-      rewrite E; cbn [fst]; [exact HT| | |].
-    + exfalso. apply (proj2 HT); [rewrite E0; discriminate|exact E1].
-    + simpl. split; intros; [discriminate|discriminate].
-    + simpl. split; intros; [discriminate|discriminate].
-  - apply step_deliver in Hstep as (o & rest & _ & _ & _ & _ & Hp & Hq & _); [|exact Hnd].
-    destruct (decide (q = dst)) as [->|Hne]; unfold ptok, pevents, pstore; [|rewrite Hq by assumption; apply HT].
-    rewrite Hp. specialize (HT dst). unfold ptok, pevents, pstore in HT. unfold request_peer.
-    destruct (served (getp s dst)); [exact HT|exact HT].
-  - apply step_download in Hstep as (o & rest & _ & _ & _ & _ & _ & Hp & Hq).
-    destruct (decide (q = p)) as [->|Hne]; unfold ptok, pevents, pstore; [|rewrite Hq by assumption; apply HT].
-    rewrite Hp. specialize (HT p). unfold ptok, pevents, pstore in HT. unfold download_peer.
-    destruct (pserved s o); simpl; [split; intros; discriminate|exact HT].
-  - apply step_join in Hstep as (_ & _ & _ & _ & _ & Hpc & Hph & Hq & _).
-    destruct (decide (q = c)) as [->|Hne]; unfold ptok, pevents, pstore.
-    + rewrite Hpc. simpl. split; [discriminate|congruence].
-    + destruct (decide (q = host)) as [->|Hnh]; [rewrite Hph; simpl; apply HT|rewrite Hq by assumption; apply HT].
+  intros Hq Hpl. revert s' . induction Hpl as [|e tr He _ IH]; intros s' Hrun; simpl in Hrun; [congruence|].
+  destruct (quiescent_is_stable s Hq) as (H1 & H2 & H3 & H4).
+  destruct e as [p v|p|p|src dst|p|c pre]; try contradiction.
+  - destruct (astep s (AReact p)) as [s1|] eqn:E; [|discriminate]. rewrite (H1 p s1 E) in Hrun. auto.
+  - destruct (astep s (AReact1 p)) as [s1|] eqn:E; [|discriminate]. rewrite (H2 p s1 E) in Hrun. auto.
+  - rewrite H3 in Hrun. discriminate.
+  - rewrite H4 in Hrun. discriminate.
 Qed.
 
-Lemma tokev_run tr : forall s s', awf s -> TokEv s -> arun s tr = Some s' -> TokEv s'.
+Example quiescent_is_stable_nonvacuous :
+  (aquiescentb <$> arun (ainit 2) w_burst) = Some true.
+Proof. vm_compute. reflexivity. Qed.
+
+Lemma step_conn_mono s e s' c : awf s -> astep s e = Some s' -> c ∈ aconn s -> c ∈ aconn s'.
 Proof.
-  induction tr as [|e tr IH]; intros s s' Hwf HT Hrun; simpl in Hrun; [inversion Hrun; subst; exact HT|].
-  destruct (astep s e) as [s1|] eqn:Hstep; [|discriminate].
-  apply (IH s1 s' (step_wf _ _ _ Hwf Hstep)); [|exact Hrun].
-  destruct e as [p v|p|p|src dst|p|c pre]; try (eapply tokev_step1; [|apply wf_nodup; exact Hwf|exact HT|exact Hstep]; exact I).
+  intros Hwf Hstep Hin.
+  assert (H : single e -> c ∈ aconn s').
+  { intros He. destruct e as [p v|p|p|src dst|p|c' pre]; [|contradiction| | | |].
+    - apply step_publish in Hstep as (_ & -> & _). exact Hin.
+    - apply step_react1 in Hstep as (_ & -> & _); [exact Hin|apply wf_nodup; exact Hwf].
+    - apply step_deliver in Hstep as (o & rest & _ & _ & -> & _); [exact Hin|apply wf_nodup; exact Hwf].
+    - apply step_download in Hstep as (o & rest & _ & _ & -> & _). exact Hin.
+    - apply step_join in Hstep as (_ & _ & _ & -> & _). apply elem_of_app. left. exact Hin. }
+  destruct e as [p v|p|p|src dst|p|c' pre]; try (apply H; exact I).
   apply step_react_runs in Hstep.
-  pose (P := fun s1 => awf s1 /\ TokEv s1). assert (HP : P s1); [|apply HP].
-  eapply (react1s_ind P p); [|split; [exact Hwf|exact HT]|exact Hstep].
-  intros s2 s3 [Hw2 HT2] H23. split; [eapply step_wf; eauto|].
-  eapply tokev_step1; [|apply wf_nodup; exact Hw2|exact HT2|exact H23]. exact I.
+  pose (P := fun s1 => awf s1 /\ c ∈ aconn s1). assert (HP : P s'); [|apply HP].
+  eapply (react1s_ind P p); [|split; [exact Hwf|exact Hin]|exact Hstep].
+  intros s1 s2 [Hw1 Hi1] H12. split; [eapply step_wf; eauto|].
+  apply step_react1 in H12 as (_ & -> & _); [exact Hi1|apply wf_nodup; exact Hw1].
 Qed.
 
-Theorem quiescent_is_drained n tr s' :
-  arun (ainit n) tr = Some s' ->
-  (aquiescent s' <->
-   (forall a b, link s' a b = []) /\ (forall p, ppending s' p = []) /\ (forall p, pevents s' p = 0%nat)).
+Lemma run_conn_mono tr : forall s s' c, awf s -> arun s tr = Some s' -> c ∈ aconn s -> c ∈ aconn s'.
 Proof.
-  intros Hrun. split.
-  - intros Hq. split; [intros; apply quiescent_link; exact Hq|]. split; intros p; apply (quiescent_peer s' p Hq).
-  - intros (Hl & Hp & He). apply quiescent_intro; [exact Hl|]. intros p. split; [apply He|]. split; [|apply Hp].
-    assert (HT : TokEv s').
-    { eapply tokev_run; [apply ainit_wf| |exact Hrun]. intros q. unfold ptok, pevents, pstore. rewrite ainit_getp. simpl.
-      split; [discriminate|congruence]. }
-    destruct (ptok s' p) eqn:Ht; [|reflexivity]. exfalso. apply (proj1 (HT p) Ht). apply He.
+  induction tr as [|e tr IH]; intros s s' c Hwf Hrun Hin; simpl in Hrun; [congruence|].
+  destruct (astep s e) as [s1|] eqn:Hs; [|discriminate].
+  eapply (IH s1); [eapply step_wf; eauto|exact Hrun|eapply step_conn_mono; eauto].
 Qed.
 
-(* ---------- traffic --------------------------------------------------------------------------------
-   potential: the messages the publisher's unread events and its uplink messages can still cause *)
-Definition phi (w : peer) (s : astate) : nat :=
+(* join_gets_asset: a fresh client that joins at ANY moment outside the join window (whoever the
+   publishers were, as long as they handed over in quiescent states; whatever is still travelling) ends,
+   at every later quiescent state, with the host's content, which is the last published one *)
+Theorem join_gets_asset n w0 tr1 c tr2 s' :
+  let tr := tr1 ++ AJoin c None :: tr2 in
+  arun (ainit n) tr = Some s' -> joins_ok (ainit n) tr -> handover_at_quiescence w0 (ainit n) tr = true ->
+  aquiescent s' ->
+  c ∈ aconn s' /\ pstore s' c = pstore s' host /\ pstore s' c = last (published tr).
+Proof.
+  intros tr Hrun Hj Hho Hq.
+  pose proof (C06_handover n w0 tr s' Hrun Hj Hho Hq) as Hall.
+  assert (Hin : c ∈ aconn s').
+  { unfold tr in Hrun. rewrite arun_app in Hrun. destruct (arun (ainit n) tr1) as [s1|] eqn:Hrun1; [|discriminate].
+    cbn [arun] in Hrun. destruct (astep s1 (AJoin c None)) as [s2|] eqn:Hstep; [|discriminate].
+    pose proof (run_wf _ _ _ (ainit_wf n) Hrun1) as Hwf1.
+    eapply (run_conn_mono tr2 s2); [eapply step_wf; eauto|exact Hrun|].
+    apply step_join in Hstep as (_ & _ & _ & -> & _). apply elem_of_app. right. apply elem_of_list_singleton. reflexivity. }
+  split; [exact Hin|]. rewrite (Hall c (or_intror Hin)), (Hall host (or_introl eq_refl)). auto.
+Qed.
+Print Assumptions join_gets_asset.
+
+Example join_gets_asset_nonvacuous :
+  (* client 3 joins while client 1's overwrite 20 is on its way to the host *)
+  let tr1 := [APublish 1 10; AReact 1; ADeliver 1 0; ADownload 0; ADeliver 0 2; AReact 0; ADownload 2; AReact 2;
+              APublish 1 20; AReact 1] in
+  let tr2 := [ADeliver 0 3; ADeliver 1 0; ADownload 3; ADeliver 0 2; ADeliver 0 3; ADownload 0; ADownload 2; ADownload 3;
+              AReact 0; AReact 2; AReact 3] in
+  let tr := tr1 ++ AJoin 3 None :: tr2 in
+  joins_ok (ainit 2) tr /\ handover_at_quiescence 1 (ainit 2) tr = true /\ ops_at_quiescence (ainit 2) tr = false /\
+  (fun s => aview s [0; 1; 2; 3]) <$> arun (ainit 2) tr = Some ([Some 20; Some 20; Some 20; Some 20], true).
+Proof.
+  split; [split; [unfold fresh_joins; vm_compute; repeat constructor|vm_compute; reflexivity]|]. repeat split; vm_compute; reflexivity.
+Qed.
+
+(* A fresh client joining in ANY quiescent state in which all peers agree ends, at quiescence, with the same
+   content -- whatever happened before (in particular whoever the publishers were and however they interleaved) *)
+Lemma inv_join_quiescent s c v s2 :
+  awf s -> Basic s -> aquiescent s -> (forall q, peers s q -> pstore s q = v) ->
+  astep s (AJoin c None) = Some s2 -> Inv host s2 /\ pstore s2 host = v.
+Proof.
+  intros Hwf HB Hqs Hag Hstep. pose proof (basic_step1 s (AJoin c None) s2 I Hwf HB I Hstep) as HB'.
+  apply step_join in Hstep as (Hch & Hcn & Hnone & Hc & _ & Hpc & Hph & Hq & Hl).
+  pose proof (getp_none _ _ Hnone) as Hc0.
+  assert (Hvh : pstore s host = v) by (apply Hag; left; reflexivity).
+  assert (Hidle : forall q, q <> c -> pevents s2 q = 0%nat /\ ptok s2 q = 0%nat /\ ppending s2 q = [] /\ pstore s2 q = pstore s q).
+  { intros q Hne. destruct (quiescent_peer s q Hqs) as (H1 & H2 & H3). unfold pevents, ptok, ppending, pstore in *.
+    destruct (decide (q = host)) as [->|Hnh]; [rewrite Hph; simpl; auto|rewrite Hq by assumption; auto]. }
+  assert (Hlk : forall a b, link s2 a b = if decide ((a, b) = (host, c)) then snapshot s else []).
+  { intros a b. rewrite Hl, !(quiescent_link s _ _ Hqs). reflexivity. }
+  assert (Hsvh : pserved s2 host = pstore s host).
+  { unfold pserved, pstore. rewrite Hph. unfold serve_store. simpl. destruct (store (getp s host)) eqn:E; [reflexivity|].
+    destruct (HB host) as (_ & _ & H3). unfold pserved, pstore in H3. destruct (served (getp s host)); [exfalso; apply H3; [discriminate|exact E]|reflexivity]. }
+  split; [|destruct (Hidle host (not_eq_sym Hch)) as (_ & _ & _ & ->); exact Hvh].
+  constructor; intros.
+  - exact HB'.
+  - apply (Hidle host (not_eq_sym Hch)).
+  - apply (Hidle host (not_eq_sym Hch)).
+  - rewrite Hlk. cdec as [Heq|_]; [inversion Heq; congruence|reflexivity].
+  - rewrite Hlk. cdec as [Heq|_]; [inversion Heq; congruence|reflexivity].
+  - rewrite Hlk in H. destruct (decide ((host, host) = (host, c))) as [Heq|_]; [inversion Heq; congruence|inversion H].
+  - destruct (decide (q = c)) as [->|Hne]; [unfold ptok, pevents; rewrite Hpc; reflexivity|].
+    destruct (Hidle q Hne) as (-> & -> & _). reflexivity.
+  - rewrite Hlk in H. cdec as [_|_]; [|inversion H]. unfold snapshot in H.
+    destruct (pstore s host) eqn:E; [|inversion H]. apply elem_of_list_singleton in H. subst o. rewrite Hsvh. discriminate.
+  - destruct (decide (q = c)) as [->|Hne]; [unfold ppending in H; rewrite Hpc in H; inversion H|].
+    destruct (Hidle q Hne) as (_ & _ & Hp & _). rewrite Hp in H. inversion H.
+  - left. rewrite Hsvh. symmetry. apply (Hidle host (not_eq_sym Hch)).
+  - right. right. unfold final_ok, queue. rewrite Hlk, Hsvh. destruct (decide (q = c)) as [->|Hne].
+    + unfold ppending, pstore. rewrite Hpc. cbn [pending store app].
+      destruct (decide ((host, c) = (host, c))) as [_|?]; [|congruence].
+      unfold snapshot. destruct (pstore s host) eqn:E; simpl; rewrite ?Hsvh; exact (eq_sym E).
+    + destruct (Hidle q Hne) as (_ & _ & -> & ->). destruct (decide ((host, q) = (host, c))) as [Heq|_]; [inversion Heq; congruence|].
+      simpl. rewrite Hvh. apply Hag. destruct H as [H|H]; [left; exact H|]. rewrite Hc in H.
+      apply elem_of_app in H as [H|H]; [right; exact H|]. apply elem_of_list_singleton in H. contradiction.
+Qed.
+
+Lemma plain_trace rest :
+  Forall plain rest -> published rest = [] /\ publishers rest = [] /\ joins rest = [] /\
+  (forall s, ops_at_quiescence s rest = true) /\ (forall s, known_join_window s rest = false) /\
+  (forall w s, handover_at_quiescence w s rest = true).
+Proof.
+  unfold known_join_window.
+  induction 1 as [|e rest He _ (IH1 & IH2 & IH3 & IH4 & IH5 & IH6)]; [repeat split|].
+  destruct e; simpl in He; try contradiction; (split; [exact IH1|]; split; [exact IH2|]; split; [exact IH3|]);
+    (split; [|split]); intros; cbn [ops_at_quiescence scan handover_at_quiescence bad_join_window orb];
+    (destruct (astep s _); [|reflexivity]); rewrite ?IH4, ?IH5, ?IH6; reflexivity.
+Qed.
+
+Theorem join_from_agreement n tr0 s c v s2 tr2 s' :
+  arun (ainit n) tr0 = Some s -> aquiescent s -> (forall q, peers s q -> pstore s q = v) ->
+  astep s (AJoin c None) = Some s2 -> Forall plain tr2 -> arun s2 tr2 = Some s' -> aquiescent s' ->
+  c ∈ aconn s' /\ forall q, peers s' q -> pstore s' q = v.
+Proof.
+  intros Hrun0 Hqs Hag Hstep Hpl Hrun Hq'.
+  pose proof (run_wf _ _ _ (ainit_wf n) Hrun0) as Hwf. pose proof (basic_invariant n tr0 s Hrun0) as HB.
+  destruct (inv_join_quiescent s c v s2 Hwf HB Hqs Hag Hstep) as [HI2 Hv].
+  pose proof (step_wf _ _ _ Hwf Hstep) as Hwf2.
+  destruct (plain_trace tr2 Hpl) as (Hp1 & _ & Hp3 & _ & Hp5 & Hp6).
+  destruct (inv_run tr2 host s2 s' Hwf2 HI2) as (w' & _ & HI' & Hs'); [unfold fresh_joins; rewrite Hp3; constructor|apply Hp5|apply Hp6|exact Hrun|].
+  rewrite Hp1 in Hs'. simpl in Hs'. split.
+  - eapply (run_conn_mono tr2 s2); [exact Hwf2|exact Hrun|].
+    apply step_join in Hstep as (_ & _ & _ & -> & _). apply elem_of_app. right. apply elem_of_list_singleton. reflexivity.
+  - intros q Hpq. rewrite (inv_quiescent_agree w' s' HI' Hq' q Hpq), Hs'. exact Hv.
+Qed.
+Print Assumptions join_from_agreement.
+
+(* ... even after a history of concurrent publishers that happened to end in agreement (on an older content) *)
+Example join_from_agreement_nonvacuous :
+  exists s s2 s',
+    arun (ainit 1) w_lost_update = Some s /\ aquiescent s /\ (forall q, peers s q -> pstore s q = Some 30) /\
+    astep s (AJoin 2 None) = Some s2 /\ arun s2 [ADeliver 0 2; ADownload 2; AReact 2] = Some s' /\ aquiescent s' /\
+    pstore s' 2 = Some 30.
+Proof.
+  destruct (arun_obs (fun s => (aquiescentb s, pstore s 0, pstore s 1, aconn s)) (ainit 1) w_lost_update (true, Some 30, Some 30, [1]))
+    as (s & Hrun & Hobs); [vm_compute; reflexivity|].
+  injection Hobs as Hq H0 H1 Hc. apply bool_decide_eq_true in Hq.
+  destruct (arun_obs (fun s => (aquiescentb s, pstore s 2)) (ainit 1) (w_lost_update ++ [AJoin 2 None; ADeliver 0 2; ADownload 2; AReact 2]) (true, Some 30))
+    as (s' & Hrun' & Hobs'); [vm_compute; reflexivity|].
+  injection Hobs' as Hq' H2. apply bool_decide_eq_true in Hq'.
+  rewrite arun_app, Hrun in Hrun'. cbn [arun] in Hrun'. destruct (astep s (AJoin 2 None)) as [s2|] eqn:Hs2; [|discriminate].
+  exists s, s2, s'. split; [exact Hrun|]. split; [exact Hq|]. split; [|auto].
+  intros q [->|Hin]; [exact H0|]. rewrite Hc in Hin. apply elem_of_list_singleton in Hin. subst q. exact H1.
+Qed.
+
+(* ================================================================================================
+   Part 7: traffic and termination (C09).  Five counters of a state; every event changes them in a
+   fixed way; the traffic bound, the download bound and the termination measure are linear in them.
+   ================================================================================================ *)
+
+Fixpoint sumf (f : peer -> nat) (l : list peer) : nat :=
+  match l with [] => 0%nat | x :: l => (f x + sumf f l)%nat end.
+
+Lemma sumf_ext f g l : (forall x, x ∈ l -> f x = g x) -> sumf f l = sumf g l.
+Proof.
+  induction l as [|y l IH]; intros H; [reflexivity|]. simpl. rewrite (H y) by left. rewrite IH; [reflexivity|].
+  intros x Hx. apply H. right. exact Hx.
+Qed.
+Lemma sumf_app f l1 l2 : sumf f (l1 ++ l2) = (sumf f l1 + sumf f l2)%nat.
+Proof. induction l1 as [|y l1 IH]; simpl; [reflexivity|]. rewrite IH. lia. Qed.
+Lemma sumf_update f g l p :
+  NoDup l -> p ∈ l -> (forall x, x ∈ l -> x <> p -> g x = f x) -> (sumf g l + f p = sumf f l + g p)%nat.
+Proof.
+  induction l as [|y l IH]; intros Hnd Hin Hg; [inversion Hin|]. apply NoDup_cons in Hnd as [Hy Hnd]. simpl.
+  destruct (decide (y = p)) as [->|Hne].
+  - rewrite (sumf_ext g f l); [lia|]. intros x Hx. apply Hg; [right; exact Hx|]. intros ->. contradiction.
+  - apply elem_of_cons in Hin as [Hin|Hin]; [congruence|].
+    rewrite (Hg y) by (try left; assumption). specialize (IH Hnd Hin). 
+    assert (H : (sumf g l + f p = sumf f l + g p)%nat); [|lia]. apply IH. intros x Hx. apply Hg. right. exact Hx.
+Qed.
+Lemma sumf_add_const f g l k : (forall x, x ∈ l -> g x = (f x + k)%nat) -> sumf g l = (sumf f l + k * length l)%nat.
+Proof.
+  induction l as [|y l IH]; intros H; [simpl; lia|]. simpl. rewrite (H y) by left. rewrite IH; [lia|].
+  intros x Hx. apply H. right. exact Hx.
+Qed.
+Lemma sumf_add_filter f g (P : peer -> Prop) `{forall x, Decision (P x)} l :
+  (forall x, x ∈ l -> g x = (f x + if decide (P x) then 1 else 0)%nat) ->
+  sumf g l = (sumf f l + length (filter P l))%nat.
+Proof.
+  induction l as [|y l IH]; intros Hg; [reflexivity|]. simpl. rewrite (Hg y) by left.
+  rewrite IH by (intros x Hx; apply Hg; right; exact Hx). rewrite filter_cons.
+  destruct (decide (P y)); simpl; lia.
+Qed.
+
+Definition allp (s : astate) : list peer := host :: aconn s.
+Definition psum (F : apeer -> nat) (s : astate) : nat := sumf (fun p => F (getp s p)) (allp s).
+Definition lsum_down (s : astate) : nat := sumf (fun c => length (link s host c)) (aconn s).
+Definition lsum_up (s : astate) : nat := sumf (fun c => length (link s c host)) (aconn s).
+
+Definition credit (x : apeer) : nat := (events x - tok x)%nat.   (* local changes not yet announced *)
+Definition npend (x : apeer) : nat := length (pending x).
+
+Lemma allp_nodup s : awf s -> NoDup (allp s).
+Proof. intros Hwf. apply NoDup_cons. split; [apply wf_host; exact Hwf|apply wf_nodup; exact Hwf]. Qed.
+Lemma allp_peers s p : p ∈ allp s <-> peers s p.
+Proof. unfold allp, peers. rewrite elem_of_cons. reflexivity. Qed.
+
+Lemma psum_update F s s' p :
+  awf s -> aconn s' = aconn s -> is_Some (ap s !! p) -> (forall q, q <> p -> getp s' q = getp s q) ->
+  (psum F s' + F (getp s p) = psum F s + F (getp s' p))%nat.
+Proof.
+  intros Hwf Hc Hex Hq. unfold psum, allp. rewrite Hc.
+  apply (sumf_update (fun p => F (getp s p)) (fun p => F (getp s' p))); [apply (allp_nodup s Hwf)| |].
+  - apply allp_peers. apply (wf_exists s p Hwf). exact Hex.
+  - intros x _ Hne. rewrite Hq by assumption. reflexivity.
+Qed.
+
+Lemma lsum_same s s' :
+  aconn s' = aconn s -> (forall a b, link s' a b = link s a b) -> lsum_down s' = lsum_down s /\ lsum_up s' = lsum_up s.
+Proof. intros Hc Hl. unfold lsum_down, lsum_up. rewrite Hc. split; apply sumf_ext; intros; rewrite Hl; reflexivity. Qed.
+
+(* the five counters: unannounced local changes, tokens, pending downloads, messages down, messages up *)
+Definition SC := psum credit.
+Definition ST := psum tok.
+Definition SP := psum npend.
+
+(* APublish *)
+Lemma delta_publish s p v s' :
+  awf s -> Basic s -> astep s (APublish p v) = Some s' ->
+  aconn s' = aconn s /\ SC s' = S (SC s) /\ ST s' = ST s /\ SP s' = SP s /\ lsum_down s' = lsum_down s /\ lsum_up s' = lsum_up s.
+Proof.
+  intros Hwf HB Hstep. apply step_publish in Hstep as (Hex & Hc & Hl & _ & Hp & Hq).
+  assert (Hlk : forall a b, link s' a b = link s a b) by (intros; unfold link; rewrite Hl; reflexivity).
+  destruct (lsum_same s s' Hc Hlk) as [H1 H2]. split; [exact Hc|].
+  pose proof (psum_update credit s s' p Hwf Hc Hex Hq) as HC.
+  pose proof (psum_update tok s s' p Hwf Hc Hex Hq) as HT.
+  pose proof (psum_update npend s s' p Hwf Hc Hex Hq) as HP.
+  rewrite Hp in HC, HT, HP. unfold credit, npend in HC, HT, HP. cbn [events tok pending length] in HC, HT, HP.
+  destruct (HB p) as (Hle & _). unfold SC, ST, SP, credit, npend, ptok, pevents, ppending in *. repeat split; try assumption; lia.
+Qed.
+
+(* AReact1 *)
+Lemma delta_react1 s p s' :
+  awf s -> Basic s -> astep s (AReact1 p) = Some s' ->
+  aconn s' = aconn s /\ SP s' = SP s /\
+  ((pevents s p = 0%nat /\ originates s p = false /\ SC s' = SC s /\ ST s' = ST s /\ lsum_down s' = lsum_down s /\ lsum_up s' = lsum_up s) \/
+   (pevents s p <> 0%nat /\ originates s p = false /\ SC s' = SC s /\ S (ST s') = ST s /\ lsum_down s' = lsum_down s /\ lsum_up s' = lsum_up s) \/
+   (pevents s p <> 0%nat /\ originates s p = true /\ S (SC s') = SC s /\ ST s' = ST s /\
+    ((p = host /\ lsum_down s' = (lsum_down s + length (aconn s))%nat /\ lsum_up s' = lsum_up s) \/
+     (p <> host /\ p ∈ aconn s /\ lsum_down s' = lsum_down s /\ lsum_up s' = S (lsum_up s))))).
+Proof.
+  intros Hwf HB Hstep. pose proof (wf_nodup s Hwf) as Hnd.
+  apply step_react1 in Hstep as (Hex & Hc & _ & Hp & Hq & Hl); [|exact Hnd]. split; [exact Hc|].
+  pose proof (psum_update credit s s' p Hwf Hc Hex Hq) as HC.
+  pose proof (psum_update tok s s' p Hwf Hc Hex Hq) as HT.
+  pose proof (psum_update npend s s' p Hwf Hc Hex Hq) as HP.
+  rewrite Hp in HC, HT, HP. unfold originates, pevents.
+  destruct (react1_cases (getp s p)) as [[E0 E]|[(k & E0 & E1 & E)|[(k & c & t & E0 & E1 & E2 & E)|(k & c & E0 & E1 & E2 & E)]]];
+    rewrite E in *; cbn [fst snd] in *; unfold credit, npend in HC, HT, HP; cbn [events tok pending length] in HC, HT, HP.
+  - assert (Hlk : forall a b, link s' a b = link s a b).
+    { intros a b. rewrite Hl. cdec as [[Hf _]|_]; [discriminate|reflexivity]. }
+    destruct (lsum_same s s' Hc Hlk) as [H1 H2]. unfold SC, ST, SP, credit, npend. split; [lia|]. left. repeat split; try assumption; lia.
+  - exfalso. destruct (HB p) as (_ & H2 & _). apply H2; [unfold pevents; rewrite E0; discriminate|exact E1].
+  - assert (Hlk : forall a b, link s' a b = link s a b).
+    { intros a b. rewrite Hl. cdec as [[Hf _]|_]; [discriminate|reflexivity]. }
+    destruct (lsum_same s s' Hc Hlk) as [H1 H2]. unfold SC, ST, SP, credit, npend. split; [lia|]. right. left.
+    rewrite E0, E2 in *. repeat split; try assumption; try lia.
+  - unfold SC, ST, SP, credit, npend. split; [lia|]. right. right. rewrite E0, E2 in *.
+    split; [lia|]. split; [reflexivity|]. split; [lia|]. split; [lia|].
+    assert (Hlk : forall a b, link s' a b = if decide (a = p /\ b ∈ dsts_of s p) then link s a b ++ [p] else link s a b).
+    { intros a b. rewrite Hl. destruct (decide (a = p /\ b ∈ dsts_of s p)) as [Hy|Hn].
+      - destruct (decide (true = true /\ _)) as [_|Hn]; [reflexivity|tauto].
+      - destruct (decide (true = true /\ _)) as [[_ Hy]|_]; [tauto|reflexivity]. }
+    unfold lsum_down, lsum_up. rewrite Hc. destruct (decide (p = host)) as [->|Hph].
+    + left. split; [reflexivity|]. split.
+      * rewrite (sumf_add_const (fun c => length (link s host c)) _ (aconn s) 1); [lia|].
+        intros x Hx. rewrite Hlk. unfold dsts_of. change (host =? host)%N with true. cbv iota.
+        destruct (decide (host = host /\ x ∈ aconn s)) as [_|Hn]; [rewrite app_length; reflexivity|tauto].
+      * apply sumf_ext. intros x Hx. rewrite Hlk. cdec as [[-> _]|_]; [exfalso; apply (wf_host s Hwf Hx)|reflexivity].
+    + right. split; [exact Hph|].
+      assert (Hin : p ∈ aconn s). { apply (wf_exists s p Hwf) in Hex as [?|?]; [contradiction|assumption]. }
+      split; [exact Hin|]. split.
+      * apply sumf_ext. intros x Hx. rewrite Hlk. cdec as [[Heq _]|_]; [congruence|reflexivity].
+      * pose proof (sumf_update (fun c => length (link s c host)) (fun c => length (link s' c host)) (aconn s) p Hnd Hin) as HU.
+        cbv beta in HU. rewrite Hlk in HU. unfold dsts_of in HU. destruct (p =? host)%N eqn:E'; [apply N.eqb_eq in E'; contradiction|].
+        destruct (decide (p = p /\ host ∈ [host])) as [_|Hn]; [|exfalso; apply Hn; split; [reflexivity|apply elem_of_list_singleton; reflexivity]].
+        rewrite app_length in HU. simpl in HU.
+        assert (H : (sumf (fun c => length (link s' c host)) (aconn s) + length (link s p host)
+                     = sumf (fun c => length (link s c host)) (aconn s) + (length (link s p host) + 1))%nat); [|lia].
+        apply HU. intros x Hx Hne. rewrite Hlk. cdec as [[Heq _]|_]; [contradiction|reflexivity].
+Qed.
+
+(* ADeliver *)
+Lemma delta_deliver s src dst s' :
+  awf s -> astep s (ADeliver src dst) = Some s' ->
+  aconn s' = aconn s /\ SC s' = SC s /\ ST s' = ST s /\ SP s' = S (SP s) /\
+  ((dst = host /\ src ∈ aconn s /\ S (lsum_up s') = lsum_up s /\
+    lsum_down s' = (lsum_down s + length (others src (aconn s)))%nat /\ sent1 s (ADeliver src dst) = length (others src (aconn s))) \/
+   (dst <> host /\ lsum_up s' = lsum_up s /\ S (lsum_down s') = lsum_down s /\ sent1 s (ADeliver src dst) = 0%nat)).
+Proof.
+  intros Hwf Hstep. pose proof (wf_nodup s Hwf) as Hnd.
+  apply step_deliver in Hstep as (o & rest & Hl0 & Hex & Hc & _ & Hp & Hq & Hl); [|exact Hnd]. split; [exact Hc|].
+  pose proof (psum_update credit s s' dst Hwf Hc Hex Hq) as HC.
+  pose proof (psum_update tok s s' dst Hwf Hc Hex Hq) as HT.
+  pose proof (psum_update npend s s' dst Hwf Hc Hex Hq) as HP.
+  rewrite Hp in HC, HT, HP. unfold request_peer, credit, npend in HC, HT, HP. cbn [events tok pending] in HC, HT, HP.
+  rewrite app_length in HP. cbn [length] in HP.
+  unfold SC, ST, SP, credit, npend. split; [lia|]. split; [lia|]. split; [lia|].
+  assert (Hne0 : link s src dst <> []) by (rewrite Hl0; discriminate).
+  unfold lsum_down, lsum_up. rewrite Hc. cbn [sent1]. rewrite Hl0.
+  destruct (wf_link s src dst Hwf Hne0) as [[-> Hin]|[-> Hin]].
+  - (* host -> client *)
+    assert (Hdh : dst <> host) by (intros ->; apply (wf_host s Hwf Hin)).
+    right. split; [exact Hdh|]. destruct (dst =? host)%N eqn:E; [apply N.eqb_eq in E; contradiction|].
+    split; [|split; [|reflexivity]].
+    + apply sumf_ext. intros x Hx. rewrite Hl.
+      destruct (decide ((x, host) = (host, dst))) as [Heq|_]; [inversion Heq; congruence|].
+      destruct (decide (dst = host /\ _)) as [[? _]|_]; [contradiction|]. rewrite app_nil_r. reflexivity.
+    + pose proof (sumf_update (fun c => length (link s host c)) (fun c => length (link s' host c)) (aconn s) dst Hnd Hin) as HU.
+      cbv beta in HU. rewrite (Hl host dst), Hl0 in HU.
+      destruct (decide ((host, dst) = (host, dst))) as [_|?]; [|congruence].
+      destruct (decide (dst = host /\ _)) as [[? _]|_]; [contradiction|]. rewrite app_nil_r in HU. cbn [length] in HU.
+      assert (H : (sumf (fun c => length (link s' host c)) (aconn s) + S (length rest)
+                   = sumf (fun c => length (link s host c)) (aconn s) + length rest)%nat); [|lia].
+      apply HU. intros x Hx Hne. rewrite Hl.
+      destruct (decide ((host, x) = (host, dst))) as [Heq|_]; [inversion Heq; congruence|].
+      destruct (decide (dst = host /\ _)) as [[? _]|_]; [contradiction|]. rewrite app_nil_r. reflexivity.
+  - (* client -> host *)
+    assert (Hsh : src <> host) by (intros ->; apply (wf_host s Hwf Hin)).
+    left. split; [reflexivity|]. split; [exact Hin|]. change (host =? host)%N with true. cbv iota.
+    split; [|split; [|reflexivity]].
+    + pose proof (sumf_update (fun c => length (link s c host)) (fun c => length (link s' c host)) (aconn s) src Hnd Hin) as HU.
+      cbv beta in HU. rewrite (Hl src host), Hl0 in HU.
+      destruct (decide ((src, host) = (src, host))) as [_|?]; [|congruence].
+      destruct (decide (host = host /\ src = host /\ _)) as [(_ & ? & _)|_]; [contradiction|]. rewrite app_nil_r in HU. cbn [length] in HU.
+      assert (H : (sumf (fun c => length (link s' c host)) (aconn s) + S (length rest)
+                   = sumf (fun c => length (link s c host)) (aconn s) + length rest)%nat); [|lia].
+      apply HU. intros x Hx Hne. rewrite Hl.
+      destruct (decide ((x, host) = (src, host))) as [Heq|_]; [inversion Heq; congruence|].
+      destruct (decide (host = host /\ x = host /\ _)) as [(_ & -> & _)|_]; [exfalso; apply (wf_host s Hwf Hx)|]. rewrite app_nil_r. reflexivity.
+    + unfold others. apply (sumf_add_filter (fun c => length (link s host c)) _ (fun c => c <> src)).
+      intros x Hx. rewrite Hl. destruct (decide ((host, x) = (src, host))) as [Heq|_]; [inversion Heq; congruence|].
+      rewrite app_length. f_equal. destruct (decide (x <> src)) as [Hy|Hn].
+      * destruct (decide (host = host /\ host = host /\ x ∈ others src (aconn s))) as [_|Hn]; [reflexivity|].
+        exfalso. apply Hn. split; [reflexivity|]. split; [reflexivity|]. apply elem_of_others. auto.
+      * destruct (decide (host = host /\ host = host /\ x ∈ others src (aconn s))) as [(_ & _ & Hy)|_]; [|reflexivity].
+        apply elem_of_others in Hy as [Hy _]. contradiction.
+Qed.
+
+(* ADownload *)
+Lemma delta_download s p s' :
+  awf s -> astep s (ADownload p) = Some s' ->
+  aconn s' = aconn s /\ SC s' = SC s /\ (ST s' = ST s \/ ST s' = S (ST s)) /\ S (SP s') = SP s /\
+  lsum_down s' = lsum_down s /\ lsum_up s' = lsum_up s.
+Proof.
+  intros Hwf Hstep. apply step_download in Hstep as (o & rest & Hp0 & Hex & Hc & Hl & _ & Hp & Hq).
+  assert (Hlk : forall a b, link s' a b = link s a b) by (intros; unfold link; rewrite Hl; reflexivity).
+  destruct (lsum_same s s' Hc Hlk) as [H1 H2]. split; [exact Hc|].
+  pose proof (psum_update credit s s' p Hwf Hc Hex Hq) as HC.
+  pose proof (psum_update tok s s' p Hwf Hc Hex Hq) as HT.
+  pose proof (psum_update npend s s' p Hwf Hc Hex Hq) as HP.
+  rewrite Hp in HC, HT, HP. unfold ppending in Hp0. unfold download_peer, credit, npend in HC, HT, HP. rewrite Hp0 in HC, HT, HP.
+  unfold SC, ST, SP, credit, npend.
+  destruct (pserved s o); cbn [events tok pending length tail] in HC, HT, HP; repeat split; try assumption; try lia.
+Qed.
+
+(* AJoin *)
+Lemma psum_join F s c pre s' :
+  awf s -> (forall x, F (serve_store x) = F x) -> astep s (AJoin c pre) = Some s' ->
+  psum F s' = (psum F s + F (APeer pre 0 0 pre []))%nat.
+Proof.
+  intros Hwf HF Hstep. apply step_join in Hstep as (Hch & Hcn & Hnone & Hc & _ & Hpc & Hph & Hq & Hl).
+  unfold psum, allp. rewrite Hc. cbn [sumf]. rewrite sumf_app. cbn [sumf]. rewrite Hpc, Hph, HF.
+  rewrite (sumf_ext (fun p => F (getp s' p)) (fun p => F (getp s p)) (aconn s)); [lia|].
+  intros x Hx. rewrite Hq; [reflexivity|congruence|]. intros ->. apply (wf_host s Hwf Hx).
+Qed.
+
+Lemma delta_join s c pre s' :
+  awf s -> astep s (AJoin c pre) = Some s' ->
+  aconn s' = aconn s ++ [c] /\ SC s' = SC s /\ ST s' = ST s /\ SP s' = SP s /\
+  lsum_down s' = (lsum_down s + sent1 s (AJoin c pre))%nat /\ lsum_up s' = lsum_up s /\ (sent1 s (AJoin c pre) <= 1)%nat.
+Proof.
+  intros Hwf Hstep.
+  pose proof (psum_join credit s c pre s' Hwf (fun _ => eq_refl) Hstep) as HC.
+  pose proof (psum_join tok s c pre s' Hwf (fun _ => eq_refl) Hstep) as HT.
+  pose proof (psum_join npend s c pre s' Hwf (fun _ => eq_refl) Hstep) as HP.
+  apply step_join in Hstep as (Hch & Hcn & Hnone & Hc & _ & Hpc & Hph & Hq & Hl).
+  assert (Hlc : link s host c = []) by (apply wf_link_nil; [exact Hwf|apply wf_host; exact Hwf|exact Hcn]).
+  assert (Hlc' : link s c host = []) by (apply wf_link_nil; [exact Hwf|exact Hcn|apply wf_host; exact Hwf]).
+  split; [exact Hc|]. unfold SC, ST, SP. unfold credit at 3 in HC. unfold npend at 3 in HP. simpl in HC, HT, HP.
+  split; [lia|]. split; [lia|]. split; [lia|].
+  unfold lsum_down, lsum_up. rewrite Hc, !sumf_app. cbn [sumf sent1]. rewrite !Hl.
+  destruct (decide ((host, c) = (host, c))) as [_|?]; [|congruence].
+  destruct (decide ((c, host) = (host, c))) as [Heq|_]; [inversion Heq; congruence|].
+  rewrite Hlc, Hlc'. cbn [app length].
+  rewrite (sumf_ext (fun x => length (link s' host x)) (fun x => length (link s host x)) (aconn s)).
+  2:{ intros x Hx. rewrite Hl. cdec as [Heq|_]; [inversion Heq; congruence|reflexivity]. }
+  rewrite (sumf_ext (fun x => length (link s' x host)) (fun x => length (link s x host)) (aconn s)).
+  2:{ intros x Hx. rewrite Hl. cdec as [Heq|_]; [inversion Heq; subst; exfalso; apply (wf_host s Hwf Hx)|reflexivity]. }
+  unfold snapshot. destruct (pstore s host); simpl; repeat split; lia.
+Qed.
+
+(* the three potentials *)
+Definition Phi (M : nat) (s : astate) : nat := (SC s * M + lsum_up s * (M - 1))%nat.          (* messages still to come *)
+Definition Psi (s : astate) : nat := (SP s + lsum_down s + lsum_up s)%nat.                    (* downloads still to come *)
+Definition mu (s : astate) : nat :=                                                            (* steps still to come *)
   let N := length (aconn s) in
-  (pevents s w * N + (if decide (w = host) then 0 else length (link s w host) * (N - 1)))%nat.
+  (SC s * (3 * N + 2) + ST s + 2 * SP s + 3 * lsum_down s + (3 * N + 1) * lsum_up s)%nat.
+
+Definition cost (M : nat) (e : aevent) : nat :=
+  match e with APublish _ _ => M | AJoin _ _ => 1%nat | _ => 0%nat end.
+Definition dl1 (e : aevent) : nat := match e with ADownload _ => 1%nat | _ => 0%nat end.
+
+(* an event that changes the state *)
+Definition eff1 (s : astate) (e : aevent) : nat :=
+  match e with
+  | AReact p | AReact1 p => match pevents s p with O => 0%nat | S _ => 1%nat end
+  | ADeliver _ _ | ADownload _ => 1%nat
+  | _ => 0%nat
+  end.
+Fixpoint effective (s : astate) (tr : list aevent) : nat :=
+  match tr with
+  | [] => 0%nat
+  | e :: tr => match astep s e with Some s' => (eff1 s e + effective s' tr)%nat | None => 0%nat end
+  end.
 
 Lemma others_length_lt w l : w ∈ l -> (length (others w l) < length l)%nat.
 Proof. intros Hin. unfold others. eapply filter_length_lt; [exact Hin|]. intros H. apply H. reflexivity. Qed.
 
-Lemma traffic_step1 w s e s' :
-  match e with AReact1 _ | ADeliver _ _ | ADownload _ => True | _ => False end ->
-  awf s -> Inv w s -> astep s e = Some s' ->
-  aconn s' = aconn s /\ (sent1 s e + phi w s' <= phi w s)%nat.
+Lemma counts_step1 M s e s' :
+  single e -> awf s -> Basic s -> astep s e = Some s' -> (length (aconn s') <= M)%nat ->
+  (sent1 s e + Phi M s' <= Phi M s + cost M e)%nat /\
+  (dl1 e + Psi s' <= Psi s + sent1 s e)%nat /\
+  (plain e -> aconn s' = aconn s /\ (eff1 s e + mu s' <= mu s)%nat).
 Proof.
-  intros He Hwf HI Hstep. pose proof (wf_nodup s Hwf) as Hnd.
-  destruct e as [p v|p|p|src dst|p|c pre]; try contradiction.
-  - (* AReact1 *)
-    apply step_react1 in Hstep as (Hex & Hc & _ & Hp & Hq & Hl); [|exact Hnd]. split; [exact Hc|].
-    unfold phi. rewrite Hc. cbn [sent1].
-    destruct (react1_cases (getp s p)) as [[E0 E]|[(k & E0 & E1 & E)|[(k & c & E0 & E1 & E2 & E)|(k & c & E0 & E1 & E2 & E)]]].
-    + rewrite E in *. cbn [fst snd] in *.
-      assert (Hlk : link s' w host = link s w host).
-      { rewrite Hl. cdec as [[Hf _]|_]; [discriminate|reflexivity]. }
-      assert (Hew : pevents s' w = pevents s w).
-      { unfold pevents. destruct (decide (w = p)) as [->|Hne]; [rewrite Hp; reflexivity|rewrite Hq by assumption; reflexivity]. }
-      rewrite Hlk, Hew. lia.
-    + exfalso. eapply (inv_ev_store _ _ HI p); [unfold pevents; rewrite E0; discriminate|exact E1].
-    + assert (Hpw : p <> w). { intros ->. pose proof (inv_tok _ _ HI) as Ht. unfold ptok in Ht. congruence. }
-      rewrite E in *. cbn [fst snd] in *.
-      assert (Hlk : link s' w host = link s w host).
-      { rewrite Hl. cdec as [[Hf _]|_]; [discriminate|reflexivity]. }
-      unfold pevents. rewrite (Hq w) by congruence. rewrite Hlk. lia.
-    + destruct (decide (p = w)) as [->|Hpw].
-      2:{ exfalso. destruct (inv_recv _ _ HI p Hpw) as [_ [[H0 _]|[_ H1]]]; unfold pevents, ptok in *; congruence. }
-      rewrite E in *. cbn [fst snd] in *. unfold pevents. rewrite Hp. cbn [events]. rewrite E0.
-      rewrite Hl. unfold dsts_of. destruct (decide (w = host)) as [->|Hwh].
-      * change (host =? host)%N with true. cbv iota. lia.
-      * destruct (w =? host)%N eqn:E'; [apply N.eqb_eq in E'; contradiction|].
-        destruct (decide (true = true /\ w = w /\ host ∈ [host])) as [_|Hn];
-          [|exfalso; apply Hn; split; [reflexivity|split; [reflexivity|apply elem_of_list_singleton; reflexivity]]].
-        rewrite app_length.
-        assert (Hin : w ∈ aconn s). { apply (wf_exists s w Hwf) in Hex as [?|?]; [contradiction|assumption]. }
+  intros He Hwf HB Hstep HM. destruct e as [p v|p|p|src dst|p|c pre]; [|contradiction| | | |].
+  - destruct (delta_publish s p v s' Hwf HB Hstep) as (Hc & HC & HT & HP & HD & HU).
+    unfold Phi, Psi. rewrite HC, HP, HD, HU. cbn [sent1 cost dl1 plain]. split; [lia|]. split; [lia|]. intros [].
+  - destruct (delta_react1 s p s' Hwf HB Hstep) as (Hc & HP & Hcases). rewrite Hc in HM.
+    unfold Phi, Psi, mu. rewrite Hc, HP. cbn [sent1 cost dl1 eff1]. fold (originates s p).
+    destruct Hcases as [(He0 & Ho & HC & HT & HD & HU)|[(He0 & Ho & HC & HT & HD & HU)|(He0 & Ho & HC & HT & Hph)]]; rewrite Ho.
+    + rewrite HC, HT, HD, HU, He0. split; [lia|]. split; [lia|]. intros _. split; [reflexivity|lia].
+    + rewrite HC, HD, HU. destruct (pevents s p); [congruence|]. split; [lia|]. split; [lia|]. intros _. split; [reflexivity|lia].
+    + destruct (pevents s p); [congruence|]. unfold dsts_of.
+      destruct Hph as [(-> & HD & HU)|(Hph & Hin & HD & HU)]; rewrite HD, HU, HT.
+      * change (host =? host)%N with true. cbv iota. split; [nia|]. split; [lia|]. intros _. split; [reflexivity|nia].
+      * destruct (p =? host)%N eqn:E; [apply N.eqb_eq in E; contradiction|]. cbn [length].
         assert (length (aconn s) >= 1)%nat by (destruct (aconn s); [inversion Hin|simpl; lia]).
-        simpl. nia.
-  - (* ADeliver *)
-    apply step_deliver in Hstep as (o & rest & Hl0 & Hd & Hc & _ & Hp & Hq & Hl); [|exact Hnd]. split; [exact Hc|].
-    destruct (deliver_shape w s src dst o rest Hwf HI Hl0) as (-> & Hdw & Hsd & Hshape).
-    unfold phi. rewrite Hc. unfold pevents. rewrite (Hq w) by congruence. cbn [sent1]. rewrite Hl0.
-    destruct Hshape as [(-> & Hin & Hdh)|(-> & -> & Hwh & Hin)].
-    + destruct (dst =? host)%N eqn:E; [apply N.eqb_eq in E; contradiction|].
-      rewrite Hl. destruct (decide ((w, host) = (host, dst))) as [Heq|_]; [inversion Heq; congruence|].
-      destruct (decide (dst = host /\ _)) as [[? _]|_]; [contradiction|]. rewrite app_nil_r. lia.
-    + change (host =? host)%N with true. cbv iota.
-      destruct (decide (w = host)) as [?|_]; [contradiction|].
-      rewrite Hl. destruct (decide ((w, host) = (w, host))) as [_|?]; [|congruence].
-      destruct (decide (host = host /\ w = host /\ _)) as [(_ & ? & _)|_]; [contradiction|]. rewrite app_nil_r.
-      rewrite Hl0. cbn [length]. pose proof (others_length_lt w (aconn s) Hin). nia.
-  - (* ADownload *)
-    apply step_download in Hstep as (o & rest & Hp0 & Hex & Hc & Hl & _ & Hp & Hq). split; [exact Hc|].
-    assert (Hpw : p <> w). { intros ->. rewrite (inv_pend _ _ HI) in Hp0. discriminate. }
-    unfold phi, link, pevents. rewrite Hc, Hl, (Hq w) by congruence. simpl. lia.
+        split; [nia|]. split; [lia|]. intros _. split; [reflexivity|nia].
+  - destruct (delta_deliver s src dst s' Hwf Hstep) as (Hc & HC & HT & HP & Hcases). rewrite Hc in HM.
+    unfold Phi, Psi, mu. rewrite Hc, HC, HT, HP. cbn [cost dl1 eff1].
+    destruct Hcases as [(-> & Hin & HU & HD & Hs)|(Hdh & HU & HD & Hs)]; rewrite Hs.
+    + pose proof (others_length_lt src (aconn s) Hin). rewrite HD. split; [nia|]. split; [lia|]. intros _. split; [reflexivity|nia].
+    + rewrite HU. split; [lia|]. split; [lia|]. intros _. split; [reflexivity|nia].
+  - destruct (delta_download s p s' Hwf Hstep) as (Hc & HC & HT & HP & HD & HU).
+    unfold Phi, Psi, mu. rewrite Hc, HC, HD, HU. cbn [sent1 cost dl1 eff1]. split; [lia|]. split; [lia|]. intros _. split; [reflexivity|lia].
+  - destruct (delta_join s c pre s' Hwf Hstep) as (Hc & HC & HT & HP & HD & HU & Hs).
+    unfold Phi, Psi. rewrite HC, HP, HD, HU. cbn [cost dl1 plain]. split; [lia|]. split; [lia|]. intros [].
 Qed.
 
-Definition tr_ok (w : peer) (e : aevent) : Prop :=
-  match e with APublish q _ => q = w | AJoin _ _ => False | _ => True end.
-
-Lemma tr_ok_ev_ok w e : tr_ok w e -> ev_ok w e.
-Proof. destruct e; simpl; tauto. Qed.
-
-Lemma traffic_react w p k : forall s s',
-  awf s -> Inv w s -> areact_n k s p = Some s' ->
-  aconn s' = aconn s /\ (sent_react k s p + phi w s' <= phi w s)%nat.
+Lemma counts_react M p k : forall s s',
+  awf s -> Basic s -> (length (aconn s) <= M)%nat -> areact_n k s p = Some s' ->
+  awf s' /\ Basic s' /\ aconn s' = aconn s /\
+  (sent_react k s p + Phi M s' <= Phi M s)%nat /\ (Psi s' <= Psi s + sent_react k s p)%nat /\
+  (mu s' <= mu s)%nat /\ (k <> 0%nat -> pevents s p <> 0%nat -> mu s' < mu s)%nat.
 Proof.
-  induction k as [|k IHk]; intros s s' Hwf HI Hstep; cbn [areact_n sent_react] in Hstep |- *.
-  - inversion Hstep; subst. split; [reflexivity|lia].
-  - destruct (areact1 s p) as [s2|] eqn:H2; [|discriminate].
-    destruct (traffic_step1 w s (AReact1 p) s2 I Hwf HI H2) as [Hc2 Hle2].
-    destruct (inv_step1 w s (AReact1 p) s2 I Hwf HI I eq_refl H2) as [HI2 _].
-    destruct (IHk s2 s' (step_wf _ (AReact1 p) _ Hwf H2) HI2 Hstep) as [Hc1 Hle1].
-    split; [congruence|]. lia.
+  induction k as [|k IH]; intros s s' Hwf HB HM Hrun; cbn [areact_n sent_react] in *.
+  - inversion Hrun; subst. split; [exact Hwf|]. split; [exact HB|]. split; [reflexivity|]. split; [lia|]. split; [lia|]. split; [lia|]. intros H0. congruence.
+  - destruct (areact1 s p) as [s1|] eqn:H1; [|discriminate].
+    assert (Hs1 : astep s (AReact1 p) = Some s1) by exact H1.
+    pose proof (step_wf _ _ _ Hwf Hs1) as Hwf1. pose proof (basic_step1 s (AReact1 p) s1 I Hwf HB I Hs1) as HB1.
+    assert (Hc1 : aconn s1 = aconn s) by (apply step_react1 in Hs1 as (_ & Hc & _); [exact Hc|apply wf_nodup; exact Hwf]).
+    destruct (counts_step1 M s (AReact1 p) s1 I Hwf HB Hs1) as (Ha & Hb & Hcd); [rewrite Hc1; exact HM|].
+    destruct (Hcd I) as [_ Hd]. cbn [cost dl1 eff1] in *.
+    destruct (IH s1 s' Hwf1 HB1) as (Hwf' & HB' & Hc' & Ha' & Hb' & Hd' & _); [rewrite Hc1; exact HM|exact Hrun|].
+    split; [exact Hwf'|]. split; [exact HB'|]. split; [congruence|]. split; [lia|]. split; [lia|]. split; [lia|].
+    intros _ He. destruct (pevents s p); [congruence|]. lia.
 Qed.
 
-Lemma traffic_run w tr : forall s s',
-  awf s -> Inv w s -> Forall (tr_ok w) tr -> scan bad_S7 s tr = false -> arun s tr = Some s' ->
-  aconn s' = aconn s /\ (total_sent s tr + phi w s' <= phi w s + length (published tr) * length (aconn s))%nat.
+Lemma total_downloads_cons s e tr :
+  total_downloads s (e :: tr) = match astep s e with Some s' => (dl1 e + total_downloads s' tr)%nat | None => 0%nat end.
+Proof. reflexivity. Qed.
+
+Lemma counts_run M tr : forall s s',
+  awf s -> Basic s -> (length (aconn s) + length (joins tr) <= M)%nat -> arun s tr = Some s' ->
+  (total_sent s tr + Phi M s' <= Phi M s + length (published tr) * M + length (joins tr))%nat /\
+  (total_downloads s tr + Psi s' <= Psi s + total_sent s tr)%nat.
 Proof.
-  induction tr as [|e tr IH]; intros s s' Hwf HI Hok Hbad Hrun.
-  - simpl in Hrun. inversion Hrun; subst. simpl. split; [reflexivity|lia].
-  - cbn [arun] in Hrun. cbn [total_sent]. cbn [scan] in Hbad. destruct (astep s e) as [s1|] eqn:Hstep; [|discriminate].
-    apply orb_false_iff in Hbad as [Hb1 Hb2]. apply Forall_cons in Hok as [He Hok].
-    destruct (inv_step w s e s1 Hwf HI (tr_ok_ev_ok _ _ He) Hb1 Hstep) as [HI1 _].
-    destruct (IH s1 s' (step_wf _ _ _ Hwf Hstep) HI1 Hok Hb2 Hrun) as [Hcn IHle].
-    assert (H1 : aconn s1 = aconn s /\
-                 (sent_by s e + phi w s1 <= phi w s + (match e with APublish _ _ => length (aconn s) | _ => 0 end))%nat).
-    { destruct e as [p v|p|p|src dst|p|c pre]; [| | | | |contradiction].
-      - simpl in He. subst p. apply step_publish in Hstep as (_ & Hc & Hl & _ & Hp & _). split; [exact Hc|].
-        unfold phi, link, pevents. rewrite Hc, Hl, Hp. cbn [events sent_by sent1]. unfold pevents. rewrite Nat.mul_succ_l. destruct (decide (w = host)); lia.
-      - simpl in Hstep. simpl sent_by.
-        destruct (ap s !! p) as [x|] eqn:Hx; [|discriminate]. unfold pevents. rewrite (getp_exists _ _ _ Hx).
-        destruct (traffic_react w p (events x) s s1 Hwf HI Hstep) as [Hc Hle]. split; [exact Hc|]. lia.
-      - destruct (traffic_step1 w s (AReact1 p) s1 I Hwf HI Hstep) as [Hc Hle]. split; [exact Hc|]. cbn [sent_by]. lia.
-      - destruct (traffic_step1 w s (ADeliver src dst) s1 I Hwf HI Hstep) as [Hc Hle]. split; [exact Hc|]. cbn [sent_by]. lia.
-      - destruct (traffic_step1 w s (ADownload p) s1 I Hwf HI Hstep) as [Hc Hle]. split; [exact Hc|]. cbn [sent_by]. lia. }
-    destruct H1 as [Hc1 Hle1]. rewrite Hc1 in *. split; [exact Hcn|].
-    rewrite published_cons. destruct e; simpl length; lia.
+  induction tr as [|e tr IH]; intros s s' Hwf HB HM Hrun.
+  - simpl in Hrun. inversion Hrun; subst. simpl. lia.
+  - cbn [arun] in Hrun. rewrite total_downloads_cons. cbn [total_sent]. destruct (astep s e) as [s1|] eqn:Hstep; [|discriminate].
+    pose proof (step_wf _ _ _ Hwf Hstep) as Hwf1.
+    assert (HB1 : Basic s1) by (eapply (step_lift Basic (fun _ => True)); [exact basic_step1|auto|exact Hwf|exact HB|exact I|exact Hstep]).
+    rewrite joins_cons in HM. rewrite published_cons, joins_cons.
+    assert (H1 : (length (aconn s1) + length (joins tr) <= M)%nat /\
+                 (sent_by s e + Phi M s1 <= Phi M s + cost M e)%nat /\ (dl1 e + Psi s1 <= Psi s + sent_by s e)%nat).
+    { assert (Hc : match e with AJoin _ _ => True | _ => aconn s1 = aconn s end).
+      { destruct e as [p v|p|p|src dst|p|c pre]; [| | | | |exact I].
+        - apply step_publish in Hstep as (_ & Hc & _). exact Hc.
+        - simpl in Hstep. destruct (ap s !! p) as [x|]; [|discriminate].
+          apply (counts_react M p (events x) s s1 Hwf HB); [lia|exact Hstep].
+        - apply step_react1 in Hstep as (_ & Hc & _); [exact Hc|apply wf_nodup; exact Hwf].
+        - apply step_deliver in Hstep as (o & rest & _ & _ & Hc & _); [exact Hc|apply wf_nodup; exact Hwf].
+        - apply step_download in Hstep as (o & rest & _ & _ & Hc & _). exact Hc. }
+      destruct e as [p v|p|p|src dst|p|c pre]; cbn beta iota in HM.
+      - destruct (counts_step1 M s (APublish p v) s1 I Hwf HB Hstep) as (Ha & Hb & _); [rewrite Hc; lia|].
+        split; [rewrite Hc; lia|]. split; [exact Ha|exact Hb].
+      - rewrite Hc. split; [lia|]. cbn [sent_by]. pose proof Hstep as Hstep'. simpl in Hstep'. unfold pevents.
+        destruct (ap s !! p) as [x|] eqn:Hx; [|discriminate]. rewrite (getp_exists _ _ _ Hx).
+        destruct (counts_react M p (events x) s s1 Hwf HB) as (_ & _ & _ & Ha & Hb & _); [lia|exact Hstep'|].
+        cbn [cost dl1]. lia.
+      - destruct (counts_step1 M s (AReact1 p) s1 I Hwf HB Hstep) as (Ha & Hb & _); [rewrite Hc; lia|].
+        split; [rewrite Hc; lia|]. split; [exact Ha|exact Hb].
+      - destruct (counts_step1 M s (ADeliver src dst) s1 I Hwf HB Hstep) as (Ha & Hb & _); [rewrite Hc; lia|].
+        split; [rewrite Hc; lia|]. split; [exact Ha|exact Hb].
+      - destruct (counts_step1 M s (ADownload p) s1 I Hwf HB Hstep) as (Ha & Hb & _); [rewrite Hc; lia|].
+        split; [rewrite Hc; lia|]. split; [exact Ha|exact Hb].
+      - assert (Hcj : aconn s1 = aconn s ++ [c]) by (apply step_join in Hstep as (_ & _ & _ & Hcj & _); exact Hcj).
+        assert (Hlen : length (aconn s1) = S (length (aconn s))) by (rewrite Hcj, app_length; simpl; lia).
+        cbn [length] in HM. destruct (counts_step1 M s (AJoin c pre) s1 I Hwf HB Hstep) as (Ha & Hb & _); [lia|].
+        split; [lia|]. split; [exact Ha|exact Hb]. }
+    destruct H1 as (HM1 & Ha & Hb).
+    destruct (IH s1 s' Hwf1 HB1 HM1 Hrun) as [Ha' Hb'].
+    destruct e as [p v|p|p|src dst|p|c pre]; cbn [cost dl1 length] in *; lia.
 Qed.
 
-Lemma phi_quiescent w s : aquiescent s -> phi w s = 0%nat.
+Lemma sumf_zero f l : (forall x, x ∈ l -> f x = 0%nat) -> sumf f l = 0%nat.
+Proof. induction l as [|y l IH]; intros H; [reflexivity|]. simpl. rewrite (H y) by left. rewrite IH; [reflexivity|]. intros x Hx. apply H. right. exact Hx. Qed.
+
+Lemma counters_quiescent s : aquiescent s -> SC s = 0%nat /\ ST s = 0%nat /\ SP s = 0%nat /\ lsum_down s = 0%nat /\ lsum_up s = 0%nat.
 Proof.
-  intros Hq. unfold phi. destruct (quiescent_peer s w Hq) as (-> & _ & _). rewrite (quiescent_link s w host Hq).
-  simpl. destruct (decide (w = host)); lia.
+  intros Hq. unfold SC, ST, SP, psum, lsum_down, lsum_up.
+  repeat split; apply sumf_zero; intros x _; try (rewrite (quiescent_link s _ _ Hq); reflexivity);
+    destruct (quiescent_peer s x Hq) as (H1 & H2 & H3); unfold pevents, ptok, ppending, credit, npend in *; rewrite ?H1, ?H2, ?H3; reflexivity.
 Qed.
 
-Lemma tr_ok_of w tr : only_publisher w tr -> no_joins tr -> Forall (tr_ok w) tr.
+(* ---------- C09: the global traffic bound, for EVERY run (any publishers, any pace, any joins) ----------
+   k publications and j joins cause at most k * (clients ever connected) + j messages (relays and
+   snapshots included), and at most as many downloads as messages.  An echo would break the bound. *)
+Theorem traffic_bound n tr s' :
+  arun (ainit n) tr = Some s' ->
+  (total_sent (ainit n) tr <= length (published tr) * (n + length (joins tr)) + length (joins tr))%nat /\
+  (total_downloads (ainit n) tr <= total_sent (ainit n) tr)%nat.
 Proof.
-  unfold only_publisher, no_joins. induction tr as [|e tr IH]; intros Hp Hj; [constructor|].
-  destruct e as [p v|p|p|src dst|p|c pre]; simpl in Hp, Hj; try (constructor; [exact I|apply IH; assumption]).
-  - apply Forall_cons in Hp as [-> Hp]. constructor; [reflexivity|apply IH; assumption].
-  - discriminate.
+  intros Hrun.
+  destruct (counts_run (n + length (joins tr)) tr (ainit n) s' (ainit_wf n) (basic_init n)) as [Ha Hb];
+    [simpl; rewrite length_clients; lia|exact Hrun|].
+  destruct (counters_quiescent _ (ainit_quiescent n)) as (H1 & H2 & H3 & H4 & H5).
+  unfold Phi, Psi in *. rewrite H1, H3, H4, H5 in *. split; lia.
 Qed.
+Print Assumptions traffic_bound.
 
-(* k publications of one peer cause at most k * n messages (relays included) in every run outside the
-   class S7, whatever the interleaving *)
-Theorem asset_messages_bounded_run n w tr s' :
-  arun (ainit n) tr = Some s' -> only_publisher w tr -> no_joins tr -> known_S7 (ainit n) tr = false ->
-  (total_sent (ainit n) tr <= length (published tr) * n)%nat.
+(* one publication in a quiescent state costs at most n messages (n = connected clients: 1 + (n-1) relays for
+   a client, n for the host) and at most n downloads, whatever the interleaving *)
+Theorem publication_cost n tr0 s p c rest s' :
+  arun (ainit n) tr0 = Some s -> aquiescent s -> Forall plain rest -> arun s (APublish p c :: rest) = Some s' ->
+  (total_sent s (APublish p c :: rest) <= length (aconn s))%nat /\
+  (total_downloads s (APublish p c :: rest) <= length (aconn s))%nat.
 Proof.
-  intros Hrun Hop Hnj Hk.
-  destruct (traffic_run w tr (ainit n) s' (ainit_wf n) (inv_init w n) (tr_ok_of w tr Hop Hnj) Hk Hrun) as [_ Hle].
-  rewrite (phi_quiescent w _ (ainit_quiescent n)) in Hle. simpl aconn in Hle. rewrite length_clients in Hle. lia.
+  intros Hrun0 Hq Hpl Hrun. destruct (plain_trace rest Hpl) as (Hp1 & _ & Hp3 & _).
+  destruct (counts_run (length (aconn s)) (APublish p c :: rest) s s' (run_wf _ _ _ (ainit_wf n) Hrun0) (basic_invariant n tr0 s Hrun0)) as [Ha Hb];
+    [rewrite joins_cons, Hp3; simpl; lia|exact Hrun|].
+  destruct (counters_quiescent s Hq) as (H1 & H2 & H3 & H4 & H5).
+  rewrite published_cons, joins_cons, Hp1, Hp3 in Ha. unfold Phi, Psi in *. rewrite H1, H3, H4, H5 in *. cbn [length] in Ha. split; lia.
 Qed.
-Print Assumptions asset_messages_bounded_run.
-
-(* the first publication costs at most n messages: 1 + (n-1) relays for a client, n for the host *)
-Theorem asset_messages_bounded n p c rest s' :
-  Forall plain rest -> arun (ainit n) (APublish p c :: rest) = Some s' ->
-  (total_sent (ainit n) (APublish p c :: rest) <= n)%nat.
-Proof.
-  intros Hpl Hrun. destruct (plain_trace rest Hpl) as (H1 & H2 & H3 & H4).
-  assert (Hop : only_publisher p (APublish p c :: rest)) by (unfold only_publisher; simpl; rewrite H2; repeat constructor).
-  assert (Hnj : no_joins (APublish p c :: rest)) by (unfold no_joins; simpl; exact H3).
-  assert (Hj : joins_ok p (APublish p c :: rest)).
-  { unfold joins_ok, fresh_joins. destruct (decide (p = host)); [rewrite Hnj; apply Forall_nil_2|exact Hnj]. }
-  assert (Hops : ops_at_quiescence (ainit n) (APublish p c :: rest) = true).
-  { cbn [ops_at_quiescence]. cbn [arun] in Hrun. destruct (astep (ainit n) (APublish p c)) as [s1|]; [|discriminate].
-    rewrite H4. simpl. rewrite andb_true_r. apply bool_decide_eq_true. apply ainit_quiescent. }
-  destruct (drain_separated_never_S7 n p _ s' Hrun Hop Hj Hops) as [Hk _].
-  pose proof (asset_messages_bounded_run n p _ s' Hrun Hop Hnj Hk) as Hle.
-  rewrite published_cons, H1 in Hle. cbn [length] in Hle. lia.
-Qed.
-Print Assumptions asset_messages_bounded.
+Print Assumptions publication_cost.
 
 Example traffic_tight :
   total_sent (ainit 3) [APublish 1 10; AReact 1; ADeliver 1 0; ADownload 0; AReact 0; ADeliver 0 2; ADeliver 0 3;
                         ADownload 2; ADownload 3; AReact 2; AReact 3] = 3%nat /\
   total_sent (ainit 3) [APublish 0 10; AReact 0; ADeliver 0 1; ADeliver 0 2; ADeliver 0 3;
-                        ADownload 1; ADownload 2; ADownload 3; AReact 1; AReact 2; AReact 3] = 3%nat.
-Proof. vm_compute. auto. Qed.
+                        ADownload 1; ADownload 2; ADownload 3; AReact 1; AReact 2; AReact 3] = 3%nat /\
+  total_downloads (ainit 3) [APublish 0 10; AReact 0; ADeliver 0 1; ADeliver 0 2; ADeliver 0 3;
+                        ADownload 1; ADownload 2; ADownload 3; AReact 1; AReact 2; AReact 3] = 3%nat /\
+  (* the global bound on the burst witness: 3 publications, 2 clients, no join: 6 messages *)
+  total_sent (ainit 2) w_burst = 6%nat /\ length (published w_burst) = 3%nat /\
+  (* ... and on a history with joins *)
+  total_sent (ainit 1) w_host_stale = 5%nat /\ length (published w_host_stale) = 2%nat /\ length (joins w_host_stale) = 2%nat.
+Proof. vm_compute. auto 10. Qed.
+
+(* ---------- termination ------------------------------------------------------------------------------- *)
+
+(* every sequence of plain events from a (reachable) state has at most [mu s] steps that change the state:
+   the exchange started by the publications and joins so far terminates, under every scheduling *)
+Theorem plain_steps_bounded tr : forall s s',
+  awf s -> Basic s -> Forall plain tr -> arun s tr = Some s' -> (effective s tr + mu s' <= mu s)%nat.
+Proof.
+  induction tr as [|e tr IH]; intros s s' Hwf HB Hpl Hrun.
+  - simpl in Hrun. inversion Hrun; subst. simpl. lia.
+  - cbn [arun effective] in *. destruct (astep s e) as [s1|] eqn:Hstep; [|discriminate].
+    apply Forall_cons in Hpl as [He Hpl]. pose proof (step_wf _ _ _ Hwf Hstep) as Hwf1.
+    assert (HB1 : Basic s1) by (eapply (step_lift Basic (fun _ => True)); [exact basic_step1|auto|exact Hwf|exact HB|exact I|exact Hstep]).
+    specialize (IH s1 s' Hwf1 HB1 Hpl Hrun).
+    assert (H1 : (eff1 s e + mu s1 <= mu s)%nat); [|lia].
+    destruct e as [p v|p|p|src dst|p|c pre]; try contradiction.
+    + pose proof Hstep as Hstep'. simpl in Hstep'. cbn [eff1]. unfold pevents.
+      destruct (ap s !! p) as [x|] eqn:Hx; [|discriminate]. rewrite (getp_exists _ _ _ Hx).
+      destruct (counts_react (length (aconn s)) p (events x) s s1 Hwf HB) as (_ & _ & _ & _ & _ & Hle & Hlt); [lia|exact Hstep'|].
+      destruct (events x) as [|k] eqn:Ek; [lia|].
+      assert (mu s1 < mu s)%nat; [|lia]. apply Hlt; [discriminate|]. unfold pevents. rewrite (getp_exists _ _ _ Hx), Ek. discriminate.
+    + assert (Hc : aconn s1 = aconn s) by (apply step_react1 in Hstep as (_ & Hc & _); [exact Hc|apply wf_nodup; exact Hwf]).
+      destruct (counts_step1 (length (aconn s)) s (AReact1 p) s1 I Hwf HB Hstep) as (_ & _ & Hd); [rewrite Hc; lia|]. apply (Hd I).
+    + assert (Hc : aconn s1 = aconn s) by (apply step_deliver in Hstep as (o & rest & _ & _ & Hc & _); [exact Hc|apply wf_nodup; exact Hwf]).
+      destruct (counts_step1 (length (aconn s)) s (ADeliver src dst) s1 I Hwf HB Hstep) as (_ & _ & Hd); [rewrite Hc; lia|]. apply (Hd I).
+    + assert (Hc : aconn s1 = aconn s) by (apply step_download in Hstep as (o & rest & _ & _ & Hc & _); exact Hc).
+      destruct (counts_step1 (length (aconn s)) s (ADownload p) s1 I Hwf HB Hstep) as (_ & _ & Hd); [rewrite Hc; lia|]. apply (Hd I).
+Qed.
+Print Assumptions plain_steps_bounded.
+
+Lemma not_quiescent_progress s :
+  awf s -> Basic s -> ~ aquiescent s -> exists e s1, plain e /\ astep s e = Some s1 /\ eff1 s e = 1%nat.
+Proof.
+  intros Hwf HB Hnq. unfold aquiescent in Hnq.
+  destruct (decide (map_Forall (fun _ l => l = []) (alinks s))) as [HA|HA].
+  - assert (HnB : ~ map_Forall (fun _ x => apeer_idle x) (ap s)) by tauto.
+    apply map_not_Forall in HnB; [|apply _]. destruct HnB as (p & x & Hx & Hni).
+    destruct (events x) as [|k] eqn:Ek.
+    + assert (Ht : tok x = 0%nat).
+      { destruct (HB p) as (Hle & _). unfold ptok, pevents in Hle. rewrite (getp_exists _ _ _ Hx), Ek in Hle. lia. }
+      destruct (pending x) as [|o rest] eqn:Ep; [exfalso; apply Hni; repeat split; assumption|].
+      exists (ADownload p). destruct (astep s (ADownload p)) as [s1|] eqn:E.
+      * exists s1. split; [exact I|]. split; reflexivity.
+      * exfalso. simpl in E. rewrite Hx, Ep in E. destruct (pserved s o); discriminate.
+    + exists (AReact1 p). destruct (astep s (AReact1 p)) as [s1|] eqn:E.
+      * exists s1. split; [exact I|]. split; [reflexivity|]. cbn [eff1]. unfold pevents. rewrite (getp_exists _ _ _ Hx), Ek. reflexivity.
+      * exfalso. simpl in E. unfold areact1 in E. rewrite Hx in E. destruct (react1_peer x). discriminate.
+  - apply map_not_Forall in HA; [|apply _]. destruct HA as ([a b] & l & Hl & Hne).
+    assert (Hlk : link s a b = l) by (unfold link, lget; rewrite Hl; reflexivity).
+    destruct l as [|o rest]; [congruence|].
+    assert (Hex : is_Some (ap s !! b)).
+    { apply (wf_exists s b Hwf). destruct (wf_link s a b Hwf) as [[_ H]|[H _]]; [rewrite Hlk; discriminate|right; exact H|left; exact H]. }
+    destruct Hex as [x Hx]. exists (ADeliver a b). destruct (astep s (ADeliver a b)) as [s1|] eqn:E.
+    + exists s1. split; [exact I|]. split; reflexivity.
+    + exfalso. simpl in E. rewrite Hlk, Hx in E. discriminate.
+Qed.
+
+(* ... and a quiescent state is reachable (by plain events alone) *)
+Theorem quiescence_reachable s :
+  awf s -> Basic s -> exists tr s', Forall plain tr /\ arun s tr = Some s' /\ aquiescent s'.
+Proof.
+  remember (mu s) as m eqn:Hm. revert s Hm. induction m as [m IH] using lt_wf_ind. intros s Hm Hwf HB.
+  destruct (decide (aquiescent s)) as [Hq|Hnq]; [exists [], s; split; [apply Forall_nil_2|split; [reflexivity|exact Hq]]|].
+  destruct (not_quiescent_progress s Hwf HB Hnq) as (e & s1 & He & Hstep & Heff).
+  pose proof (plain_steps_bounded [e] s s1 Hwf HB (Forall_cons_2 _ _ _ He (Forall_nil_2 _))) as Hb.
+  cbn [arun effective] in Hb. rewrite Hstep in Hb. specialize (Hb eq_refl). rewrite Heff in Hb.
+  pose proof (step_wf _ _ _ Hwf Hstep) as Hwf1.
+  assert (HB1 : Basic s1) by (eapply (step_lift Basic (fun _ => True)); [exact basic_step1|auto|exact Hwf|exact HB|exact I|exact Hstep]).
+  destruct (IH (mu s1)) with (s := s1) as (tr & s' & Hpl & Hrun & Hq'); [lia|reflexivity|exact Hwf1|exact HB1|].
+  exists (e :: tr), s'. split; [constructor; assumption|]. split; [|exact Hq']. cbn [arun]. rewrite Hstep. exact Hrun.
+Qed.
+Print Assumptions quiescence_reachable.
+
+Corollary exchange_terminates n tr0 s :
+  arun (ainit n) tr0 = Some s ->
+  (forall tr s', Forall plain tr -> arun s tr = Some s' -> (effective s tr <= mu s)%nat) /\
+  (exists tr s', Forall plain tr /\ arun s tr = Some s' /\ aquiescent s').
+Proof.
+  intros Hrun. pose proof (run_wf _ _ _ (ainit_wf n) Hrun) as Hwf. pose proof (basic_invariant n tr0 s Hrun) as HB. split.
+  - intros tr s' Hpl Hr. pose proof (plain_steps_bounded tr s s' Hwf HB Hpl Hr). lia.
+  - apply quiescence_reachable; assumption.
+Qed.
+Print Assumptions exchange_terminates.
+
+Example exchange_terminates_nonvacuous :
+  (* after a burst of three publications by client 1 and a join, nothing delivered yet *)
+  let tr0 := [APublish 1 10; AReact 1; APublish 1 20; APublish 1 30; AReact 1; AJoin 3 None] in
+  let tr := [ADeliver 1 0; ADeliver 1 0; ADeliver 1 0; ADownload 0; ADownload 0; ADownload 0; AReact 0;
+             ADeliver 0 2; ADeliver 0 2; ADeliver 0 2; ADeliver 0 3; ADeliver 0 3; ADeliver 0 3;
+             ADownload 2; ADownload 2; ADownload 2; ADownload 3; ADownload 3; ADownload 3; AReact 2; AReact 3; AReact1 3] in
+  (fun s => (mu s, effective s tr, aquiescentb <$> arun s tr)) <$> arun (ainit 2) tr0 = Some (30%nat, 21%nat, Some true).
+Proof. vm_compute. reflexivity. Qed.
+
+(* ---------- no echo, in terms of the caches: only the publisher and (after a join) the host ever serve --- *)
+Definition serve_ok (w : peer) (e : aevent) : Prop :=
+  match e with APublish q _ => q = w | AJoin _ pre => pre = None | _ => True end.
+
+Definition NoServe (w : peer) (s : astate) : Prop :=
+  Covered w s /\ forall q, q <> w -> q <> host -> pserved s q = None.
+
+Lemma serve_ok_pub_ok w e : serve_ok w e -> pub_ok w e.
+Proof. destruct e; simpl; auto. Qed.
+
+Lemma noserve_step1 w s e s' :
+  single e -> awf s -> NoServe w s -> serve_ok w e -> astep s e = Some s' -> NoServe w s'.
+Proof.
+  intros He Hwf [HC HN] Hok Hstep. split; [eapply covered_step1; eauto; apply serve_ok_pub_ok; exact Hok|].
+  pose proof (wf_nodup s Hwf) as Hnd. intros q Hqw Hqh. specialize (HN q Hqw Hqh).
+  destruct e as [p v|p|p|src dst|p|c pre]; [|contradiction| | | |].
+  - apply step_publish in Hstep as (_ & _ & _ & _ & Hp & Hq). simpl in Hok. subst p.
+    unfold pserved. rewrite Hq by assumption. exact HN.
+  - apply step_react1 in Hstep as (_ & _ & _ & Hp & Hq & _); [|exact Hnd].
+    destruct (decide (q = p)) as [->|Hne]; unfold pserved; [|rewrite Hq by assumption; exact HN].
+    rewrite Hp. pose proof (originates_covered s p (proj2 HC p Hqw)) as Ho. unfold originates in Ho.
+    destruct (react1_cases (getp s p)) as [[E0 E]|[(k & E0 & E1 & E)|[(k & c & t & E0 & E1 & E2 & E)|(k & c & E0 & E1 & E2 & E)]]];
+      rewrite E in *; cbn [fst snd] in *; try exact HN. discriminate.
+  - apply step_deliver in Hstep as (o & rest & _ & _ & _ & _ & Hp & Hq & _); [|exact Hnd].
+    destruct (decide (q = dst)) as [->|Hne]; unfold pserved; [rewrite Hp; exact HN|rewrite Hq by assumption; exact HN].
+  - apply step_download in Hstep as (o & rest & _ & _ & _ & _ & _ & Hp & Hq).
+    destruct (decide (q = p)) as [->|Hne]; unfold pserved; [|rewrite Hq by assumption; exact HN].
+    rewrite Hp. unfold download_peer. destruct (pserved s o); exact HN.
+  - simpl in Hok. subst pre. apply step_join in Hstep as (_ & _ & _ & _ & _ & Hpc & _ & Hq & _).
+    destruct (decide (q = c)) as [->|Hne]; unfold pserved; [rewrite Hpc; reflexivity|rewrite Hq by assumption; exact HN].
+Qed.
+
+Lemma serve_ok_of w tr : only_publisher w tr -> fresh_joins tr -> Forall (serve_ok w) tr.
+Proof.
+  unfold only_publisher. induction tr as [|e tr IH]; intros Hp Hj; [constructor|].
+  apply fresh_joins_cons in Hj as [Hj1 Hj].
+  destruct e as [p v|p|p|src dst|p|c pre]; simpl in Hp; try (constructor; [exact I|apply IH; assumption]).
+  - apply Forall_cons in Hp as [-> Hp]. constructor; [reflexivity|apply IH; assumption].
+  - constructor; [exact Hj1|apply IH; assumption].
+Qed.
+
+(* in every run in which w alone publishes (any pace, fresh joins at any moment) no client other than w ever
+   serves the id (it never treated an applied download as a local change) ... *)
+Theorem only_publisher_serves n w tr s' :
+  arun (ainit n) tr = Some s' -> only_publisher w tr -> fresh_joins tr ->
+  forall q, q <> w -> q <> host -> pserved s' q = None.
+Proof.
+  intros Hrun Hop Hfj.
+  assert (H : NoServe w s'); [|apply H].
+  apply (run_lift (NoServe w) (serve_ok w) (noserve_step1 w) (fun _ => I) tr (ainit n) s' (ainit_wf n)); [|apply serve_ok_of; assumption|exact Hrun].
+  split; [apply covered_init|]. intros q _ _. unfold pserved. rewrite ainit_getp. reflexivity.
+Qed.
+Print Assumptions only_publisher_serves.
+
+(* ... and the host (when it is not the publisher) serves only for the snapshot of a join *)
+Definition nojoin_ok (w : peer) (e : aevent) : Prop :=
+  match e with APublish q _ => q = w | AJoin _ _ => False | _ => True end.
+
+Lemma hostnoserve_step1 w s e s' :
+  w <> host -> single e -> awf s -> (Covered w s /\ pserved s host = None) -> nojoin_ok w e -> astep s e = Some s' ->
+  Covered w s' /\ pserved s' host = None.
+Proof.
+  intros Hwh He Hwf [HC HN] Hok Hstep. split; [eapply covered_step1; eauto; destruct e; simpl in *; auto|].
+  pose proof (wf_nodup s Hwf) as Hnd.
+  destruct e as [p v|p|p|src dst|p|c pre]; [|contradiction| | | |contradiction].
+  - apply step_publish in Hstep as (_ & _ & _ & _ & Hp & Hq). simpl in Hok. subst p.
+    unfold pserved. rewrite Hq by congruence. exact HN.
+  - apply step_react1 in Hstep as (_ & _ & _ & Hp & Hq & _); [|exact Hnd].
+    destruct (decide (host = p)) as [<-|Hne]; unfold pserved; [|rewrite Hq by assumption; exact HN].
+    rewrite Hp. pose proof (originates_covered s host (proj2 HC host (not_eq_sym Hwh))) as Ho. unfold originates in Ho.
+    destruct (react1_cases (getp s host)) as [[E0 E]|[(k & E0 & E1 & E)|[(k & c & t & E0 & E1 & E2 & E)|(k & c & E0 & E1 & E2 & E)]]];
+      rewrite E in *; cbn [fst snd] in *; try exact HN. discriminate.
+  - apply step_deliver in Hstep as (o & rest & _ & _ & _ & _ & Hp & Hq & _); [|exact Hnd].
+    destruct (decide (host = dst)) as [<-|Hne]; unfold pserved; [rewrite Hp; exact HN|rewrite Hq by assumption; exact HN].
+  - apply step_download in Hstep as (o & rest & _ & _ & _ & _ & _ & Hp & Hq).
+    destruct (decide (host = p)) as [<-|Hne]; unfold pserved; [|rewrite Hq by assumption; exact HN].
+    rewrite Hp. unfold download_peer. destruct (pserved s o); exact HN.
+Qed.
+
+Theorem host_serves_only_for_joins n w tr s' :
+  arun (ainit n) tr = Some s' -> only_publisher w tr -> no_joins tr -> w <> host -> pserved s' host = None.
+Proof.
+  intros Hrun Hop Hnj Hwh.
+  assert (H : Covered w s' /\ pserved s' host = None); [|apply H].
+  apply (run_lift (fun s => Covered w s /\ pserved s host = None) (nojoin_ok w) (fun s e s' => hostnoserve_step1 w s e s' Hwh) (fun _ => I) tr (ainit n) s' (ainit_wf n)); [| |exact Hrun].
+  - split; [apply covered_init|]. unfold pserved. rewrite ainit_getp. reflexivity.
+  - clear Hrun. unfold only_publisher, no_joins in *. induction tr as [|e tr IH]; [constructor|].
+    destruct e as [p v|p|p|src dst|p|c pre]; simpl in Hop, Hnj; try (constructor; [exact I|apply IH; assumption]).
+    + apply Forall_cons in Hop as [-> Hop]. constructor; [reflexivity|apply IH; assumption].
+    + discriminate.
+Qed.
+Print Assumptions host_serves_only_for_joins.
+
+Example no_echo_nonvacuous :
+  only_publisher 1 w_host_stale /\ fresh_joins w_host_stale /\
+  (fun s => ((fun q => (ptok s q, pevents s q, originates s q)) <$> [0; 2; 3], pserved s <$> [0; 1; 2; 3])) <$>
+    arun (ainit 1) (take 20 w_host_stale)
+  = Some ([(0, 0, false); (0, 0, false); (1, 1, false)]%nat, [Some 20; Some 20; None; None]).
+Proof. split; [only_pub|]. split; [unfold fresh_joins; vm_compute; repeat constructor|vm_compute; reflexivity]. Qed.
 
 (* ================================================================================================
-   Part 6: joins.  A fresh client c joins in a quiescent state in which every peer holds v.
-   [JInv c v s]: everybody but c is idle and holds v, the only traffic is the snapshot announcement on
-   (host, c) and c's download from the host, at most one of them, covered by one token.
-   ================================================================================================ *)
-
-Record JInv (c : peer) (v : option content) (s : astate) : Prop := {
-  j_ch : c <> host;
-  j_frozen : forall q, q <> c ->
-    (peers s q -> pstore s q = v) /\ pevents s q = 0%nat /\ ptok s q = false /\ ppending s q = [];
-  j_links : forall a b, (a, b) <> (host, c) -> link s a b = [];
-  j_owner_l : forall o, o ∈ link s host c -> o = host;
-  j_owner_p : forall o, o ∈ ppending s c -> o = host;
-  j_served_c : pserved s c = None;
-  j_cnt : (length (link s host c) + length (ppending s c) + pevents s c <= 1)%nat;
-  j_tok : pevents s c = 0%nat /\ ptok s c = false \/ pevents s c = 1%nat /\ ptok s c = true;
-  j_ev_store : pevents s c <> 0%nat -> pstore s c <> None;
-  j_host : (v <> None /\ pserved s host = v) \/ (link s host c = [] /\ ppending s c = []);
-  j_store : pstore s c = v \/ link s host c <> [] \/ ppending s c <> []
-}.
-
-Lemma jinv_ext c v s s' :
-  (forall q, getp s' q = getp s q) -> (forall a b, link s' a b = link s a b) -> aconn s' = aconn s ->
-  JInv c v s -> JInv c v s'.
-Proof.
-  intros Hg Hl Hc HJ. destruct HJ.
-  constructor; unfold peers, pstore, pevents, ptok, pserved, ppending in *; intros; rewrite ?Hg, ?Hl, ?Hc in *; eauto.
-Qed.
-
-Lemma jinv_step1 c v s e s' :
-  match e with AReact1 _ | ADeliver _ _ | ADownload _ => True | _ => False end ->
-  awf s -> JInv c v s -> astep s e = Some s' -> JInv c v s' /\ aconn s' = aconn s.
-Proof.
-  intros He Hwf HJ Hstep. pose proof (wf_nodup s Hwf) as Hnd.
-  destruct e as [p x|p|p|src dst|p|c' pre]; try contradiction.
-  - (* AReact1 *)
-    apply step_react1 in Hstep as (Hex & Hc & _ & Hp & Hq & Hl); [|exact Hnd]. split; [|exact Hc].
-    destruct (react1_cases (getp s p)) as [[E0 E]|[(k & E0 & E1 & E)|[(k & x & E0 & E1 & E2 & E)|(k & x & E0 & E1 & E2 & E)]]].
-    + eapply jinv_ext; [| |exact Hc|exact HJ].
-      * intros q. destruct (decide (q = p)) as [->|Hne]; [rewrite Hp, E; reflexivity|apply Hq; exact Hne].
-      * intros a b. rewrite Hl, E. cbn [snd]. cdec as [[Hf _]|_]; [discriminate|reflexivity].
-    + exfalso. destruct (decide (p = c)) as [->|Hne].
-      * eapply (j_ev_store _ _ _ HJ); [unfold pevents; rewrite E0; discriminate|exact E1].
-      * destruct (j_frozen _ _ _ HJ p Hne) as (_ & H0 & _). unfold pevents in H0. congruence.
-    + assert (Hpc : p = c).
-      { destruct (decide (p = c)) as [?|Hne]; [assumption|].
-        destruct (j_frozen _ _ _ HJ p Hne) as (_ & H0 & _). unfold pevents in H0. congruence. }
-      subst p.
-      assert (Hk : k = 0%nat).
-      { destruct (j_tok _ _ _ HJ) as [[H0 _]|[H1 _]]; unfold pevents in *; [congruence|lia]. }
-      subst k. rewrite E in Hp, Hl. cbn [fst snd] in Hp, Hl.
-      assert (Hlk : forall a b, link s' a b = link s a b).
-      { intros a b. rewrite Hl. cdec as [[Hf _]|_]; [discriminate|reflexivity]. }
-      assert (Hothers : forall q, q <> c -> getp s' q = getp s q) by exact Hq.
-      destruct HJ. constructor; unfold peers; intros; rewrite ?Hlk, ?Hc in *; eauto.
-      * unfold pstore, pevents, ptok, ppending. rewrite Hothers by assumption. apply j_frozen0. assumption.
-      * unfold ppending in H. rewrite Hp in H. simpl in H. apply j_owner_p0. exact H.
-      * unfold pserved. rewrite Hp. exact j_served_c0.
-      * unfold ppending, pevents. rewrite Hp. simpl. unfold ppending, pevents in j_cnt0. lia.
-      * left. unfold pevents, ptok. rewrite Hp. auto.
-      * unfold pevents in H. rewrite Hp in H. simpl in H. congruence.
-      * unfold pserved, ppending. rewrite (Hothers host) by auto. rewrite Hp. exact j_host0.
-      * unfold pstore, ppending. rewrite Hp. simpl. rewrite <- E1. exact j_store0.
-    + exfalso. destruct (decide (p = c)) as [->|Hne].
-      * destruct (j_tok _ _ _ HJ) as [[H0 _]|[_ H1]]; unfold pevents, ptok in *; congruence.
-      * destruct (j_frozen _ _ _ HJ p Hne) as (_ & H0 & _). unfold pevents in H0. congruence.
-  - (* ADeliver *)
-    apply step_deliver in Hstep as (o & rest & Hl0 & Hd & Hc & _ & Hp & Hq & Hl); [|exact Hnd]. split; [|exact Hc].
-    assert (Hsd : (src, dst) = (host, c)).
-    { destruct (decide ((src, dst) = (host, c))) as [?|Hne]; [assumption|].
-      rewrite (j_links _ _ _ HJ src dst Hne) in Hl0. discriminate. }
-    inversion Hsd; subst src dst. pose proof (j_ch _ _ _ HJ) as Hch.
-    assert (Hoh : o = host) by (apply (j_owner_l _ _ _ HJ); rewrite Hl0; left). subst o.
-    assert (Hp' : getp s' c = APeer (pstore s c) (pevents s c) (ptok s c) None (ppending s c ++ [host])).
-    { rewrite Hp. unfold request_peer. pose proof (j_served_c _ _ _ HJ) as Hs. unfold pserved in Hs. rewrite Hs. reflexivity. }
-    assert (Hlk : forall a b, link s' a b = if decide ((a, b) = (host, c)) then rest else link s a b).
-    { intros a b. rewrite Hl. destruct (decide (c = host /\ _)) as [[? _]|_]; [contradiction|]. apply app_nil_r. }
-    assert (Hflight : v <> None /\ pserved s host = v).
-    { destruct (j_host _ _ _ HJ) as [H|[H _]]; [exact H|]. rewrite H in Hl0. discriminate. }
-    destruct HJ. constructor; unfold peers; intros; rewrite ?Hc in *; eauto.
-    + unfold pstore, pevents, ptok, ppending. rewrite Hq by assumption. apply j_frozen0. assumption.
-    + rewrite Hlk. destruct (decide ((a, b) = (host, c))); [contradiction|apply j_links0; assumption].
-    + rewrite Hlk in H. destruct (decide ((host, c) = (host, c))) as [_|?]; [|congruence].
-      apply j_owner_l0. rewrite Hl0. right. exact H.
-    + unfold ppending in H. rewrite Hp' in H. simpl in H. apply elem_of_app in H as [H|H]; [apply j_owner_p0; exact H|].
-      apply elem_of_list_singleton in H. exact H.
-    + unfold pserved. rewrite Hp'. reflexivity.
-    + rewrite Hlk. destruct (decide ((host, c) = (host, c))) as [_|?]; [|congruence].
-      unfold ppending, pevents. rewrite Hp'. cbn [pending events]. rewrite app_length. cbn [length].
-      rewrite Hl0 in j_cnt0. cbn [length] in j_cnt0. fold (ppending s c). fold (pevents s c). lia.
-    + unfold pevents, ptok. rewrite Hp'. exact j_tok0.
-    + unfold pevents, pstore in *. rewrite Hp' in *. simpl in *. auto.
-    + left. unfold pserved. rewrite Hq by auto. exact Hflight.
-    + right. right. unfold ppending. rewrite Hp'. simpl. apply app_not_nil_r. discriminate.
-  - (* ADownload *)
-    apply step_download in Hstep as (o & rest & Hp0 & Hex & Hc & Hl & _ & Hp & Hq). split; [|exact Hc].
-    assert (Hlk : forall a b, link s' a b = link s a b) by (intros; unfold link; rewrite Hl; reflexivity).
-    assert (Hpc : p = c).
-    { destruct (decide (p = c)) as [?|Hne]; [assumption|].
-      destruct (j_frozen _ _ _ HJ p Hne) as (_ & _ & _ & H0). rewrite H0 in Hp0. discriminate. }
-    subst p. pose proof (j_ch _ _ _ HJ) as Hch.
-    assert (Hoh : o = host) by (apply (j_owner_p _ _ _ HJ); rewrite Hp0; left). subst o.
-    assert (Hflight : v <> None /\ pserved s host = v).
-    { destruct (j_host _ _ _ HJ) as [H|[_ H]]; [exact H|]. rewrite H in Hp0. discriminate. }
-    destruct Hflight as [Hv Hsh]. destruct v as [x|]; [|congruence].
-    pose proof (j_cnt _ _ _ HJ) as Hcnt. rewrite Hp0 in Hcnt. cbn [length] in Hcnt.
-    assert (He0 : pevents s c = 0%nat) by lia.
-    assert (Hl0 : link s host c = []) by (destruct (link s host c); [reflexivity|simpl in Hcnt; lia]).
-    assert (Hr : rest = []) by (destruct rest; [reflexivity|simpl in Hcnt; lia]).
-    assert (Hp' : getp s' c = APeer (Some x) 1 true (pserved s c) []).
-    { rewrite Hp, Hsh. unfold download_peer. unfold pevents, ppending in *. rewrite He0, Hp0, Hr. reflexivity. }
-    destruct HJ. constructor; unfold peers; intros; rewrite ?Hlk, ?Hc in *; eauto.
-    + unfold pstore, pevents, ptok, ppending. rewrite Hq by assumption. apply j_frozen0. assumption.
-    + unfold ppending in H. rewrite Hp' in H. inversion H.
-    + unfold pserved. rewrite Hp'. exact j_served_c0.
-    + unfold ppending, pevents. rewrite Hp', Hl0. simpl. lia.
-    + right. unfold pevents, ptok. rewrite Hp'. auto.
-    + unfold pstore. rewrite Hp'. discriminate.
-    + left. split; [discriminate|]. unfold pserved. rewrite Hq by auto. exact Hsh.
-    + left. unfold pstore. rewrite Hp'. reflexivity.
-Qed.
-
-Lemma jinv_run c v tr : forall s s',
-  awf s -> JInv c v s -> Forall plain tr -> arun s tr = Some s' ->
-  awf s' /\ JInv c v s' /\ aconn s' = aconn s.
-Proof.
-  induction tr as [|e tr IH]; intros s s' Hwf HJ Hpl Hrun.
-  - simpl in Hrun. inversion Hrun; subst. auto.
-  - cbn [arun] in Hrun. destruct (astep s e) as [s1|] eqn:Hstep; [|discriminate].
-    apply Forall_cons in Hpl as [He Hpl].
-    assert (H1 : JInv c v s1 /\ aconn s1 = aconn s).
-    { destruct e as [p x|p|p|src dst|p|c' pre]; try (simpl in He; contradiction);
-        try (eapply jinv_step1; [|exact Hwf|exact HJ|exact Hstep]; exact I).
-      apply step_react_runs in Hstep.
-      pose (P := fun s1 => awf s1 /\ JInv c v s1 /\ aconn s1 = aconn s).
-      assert (HP : P s1); [|destruct HP as (_ & H1 & H2); auto].
-      eapply (react1s_ind P p); [|split; [exact Hwf|split; [exact HJ|reflexivity]]|exact Hstep].
-      intros s2 s3 (Hw2 & HJ2 & Hc2) H23. split; [eapply step_wf; eauto|].
-      destruct (jinv_step1 c v s2 (AReact1 p) s3 I Hw2 HJ2 H23) as [HJ3 Hc3]. split; [exact HJ3|congruence]. }
-    destruct H1 as [HJ1 Hc1].
-    destruct (IH s1 s' (step_wf _ _ _ Hwf Hstep) HJ1 Hpl Hrun) as (Hwf' & HJ' & Hc'). split; [exact Hwf'|]. split; [exact HJ'|congruence].
-Qed.
-
-Lemma jinv_after_join s c v s2 :
-  awf s -> aquiescent s -> (forall q, peers s q -> pstore s q = v) -> astep s (AJoin c None) = Some s2 ->
-  JInv c v s2 /\ aconn s2 = aconn s ++ [c].
-Proof.
-  intros Hwf Hqs Hag Hstep. apply step_join in Hstep as (Hch & Hcn & Hnone & Hc & _ & Hpc & Hph & Hq & Hl).
-  split; [|exact Hc].
-  assert (Hvh : pstore s host = v) by (apply Hag; left; reflexivity).
-  assert (Hgetq : forall q, q <> c -> pstore s2 q = pstore s q /\ pevents s2 q = pevents s q /\ ptok s2 q = ptok s q /\ ppending s2 q = ppending s q).
-  { intros q Hne. unfold pstore, pevents, ptok, ppending. destruct (decide (q = host)) as [->|Hnh].
-    - rewrite Hph. simpl. auto.
-    - rewrite Hq by assumption. auto. }
-  assert (Hlc : link s2 host c = snapshot s).
-  { rewrite Hl. destruct (decide ((host, c) = (host, c))) as [_|?]; [|congruence]. rewrite (quiescent_link s _ _ Hqs). reflexivity. }
-  constructor; unfold peers; intros.
-  - exact Hch.
-  - destruct (Hgetq q H) as (-> & -> & -> & ->). destruct (quiescent_peer s q Hqs) as (-> & -> & ->).
-    split; [|auto]. intros Hp. apply Hag. rewrite Hc in Hp. destruct Hp as [Hp|Hp]; [left; exact Hp|].
-    apply elem_of_app in Hp as [Hp|Hp]; [right; exact Hp|]. apply elem_of_list_singleton in Hp. contradiction.
-  - rewrite Hl. destruct (decide ((a, b) = (host, c))); [contradiction|]. apply quiescent_link. exact Hqs.
-  - rewrite Hlc in H. unfold snapshot in H. destruct (pstore s host); [apply elem_of_list_singleton in H; exact H|inversion H].
-  - unfold ppending in H. rewrite Hpc in H. inversion H.
-  - unfold pserved. rewrite Hpc. reflexivity.
-  - rewrite Hlc. unfold ppending, pevents. rewrite Hpc. simpl. unfold snapshot. destruct (pstore s host); simpl; lia.
-  - left. unfold pevents, ptok. rewrite Hpc. auto.
-  - unfold pevents in H. rewrite Hpc in H. simpl in H. congruence.
-  - rewrite Hlc. unfold snapshot, pserved, ppending. rewrite Hph, Hpc. unfold serve_store. simpl. fold (pstore s host).
-    rewrite Hvh. destruct v as [x|]; [left; split; [discriminate|reflexivity]|right; auto].
-  - rewrite Hlc. unfold snapshot, pstore at 1. rewrite Hpc. simpl. rewrite Hvh.
-    destruct v as [x|]; [right; left; discriminate|left; reflexivity].
-Qed.
-
-Lemma jinv_quiescent c v s : JInv c v s -> aquiescent s -> forall q, peers s q -> pstore s q = v.
-Proof.
-  intros HJ Hq q Hp. destruct (decide (q = c)) as [->|Hne]; [|apply (j_frozen _ _ _ HJ q Hne); exact Hp].
-  destruct (j_store _ _ _ HJ) as [H|[H|H]]; [exact H| |].
-  - rewrite (quiescent_link s _ _ Hq) in H. contradiction.
-  - destruct (quiescent_peer s c Hq) as (_ & _ & H'). contradiction.
-Qed.
-
-(* a fresh client joining in ANY quiescent state in which all peers agree ends up, at quiescence, with
-   the same content -- whatever happened before (in particular whoever the publishers were) *)
-Theorem join_from_agreement s c v s2 tr2 s' :
-  awf s -> aquiescent s -> (forall q, peers s q -> pstore s q = v) ->
-  astep s (AJoin c None) = Some s2 -> Forall plain tr2 -> arun s2 tr2 = Some s' -> aquiescent s' ->
-  c ∈ aconn s' /\ forall q, peers s' q -> pstore s' q = v.
-Proof.
-  intros Hwf Hqs Hag Hstep Hpl Hrun Hq'.
-  destruct (jinv_after_join s c v s2 Hwf Hqs Hag Hstep) as [HJ2 Hc2].
-  destruct (jinv_run c v tr2 s2 s' (step_wf _ _ _ Hwf Hstep) HJ2 Hpl Hrun) as (_ & HJ' & Hc').
-  split; [rewrite Hc', Hc2; apply elem_of_app; right; apply elem_of_list_singleton; reflexivity|].
-  apply (jinv_quiescent c v s' HJ' Hq').
-Qed.
-Print Assumptions join_from_agreement.
-
-Lemma arun_app s tr1 tr2 : arun s (tr1 ++ tr2) = match arun s tr1 with Some s1 => arun s1 tr2 | None => None end.
-Proof. revert s. induction tr1 as [|e tr1 IH]; intros s; simpl; [reflexivity|]. destruct (astep s e); auto. Qed.
-
-Lemma ops_app s tr1 tr2 s1 :
-  arun s tr1 = Some s1 -> ops_at_quiescence s (tr1 ++ tr2) = true ->
-  ops_at_quiescence s tr1 = true /\ ops_at_quiescence s1 tr2 = true.
-Proof.
-  revert s. induction tr1 as [|e tr1 IH]; intros s Hrun Hops; simpl in Hrun.
-  - inversion Hrun; subst. auto.
-  - cbn [app ops_at_quiescence] in Hops |- *. destruct (astep s e) as [s2|]; [|discriminate].
-    apply andb_true_iff in Hops as [H1 H2]. destruct (IH s2 Hrun H2) as [H3 H4]. rewrite H1, H3. auto.
-Qed.
-
-(* join_gets_asset: after a drain-separated single-publisher history (host or client), a fresh client
-   that joins in a quiescent state ends with the host's content, which is the last published one *)
-Theorem join_gets_asset n w tr1 c tr2 s' :
-  arun (ainit n) (tr1 ++ AJoin c None :: tr2) = Some s' ->
-  only_publisher w tr1 -> joins_ok w tr1 -> ops_at_quiescence (ainit n) (tr1 ++ AJoin c None :: tr2) = true ->
-  Forall plain tr2 -> aquiescent s' ->
-  c ∈ aconn s' /\ pstore s' c = pstore s' host /\ forall q, peers s' q -> pstore s' q = last (published tr1).
-Proof.
-  intros Hrun Hop Hj Hops Hpl Hq'. rewrite arun_app in Hrun.
-  destruct (arun (ainit n) tr1) as [s1|] eqn:Hrun1; [|discriminate]. cbn [arun] in Hrun.
-  destruct (astep s1 (AJoin c None)) as [s2|] eqn:Hstep; [|discriminate].
-  destruct (ops_app _ _ _ _ Hrun1 Hops) as [Hops1 Hops2]. cbn [ops_at_quiescence] in Hops2. rewrite Hstep in Hops2.
-  apply andb_true_iff in Hops2 as [Hq1 _]. simpl in Hq1. apply bool_decide_eq_true in Hq1.
-  pose proof (C06_drain_separated_overwrites_replicate n w tr1 s1 Hrun1 Hop Hj Hops1 Hq1) as Hag.
-  destruct (join_from_agreement s1 c _ s2 tr2 s' (run_wf _ _ _ (ainit_wf n) Hrun1) Hq1 Hag Hstep Hpl Hrun Hq') as [Hin Hall].
-  split; [exact Hin|]. split; [|exact Hall]. rewrite (Hall c (or_intror Hin)), (Hall host (or_introl eq_refl)). reflexivity.
-Qed.
-Print Assumptions join_gets_asset.
-
-Example join_gets_asset_nonvacuous :
-  let tr1 := [APublish 1 10; AReact 1; ADeliver 1 0; ADownload 0; ADeliver 0 2; AReact 0; ADownload 2; AReact 2;
-              APublish 1 20; AReact 1; ADeliver 1 0; ADeliver 0 2; ADownload 2; ADownload 0; AReact 0; AReact 2] in
-  let tr2 := [ADeliver 0 3; ADownload 3; AReact 3] in
-  only_publisher 1 tr1 /\ joins_ok 1 tr1 /\ ops_at_quiescence (ainit 2) (tr1 ++ AJoin 3 None :: tr2) = true /\
-  Forall plain tr2 /\
-  (fun s => aview s [0; 1; 2; 3]) <$> arun (ainit 2) (tr1 ++ AJoin 3 None :: tr2)
-  = Some ([Some 20; Some 20; Some 20; Some 20], true).
-Proof.
-  split; [only_pub|]. split; [reflexivity|]. split; [vm_compute; reflexivity|]. split; [repeat constructor|vm_compute; reflexivity].
-Qed.
-
-(* ================================================================================================
-   Part M: materials (inline content)
+   Part M: materials (inline content), after the repair R1 (the token is a counter)
    ================================================================================================ *)
 
 Lemma lastd_app d l1 l2 : lastd d (l1 ++ l2) = lastd (lastd d l1) l2.
@@ -1848,12 +2273,12 @@ Qed.
 Lemma mreact1_cases x :
   (mevents x = 0%nat /\ mreact1_peer x = (x, None)) \/
   (exists k, mevents x = S k /\ mstore x = None /\ mreact1_peer x = (MPeer None k (mtok x), None)) \/
-  (exists k c, mevents x = S k /\ mstore x = Some c /\ mtok x = true /\ mreact1_peer x = (MPeer (Some c) k false, None)) \/
-  (exists k c, mevents x = S k /\ mstore x = Some c /\ mtok x = false /\ mreact1_peer x = (MPeer (Some c) k false, Some c)).
+  (exists k c t, mevents x = S k /\ mstore x = Some c /\ mtok x = S t /\ mreact1_peer x = (MPeer (Some c) k t, None)) \/
+  (exists k c, mevents x = S k /\ mstore x = Some c /\ mtok x = 0%nat /\ mreact1_peer x = (MPeer (Some c) k 0, Some c)).
 Proof.
   unfold mreact1_peer. destruct (mevents x) as [|k]; [left; auto|]. right.
   destruct (mstore x) as [c|]; [|left; eauto]. right.
-  destruct (mtok x); [left|right]; eauto 10.
+  destruct (mtok x) as [|t]; [right|left]; eauto 10.
 Qed.
 
 Definition mann_links (s : mstate) (p : peer) (ann : option content) (a b : peer) : list content :=
@@ -1905,7 +2330,7 @@ Lemma mstep_deliver s src dst s' :
   mstep s (MDeliver src dst) = Some s' ->
   exists c rest, mlink s src dst = c :: rest /\ is_Some (mp s !! dst) /\ mconn s' = mconn s /\
   (forall q, is_Some (mp s' !! q) <-> is_Some (mp s !! q)) /\
-  mgetp s' dst = MPeer (Some c) (S (mpevents s dst)) true /\
+  mgetp s' dst = MPeer (Some c) (S (mpevents s dst)) (S (mptok s dst)) /\
   (forall q, q <> dst -> mgetp s' q = mgetp s q) /\
   (forall a b, mlink s' a b =
      (if decide ((a, b) = (src, dst)) then rest else mlink s a b) ++
@@ -1913,7 +2338,7 @@ Lemma mstep_deliver s src dst s' :
 Proof.
   intros Hnd. simpl. destruct (mlink s src dst) as [|c rest] eqn:Hl; [discriminate|].
   destruct (mp s !! dst) as [x|] eqn:Hx; [|discriminate]. intros [= <-]. exists c, rest.
-  unfold mpevents. rewrite (mgetp_exists _ _ _ Hx).
+  unfold mpevents, mptok. rewrite (mgetp_exists _ _ _ Hx).
   split; [reflexivity|]. split; [eauto|]. split; [reflexivity|]. split; [|split; [|split]].
   - intros q. simpl. eapply mexists_insert; eauto.
   - apply mgetp_insert.
@@ -2050,13 +2475,13 @@ Lemma mquiescent_link s a b : mquiescent s -> mlink s a b = [].
 Proof.
   intros [H _]. unfold mlink, lget. destruct (mlinks s !! (a, b)) as [l|] eqn:Hl; [|reflexivity]. simpl. eapply H. exact Hl.
 Qed.
-Lemma mquiescent_peer s p : mquiescent s -> mpevents s p = 0%nat /\ mptok s p = false.
+Lemma mquiescent_peer s p : mquiescent s -> mpevents s p = 0%nat /\ mptok s p = 0%nat.
 Proof.
   intros [_ H]. unfold mpevents, mptok, mgetp. destruct (mp s !! p) as [x|] eqn:Hx; simpl; [|auto].
   apply (H p x Hx).
 Qed.
 Lemma mquiescent_intro s :
-  (forall a b, mlink s a b = []) -> (forall p, mpevents s p = 0%nat /\ mptok s p = false) -> mquiescent s.
+  (forall a b, mlink s a b = []) -> (forall p, mpevents s p = 0%nat /\ mptok s p = 0%nat) -> mquiescent s.
 Proof.
   intros Hl Hp. split.
   - intros [a b] l Hx. specialize (Hl a b). unfold mlink, lget in Hl. rewrite Hx in Hl. exact Hl.
@@ -2067,36 +2492,149 @@ Proof.
   apply mquiescent_intro; [intros; apply minit_link|]. intros p. unfold mpevents, mptok. rewrite minit_getp. auto.
 Qed.
 
-(* ---------- the single-publisher invariant for materials -------------------------------------------
+Theorem mwf_invariant n tr s' : mrun (minit n) tr = Some s' -> mwf s'.
+Proof. intros Hrun. eapply mrun_wf; [apply minit_wf|exact Hrun]. Qed.
+
+Definition msingle (e : mevent) : Prop := match e with MReact _ => False | _ => True end.
+
+Lemma mstep_lift (P : mstate -> Prop) (ok : mevent -> Prop) :
+  (forall s e s', msingle e -> mwf s -> P s -> ok e -> mstep s e = Some s' -> P s') ->
+  (forall p, ok (MReact1 p)) ->
+  forall s e s', mwf s -> P s -> ok e -> mstep s e = Some s' -> P s'.
+Proof.
+  intros H1 Hr s e s' Hwf HP Hok Hstep.
+  destruct e as [p v|p|p|src dst|c]; try (eapply H1; eauto; exact I).
+  apply mstep_react_runs in Hstep.
+  pose (Q := fun s1 => mwf s1 /\ P s1). assert (HQ : Q s'); [|apply HQ].
+  eapply (mreact1s_ind Q p); [|split; [exact Hwf|exact HP]|exact Hstep].
+  intros s1 s2 [Hw1 HP1] H12. split; [eapply mstep_wf; eauto|]. exact (H1 s1 (MReact1 p) s2 I Hw1 HP1 (Hr p) H12).
+Qed.
+
+Lemma mrun_lift (P : mstate -> Prop) (ok : mevent -> Prop) :
+  (forall s e s', msingle e -> mwf s -> P s -> ok e -> mstep s e = Some s' -> P s') ->
+  (forall p, ok (MReact1 p)) ->
+  forall tr s s', mwf s -> P s -> Forall ok tr -> mrun s tr = Some s' -> P s'.
+Proof.
+  intros H1 Hr. induction tr as [|e tr IH]; intros s s' Hwf HP Hok Hrun; simpl in Hrun.
+  - inversion Hrun; subst. exact HP.
+  - destruct (mstep s e) as [s1|] eqn:Hstep; [|discriminate]. apply Forall_cons in Hok as [He Hok].
+    eapply (IH s1); [eapply mstep_wf; eauto| |exact Hok|exact Hrun].
+    eapply (mstep_lift P ok); eauto.
+Qed.
+
+(* invariants of every run *)
+Definition MBasic (s : mstate) : Prop :=
+  forall p, (mptok s p <= mpevents s p)%nat /\ (mpevents s p <> 0%nat -> mpstore s p <> None).
+
+Lemma mbasic_step1 s e s' : msingle e -> mwf s -> MBasic s -> True -> mstep s e = Some s' -> MBasic s'.
+Proof.
+  intros He Hwf HB _ Hstep. pose proof (mwf_nodup s Hwf) as Hnd.
+  destruct e as [p v|p|p|src dst|c]; [|contradiction| | |]; intros q.
+  - apply mstep_publish in Hstep as (_ & _ & _ & _ & Hp & Hq).
+    destruct (decide (q = p)) as [->|Hne]; unfold mptok, mpevents, mpstore.
+    + rewrite Hp. simpl. pose proof (HB p) as (HB1 & _). split; [lia|intros; discriminate].
+    + rewrite Hq by assumption. apply HB.
+  - apply mstep_react1 in Hstep as (_ & _ & _ & Hp & Hq & _); [|exact Hnd].
+    destruct (decide (q = p)) as [->|Hne]; unfold mptok, mpevents, mpstore; [|rewrite Hq by assumption; apply HB].
+    rewrite Hp. specialize (HB p). unfold mptok, mpevents, mpstore in HB. destruct HB as (HB1 & HB2).
+    destruct (mreact1_cases (mgetp s p)) as [[E0 E]|[(k & E0 & E1 & E)|[(k & c & t & E0 & E1 & E2 & E)|(k & c & E0 & E1 & E2 & E)]]];
+      rewrite E; cbn [fst]; [auto| | |].
+    + exfalso. apply HB2; [rewrite E0; discriminate|exact E1].
+    + simpl. split; [lia|intros; discriminate].
+    + simpl. split; [lia|intros; discriminate].
+  - apply mstep_deliver in Hstep as (c & rest & _ & _ & _ & _ & Hp & Hq & _); [|exact Hnd].
+    destruct (decide (q = dst)) as [->|Hne]; unfold mptok, mpevents, mpstore; [|rewrite Hq by assumption; apply HB].
+    rewrite Hp. simpl. pose proof (HB dst) as (HB1 & _). split; [lia|intros; discriminate].
+  - apply mstep_join in Hstep as (_ & _ & _ & _ & _ & Hg & _). unfold mptok, mpevents, mpstore. rewrite Hg. apply HB.
+Qed.
+
+Lemma mall_true (tr : list mevent) : Forall (fun _ => True) tr.
+Proof. induction tr; constructor; auto. Qed.
+
+Lemma mbasic_init n : MBasic (minit n).
+Proof. intros p. unfold mptok, mpevents, mpstore. rewrite minit_getp. simpl. split; [lia|congruence]. Qed.
+
+Theorem mbasic_invariant n tr s' : mrun (minit n) tr = Some s' -> MBasic s'.
+Proof.
+  intros Hrun. eapply (mrun_lift MBasic (fun _ => True)); [exact mbasic_step1|auto|apply minit_wf|apply mbasic_init|apply mall_true|exact Hrun].
+Qed.
+
+(* ---------- M3: no echo ------------------------------------------------------------------------------ *)
+Definition mpub_ok (w : peer) (e : mevent) : Prop := match e with MPublish q _ => q = w | _ => True end.
+Definition MCovered (w : peer) (s : mstate) : Prop := MBasic s /\ forall q, q <> w -> mptok s q = mpevents s q.
+
+Lemma mcovered_step1 w s e s' :
+  msingle e -> mwf s -> MCovered w s -> mpub_ok w e -> mstep s e = Some s' -> MCovered w s'.
+Proof.
+  intros He Hwf [HB HC] Hok Hstep. split; [eapply mbasic_step1; eauto|]. pose proof (mwf_nodup s Hwf) as Hnd.
+  destruct e as [p v|p|p|src dst|c]; [|contradiction| | |]; intros q Hqw.
+  - simpl in Hok. subst p. apply mstep_publish in Hstep as (_ & _ & _ & _ & _ & Hq).
+    unfold mptok, mpevents. rewrite Hq by assumption. apply HC. exact Hqw.
+  - apply mstep_react1 in Hstep as (_ & _ & _ & Hp & Hq & _); [|exact Hnd].
+    destruct (decide (q = p)) as [->|Hne]; unfold mptok, mpevents; [|rewrite Hq by assumption; apply HC; exact Hqw].
+    rewrite Hp. specialize (HC p Hqw). unfold mptok, mpevents in HC.
+    destruct (mreact1_cases (mgetp s p)) as [[E0 E]|[(k & E0 & E1 & E)|[(k & c & t & E0 & E1 & E2 & E)|(k & c & E0 & E1 & E2 & E)]]];
+      rewrite E; cbn [fst]; simpl; try lia.
+    exfalso. destruct (HB p) as (_ & HB2). apply HB2; [unfold mpevents; rewrite E0; discriminate|exact E1].
+  - apply mstep_deliver in Hstep as (c & rest & _ & _ & _ & _ & Hp & Hq & _); [|exact Hnd].
+    destruct (decide (q = dst)) as [->|Hne]; unfold mptok, mpevents; [|rewrite Hq by assumption; apply HC; exact Hqw].
+    rewrite Hp. simpl. f_equal. apply HC. exact Hqw.
+  - apply mstep_join in Hstep as (_ & _ & _ & _ & _ & Hg & _). unfold mptok, mpevents. rewrite Hg. apply HC. exact Hqw.
+Qed.
+
+Lemma mpub_ok_of w tr : monly_publisher w tr -> Forall (mpub_ok w) tr.
+Proof.
+  unfold monly_publisher. induction tr as [|e tr IH]; intros Hp; [constructor|].
+  destruct e as [p v|p|p|src dst|c]; simpl in Hp; try (constructor; [exact I|apply IH; assumption]).
+  apply Forall_cons in Hp as [-> Hp]. constructor; [reflexivity|apply IH; assumption].
+Qed.
+
+Lemma moriginates_covered s q : mptok s q = mpevents s q -> moriginates s q = None.
+Proof.
+  unfold moriginates, mptok, mpevents. intros H.
+  destruct (mreact1_cases (mgetp s q)) as [[E0 E]|[(k & E0 & E1 & E)|[(k & c & t & E0 & E1 & E2 & E)|(k & c & E0 & E1 & E2 & E)]]];
+    rewrite E; try reflexivity. exfalso. lia.
+Qed.
+
+(* an inline update applied from the network is never sent back: in every state of every run in which w alone
+   publishes (any pace, joins at any moment), a react step of any other peer sends nothing *)
+Theorem mno_echo n w tr s' :
+  mrun (minit n) tr = Some s' -> monly_publisher w tr ->
+  forall q, q <> w -> mptok s' q = mpevents s' q /\ moriginates s' q = None.
+Proof.
+  intros Hrun Hop q Hne.
+  assert (HC : MCovered w s').
+  { apply (mrun_lift (MCovered w) (mpub_ok w) (mcovered_step1 w) (fun _ => I) tr (minit n) s' (minit_wf n)); [|apply mpub_ok_of; exact Hop|exact Hrun].
+    split; [apply mbasic_init|]. intros p _. unfold mptok, mpevents. rewrite minit_getp. reflexivity. }
+  pose proof (proj2 HC q Hne) as H. split; [exact H|apply moriginates_covered; exact H].
+Qed.
+Print Assumptions mno_echo.
+
+(* ---------- the publisher invariant for materials ------------------------------------------------------
    [mlatest w s q]: what q will hold once everything on its way from w has arrived (the channels are
-   FIFO and the host relays in order).  Outside S7 it is w's store unless an event of w is unread. *)
+   FIFO and the host relays in order).  It is w's store unless an event of w is unread. *)
 
 Definition mlatest (w : peer) (s : mstate) (q : peer) : option content :=
   lastd (mpstore s q) (mlink s host q ++ mlink s w host).
 
 Record MInv (w : peer) (s : mstate) : Prop := {
-  mi_w : is_Some (mp s !! w);
-  mi_tok : mptok s w = false;
+  mi_basic : MBasic s;
+  mi_tok : mptok s w = 0%nat;
   mi_in : forall a, mlink s a w = [];
   mi_up : forall c, c <> w -> mlink s c host = [];
-  mi_recv : forall q, q <> w ->
-              (mpevents s q = 0%nat /\ mptok s q = false) \/ (mpevents s q = 1%nat /\ mptok s q = true);
-  mi_ev_store : forall q, mpevents s q <> 0%nat -> mpstore s q <> None;
+  mi_recv : forall q, q <> w -> mptok s q = mpevents s q;
   mi_latest : forall q, mpeers s q -> q <> w -> mlatest w s q = mpstore s w \/ mpevents s w <> 0%nat
 }.
 
-Definition mev_ok (w : peer) (e : mevent) : Prop := match e with MPublish q _ => q = w | _ => True end.
 Definition mstore_after (w : peer) (s : mstate) (e : mevent) : option content :=
   match e with MPublish _ c => Some c | _ => mpstore s w end.
 
 Lemma minv_ext w s s' :
   (forall q, mgetp s' q = mgetp s q) -> (forall a b, mlink s' a b = mlink s a b) -> mconn s' = mconn s ->
-  (forall q, is_Some (mp s' !! q) <-> is_Some (mp s !! q)) ->
   MInv w s -> MInv w s'.
 Proof.
-  intros Hg Hl Hc He HI. destruct HI.
-  constructor; unfold mlatest, mpeers, mpstore, mpevents, mptok in *; intros; rewrite ?Hg, ?Hl, ?Hc in *; eauto.
-  apply He. exact mi_w0.
+  intros Hg Hl Hc HI. destruct HI as [iB iT iI iU iR iLa].
+  constructor; unfold MBasic, mlatest, mpeers, mpstore, mpevents, mptok in *; intros; rewrite ?Hg, ?Hl, ?Hc in *; eauto.
 Qed.
 
 Lemma mnot_in_dsts s p : mwf s -> p ∉ mdsts_of s p.
@@ -2104,6 +2642,12 @@ Proof.
   intros Hwf. unfold mdsts_of. destruct (p =? host)%N eqn:E.
   - apply N.eqb_eq in E. subst. apply mwf_host, Hwf.
   - apply N.eqb_neq in E. intros H. apply elem_of_list_singleton in H. contradiction.
+Qed.
+
+Lemma mwf_link_nil s a b : mwf s -> a ∉ mconn s -> b ∉ mconn s -> mlink s a b = [].
+Proof.
+  intros Hwf Ha Hb. destruct (mlink s a b) eqn:Hl; [reflexivity|].
+  destruct (mwf_link s a b Hwf) as [[_ H]|[_ H]]; [rewrite Hl; discriminate|contradiction|contradiction].
 Qed.
 
 Lemma mdeliver_shape w s src dst c rest :
@@ -2123,65 +2667,55 @@ Proof.
 Qed.
 
 Lemma minv_step1 w s e s' :
-  match e with MReact _ => False | _ => True end ->
-  mwf s -> MInv w s -> mev_ok w e -> mbad_S7 s e = false -> mstep s e = Some s' ->
+  msingle e -> mwf s -> MInv w s -> mpub_ok w e -> mstep s e = Some s' ->
   MInv w s' /\ mpstore s' w = mstore_after w s e.
 Proof.
-  intros Hnb Hwf HI Hok Hbad Hstep. pose proof (mwf_nodup s Hwf) as Hnd. pose proof (mwf_link_hh s Hwf) as Hhh.
+  intros Hnb Hwf HI Hok Hstep. pose proof (mwf_nodup s Hwf) as Hnd. pose proof (mwf_link_hh s Hwf) as Hhh.
+  pose proof (mbasic_step1 s e s' Hnb Hwf (mi_basic _ _ HI) I Hstep) as HB'.
   destruct e as [p v|p|p|src dst|c]; [|contradiction| | |].
   - (* MPublish *)
     simpl in Hok. subst p.
     apply mstep_publish in Hstep as (_ & Hc & Hl & Hex & Hp & Hq).
     assert (Hlk : forall a b, mlink s' a b = mlink s a b) by (intros; unfold mlink; rewrite Hl; reflexivity).
-    destruct HI. split; [|unfold mpstore; rewrite Hp; reflexivity].
+    destruct HI as [iB iT iI iU iR iLa]. split; [|unfold mpstore; rewrite Hp; reflexivity].
     constructor; unfold mpeers; intros; rewrite ?Hlk, ?Hc in *; eauto.
-    + apply Hex. exact mi_w0.
-    + unfold mptok. rewrite Hp. exact mi_tok0.
-    + unfold mpevents, mptok. rewrite Hq by assumption. apply mi_recv0. assumption.
-    + destruct (decide (q = w)) as [->|Hne]; [unfold mpstore; rewrite Hp; discriminate|].
-      unfold mpstore, mpevents in *. rewrite Hq in * by assumption. auto.
+    + unfold mptok. rewrite Hp. exact iT.
+    + unfold mpevents, mptok. rewrite Hq by assumption. apply iR. assumption.
     + right. unfold mpevents. rewrite Hp. discriminate.
   - (* MReact1 *)
     apply mstep_react1 in Hstep as (Hex & Hc & Hex' & Hp & Hq & Hl); [|exact Hnd].
-    assert (Hst : mpstore s' w = mpstore s w).
-    { unfold mpstore. destruct (decide (w = p)) as [->|Hne]; [|rewrite Hq by assumption; reflexivity].
-      rewrite Hp. destruct (mreact1_cases (mgetp s p)) as [[_ E]|[(k & _ & E0 & E)|[(k & c & _ & E0 & _ & E)|(k & c & _ & E0 & _ & E)]]];
+    assert (Hsto : forall q, mpstore s' q = mpstore s q).
+    { intros q. unfold mpstore. destruct (decide (q = p)) as [->|Hne]; [|rewrite Hq by assumption; reflexivity].
+      rewrite Hp. destruct (mreact1_cases (mgetp s p)) as [[_ E]|[(k & _ & E0 & E)|[(k & c & t & _ & E0 & _ & E)|(k & c & _ & E0 & _ & E)]]];
         rewrite E; simpl; congruence. }
-    split; [|exact Hst].
-    destruct (mreact1_cases (mgetp s p)) as [[E0 E]|[(k & E0 & E1 & E)|[(k & c & E0 & E1 & E2 & E)|(k & c & E0 & E1 & E2 & E)]]].
-    + eapply minv_ext; [| |exact Hc|exact Hex'|exact HI].
+    split; [|apply Hsto].
+    destruct (mreact1_cases (mgetp s p)) as [[E0 E]|[(k & E0 & E1 & E)|[(k & c & t & E0 & E1 & E2 & E)|(k & c & E0 & E1 & E2 & E)]]].
+    + eapply minv_ext; [| |exact Hc|exact HI].
       * intros q. destruct (decide (q = p)) as [->|Hne]; [rewrite Hp, E; reflexivity|apply Hq; exact Hne].
       * intros a b. rewrite Hl, E. reflexivity.
-    + exfalso. eapply (mi_ev_store _ _ HI p); [unfold mpevents; rewrite E0; discriminate|exact E1].
-    + assert (Hpw : p <> w). { intros ->. pose proof (mi_tok _ _ HI) as Ht. unfold mptok in Ht. congruence. }
-      assert (Hk : k = 0%nat).
-      { destruct (mi_recv _ _ HI p Hpw) as [[H0 _]|[H1 _]]; unfold mpevents in *; [congruence|lia]. }
-      subst k. rewrite E in Hp, Hl. cbn [fst snd] in Hp, Hl.
+    + exfalso. destruct (mi_basic _ _ HI p) as (_ & H2). apply H2; [unfold mpevents; rewrite E0; discriminate|exact E1].
+    + (* swallowed by a token *)
+      assert (Hpw : p <> w). { intros ->. pose proof (mi_tok _ _ HI) as Ht. unfold mptok in Ht. congruence. }
+      rewrite E in Hp, Hl. cbn [fst snd] in Hp, Hl.
       assert (Hlk : forall a b, mlink s' a b = mlink s a b) by (intros; rewrite Hl; reflexivity).
-      assert (Hsto : forall q, mpstore s' q = mpstore s q).
-      { intros q. unfold mpstore. destruct (decide (q = p)) as [->|Hne]; [rewrite Hp; simpl; congruence|rewrite Hq by assumption; reflexivity]. }
-      destruct HI. constructor; unfold mpeers, mlatest; intros; rewrite ?Hlk, ?Hc, ?Hsto in *; eauto.
-      * apply Hex'. exact mi_w0.
-      * unfold mptok. rewrite Hq by congruence. exact mi_tok0.
+      destruct HI as [iB iT iI iU iR iLa]. constructor; unfold mpeers, mlatest; intros; rewrite ?Hlk, ?Hc, ?Hsto in *; eauto.
+      * unfold mptok. rewrite Hq by congruence. exact iT.
       * destruct (decide (q = p)) as [->|Hne].
-        -- left. unfold mpevents, mptok. rewrite Hp. auto.
-        -- unfold mpevents, mptok. rewrite Hq by assumption. apply mi_recv0. assumption.
-      * destruct (decide (q = p)) as [->|Hne]; [unfold mpevents in H; rewrite Hp in H; simpl in H; congruence|].
-        unfold mpevents in *. rewrite Hq in * by assumption. auto.
-      * unfold mpevents. rewrite (Hq w) by congruence. apply mi_latest0; assumption.
-    + destruct (decide (p = w)) as [->|Hpw].
-      2:{ exfalso. destruct (mi_recv _ _ HI p Hpw) as [[H0 _]|[_ H1]]; unfold mpevents, mptok in *; congruence. }
+        -- unfold mpevents, mptok. rewrite Hp. simpl. specialize (iR p Hpw). unfold mptok, mpevents in iR. lia.
+        -- unfold mpevents, mptok. rewrite Hq by assumption. apply iR. assumption.
+      * unfold mpevents. rewrite (Hq w) by congruence. apply iLa; assumption.
+    + (* a local change: announced *)
+      destruct (decide (p = w)) as [->|Hpw].
+      2:{ exfalso. pose proof (mi_recv _ _ HI p Hpw) as H. unfold mpevents, mptok in *. congruence. }
       rewrite E in Hp, Hl. cbn [fst snd] in Hp, Hl. unfold mann_links in Hl.
-      assert (Hsw : mpstore s' w = Some c) by (unfold mpstore; rewrite Hp; reflexivity).
-      destruct HI. constructor; unfold mpeers; intros; rewrite ?Hc in *.
-      * apply Hex'. exact mi_w0.
+      assert (Hsw : mpstore s w = Some c) by exact E1.
+      destruct HI as [iB iT iI iU iR iLa]. constructor; unfold mpeers; intros; rewrite ?Hc in *.
+      * exact HB'.
       * unfold mptok. rewrite Hp. reflexivity.
-      * rewrite Hl. cdec as [[_ Hin]|_]; [exfalso; eapply mnot_in_dsts; eauto|apply mi_in0].
-      * rewrite Hl. cdec as [[Heq _]|_]; [contradiction|apply mi_up0; assumption].
-      * unfold mpevents, mptok. rewrite Hq by assumption. apply mi_recv0. assumption.
-      * destruct (decide (q = w)) as [->|Hne]; [rewrite Hsw; discriminate|].
-        unfold mpstore, mpevents in *. rewrite Hq in * by assumption. auto.
-      * left. rewrite Hsw. unfold mlatest. rewrite !Hl. unfold mdsts_of. destruct (decide (w = host)) as [->|Hwh].
+      * rewrite Hl. cdec as [[_ Hin]|_]; [exfalso; eapply mnot_in_dsts; eauto|apply iI].
+      * rewrite Hl. cdec as [[Heq _]|_]; [contradiction|apply iU; assumption].
+      * unfold mpevents, mptok. rewrite Hq by assumption. apply iR. assumption.
+      * left. rewrite Hsto, Hsw. unfold mlatest. rewrite !Hl. unfold mdsts_of. destruct (decide (w = host)) as [->|Hwh].
         -- change (host =? host)%N with true. cbv iota.
            destruct (decide (host = host /\ host ∈ mconn s)) as [[_ Hin]|_]; [exfalso; apply (mwf_host s Hwf Hin)|].
            destruct (decide (host = host /\ q ∈ mconn s)) as [_|Hn].
@@ -2194,28 +2728,24 @@ Proof.
   - (* MDeliver *)
     apply mstep_deliver in Hstep as (c & rest & Hl0 & Hd & Hc & Hex' & Hp & Hq & Hl); [|exact Hnd].
     destruct (mdeliver_shape w s src dst c rest Hwf HI Hl0) as (Hdw & Hshape).
-    simpl in Hbad. rewrite Hl0 in Hbad. apply negb_false_iff, Nat.eqb_eq in Hbad.
-    assert (Hp' : mgetp s' dst = MPeer (Some c) 1 true) by (rewrite Hp, Hbad; reflexivity).
     assert (Hsw : mpstore s' w = mpstore s w) by (unfold mpstore; rewrite Hq by congruence; reflexivity).
     assert (Hew : mpevents s' w = mpevents s w) by (unfold mpevents; rewrite Hq by congruence; reflexivity).
     split; [|exact Hsw].
-    destruct HI. constructor; unfold mpeers; intros; rewrite ?Hc in *.
-    + apply Hex'. exact mi_w0.
-    + unfold mptok. rewrite Hq by congruence. exact mi_tok0.
+    destruct HI as [iB iT iI iU iR iLa]. constructor; unfold mpeers; intros; rewrite ?Hc in *.
+    + exact HB'.
+    + unfold mptok. rewrite Hq by congruence. exact iT.
     + rewrite Hl. destruct (decide ((a, w) = (src, dst))) as [Heq|_]; [inversion Heq; congruence|].
-      rewrite mi_in0. cbn [app]. cdec as [(Hdh & _ & Hin)|_]; [|reflexivity].
+      rewrite iI. cbn [app]. cdec as [(Hdh & _ & Hin)|_]; [|reflexivity].
       apply elem_of_others in Hin as [Hn _]. destruct Hshape as [(_ & _ & ?)|(? & ? & _)]; congruence.
     + rewrite Hl. destruct (decide ((c0, host) = (src, dst))) as [Heq|_].
       * inversion Heq; subst. destruct Hshape as [(_ & _ & ?)|(_ & ? & _)]; congruence.
-      * rewrite mi_up0 by assumption. cbn [app]. cdec as [(_ & _ & Hin)|_]; [|reflexivity].
+      * rewrite iU by assumption. cbn [app]. cdec as [(_ & _ & Hin)|_]; [|reflexivity].
         apply elem_of_others in Hin as [_ Hin]. exfalso. apply (mwf_host s Hwf Hin).
     + destruct (decide (q = dst)) as [->|Hne].
-      * right. unfold mpevents, mptok. rewrite Hp'. auto.
-      * unfold mpevents, mptok. rewrite Hq by assumption. apply mi_recv0. assumption.
-    + destruct (decide (q = dst)) as [->|Hne]; [unfold mpstore; rewrite Hp'; discriminate|].
-      unfold mpstore, mpevents in *. rewrite Hq in * by assumption. auto.
+      * unfold mpevents, mptok. rewrite Hp. simpl. f_equal. apply iR. assumption.
+      * unfold mpevents, mptok. rewrite Hq by assumption. apply iR. assumption.
     + rewrite Hsw, Hew.
-      assert (Hsame : mlatest w s' q = mlatest w s q); [|rewrite Hsame; apply mi_latest0; assumption].
+      assert (Hsame : mlatest w s' q = mlatest w s q); [|rewrite Hsame; apply iLa; assumption].
       unfold mlatest. rewrite !Hl.
       destruct Hshape as [(-> & Hin & Hdh)|(-> & -> & Hwh & Hin)].
       * destruct (decide ((w, host) = (host, dst))) as [Heq|_]; [inversion Heq; congruence|].
@@ -2223,7 +2753,7 @@ Proof.
         destruct (decide (dst = host /\ _)) as [[? _]|_]; [contradiction|]. rewrite !app_nil_r.
         destruct (decide (q = dst)) as [->|Hnq].
         -- destruct (decide ((host, dst) = (host, dst))) as [_|?]; [|congruence].
-           unfold mpstore at 1. rewrite Hp'. cbn [mstore]. rewrite Hl0. reflexivity.
+           unfold mpstore at 1. rewrite Hp. cbn [mstore]. rewrite Hl0. reflexivity.
         -- destruct (decide ((host, q) = (host, dst))) as [Heq|_]; [inversion Heq; congruence|].
            unfold mpstore. rewrite Hq by assumption. reflexivity.
       * destruct (decide ((w, host) = (w, host))) as [_|?]; [|congruence].
@@ -2232,87 +2762,105 @@ Proof.
         -- destruct (decide ((host, host) = (w, host))) as [Heq|_]; [inversion Heq; congruence|].
            destruct (decide (host = host /\ host = host /\ host ∈ others w (mconn s))) as [(_ & _ & Hin')|_].
            { apply elem_of_others in Hin' as [_ Hin']. exfalso. apply (mwf_host s Hwf Hin'). }
-           rewrite app_nil_r, Hhh. unfold mpstore at 1. rewrite Hp'. cbn [mstore app]. rewrite Hl0. reflexivity.
+           rewrite app_nil_r, Hhh. unfold mpstore at 1. rewrite Hp. cbn [mstore app]. rewrite Hl0. reflexivity.
         -- destruct (decide ((host, q) = (w, host))) as [Heq|_]; [inversion Heq; congruence|].
            destruct (decide (host = host /\ host = host /\ q ∈ others w (mconn s))) as [_|Hn].
            ++ unfold mpstore. rewrite Hq by assumption. rewrite Hl0, <- app_assoc. reflexivity.
            ++ exfalso. apply Hn. split; [reflexivity|]. split; [reflexivity|]. apply elem_of_others. split; [assumption|].
               destruct H as [?|?]; [contradiction|assumption].
-  - (* MJoin *)
+  - (* MJoin: a fresh client at ANY moment; it may be the future publisher *)
     apply mstep_join in Hstep as (Hch & Hcn & Hnone & Hc & Hex' & Hg & Hl).
-    assert (Hcw : c <> w). { intros ->. destruct (mi_w _ _ HI) as [x Hx]. congruence. }
     split; [|unfold mstore_after, mpstore; rewrite Hg; reflexivity].
-    assert (Hlc0 : mlink s host c = []).
-    { destruct (mlink s host c) eqn:E; [reflexivity|]. destruct (mwf_link s host c Hwf) as [[_ H]|[H _]]; [rewrite E; discriminate|contradiction|congruence]. }
-    destruct HI. constructor; unfold mpeers, mpstore, mpevents, mptok; intros; rewrite ?Hg in *.
-    + apply Hex'. left. exact mi_w0.
-    + exact mi_tok0.
-    + rewrite Hl. cdec as [Heq|_]; [inversion Heq; congruence|apply mi_in0].
-    + rewrite Hl. cdec as [Heq|_]; [inversion Heq; congruence|apply mi_up0; assumption].
-    + apply mi_recv0. assumption.
-    + apply mi_ev_store0. assumption.
+    assert (Hlc0 : mlink s host c = []) by (apply mwf_link_nil; [exact Hwf|apply mwf_host; exact Hwf|exact Hcn]).
+    assert (Hlc1 : mlink s c host = []) by (apply mwf_link_nil; [exact Hwf|exact Hcn|apply mwf_host; exact Hwf]).
+    assert (Hc0 : mgetp s c = mpeer0) by (unfold mgetp; rewrite Hnone; reflexivity).
+    destruct HI as [iB iT iI iU iR iLa]. constructor; unfold mpeers, mpstore, mpevents, mptok; intros; rewrite ?Hg in *.
+    + exact HB'.
+    + exact iT.
+    + rewrite Hl. cdec as [Heq|_]; [|apply iI]. inversion Heq; subst a w. rewrite Hlc0. cbn [app].
+      (* the joiner is the (future) publisher: nothing was ever published, the snapshot is empty *)
+      destruct (iLa host (or_introl eq_refl) (not_eq_sym Hch)) as [H|H].
+      * unfold mlatest in H. rewrite Hhh, Hlc1 in H. simpl in H. unfold msnapshot. rewrite H. unfold mpstore. rewrite Hc0. reflexivity.
+      * exfalso. apply H. unfold mpevents. rewrite Hc0. reflexivity.
+    + rewrite Hl. cdec as [Heq|_]; [inversion Heq; congruence|apply iU; assumption].
+    + apply iR. assumption.
     + fold (mpstore s w). fold (mpevents s w). unfold mlatest, mpstore. rewrite Hg. fold (mpstore s q). rewrite !Hl.
       destruct (decide ((w, host) = (host, c))) as [Heq|_]; [inversion Heq; congruence|].
       destruct (decide (q = c)) as [->|Hnq].
       * destruct (decide ((host, c) = (host, c))) as [_|?]; [|congruence]. rewrite Hlc0. cbn [app].
-        assert (Hsc : mpstore s c = None) by (unfold mpstore, mgetp; rewrite Hnone; reflexivity). rewrite Hsc.
+        assert (Hsc : mpstore s c = None) by (unfold mpstore; rewrite Hc0; reflexivity). rewrite Hsc.
         destruct (decide (w = host)) as [->|Hwh].
         -- left. rewrite Hhh, app_nil_r. unfold msnapshot, mpstore. destruct (mstore (mgetp s host)); reflexivity.
         -- assert (Hh : mlatest w s host = lastd None (msnapshot s ++ mlink s w host)).
            { unfold mlatest, msnapshot. rewrite Hhh. destruct (mpstore s host); reflexivity. }
-           rewrite <- Hh. apply mi_latest0; [left; reflexivity|congruence].
+           rewrite <- Hh. apply iLa; [left; reflexivity|congruence].
       * destruct (decide ((host, q) = (host, c))) as [Heq|_]; [inversion Heq; congruence|].
-        apply mi_latest0; [|assumption]. destruct H as [H|H]; [left; exact H|]. rewrite Hc in H.
+        apply iLa; [|assumption]. destruct H as [H|H]; [left; exact H|]. rewrite Hc in H.
         apply elem_of_app in H as [H|H]; [right; exact H|]. apply elem_of_list_singleton in H. contradiction.
 Qed.
 
 Lemma minv_step w s e s' :
-  mwf s -> MInv w s -> mev_ok w e -> mbad_S7 s e = false -> mstep s e = Some s' ->
-  MInv w s' /\ mpstore s' w = mstore_after w s e.
+  mwf s -> MInv w s -> mpub_ok w e -> mstep s e = Some s' -> MInv w s' /\ mpstore s' w = mstore_after w s e.
 Proof.
-  intros Hwf HI Hok Hbad Hstep.
+  intros Hwf HI Hok Hstep.
   destruct e as [p v|p|p|src dst|c]; try (eapply minv_step1; eauto; exact I).
   apply mstep_react_runs in Hstep.
   pose (P := fun s1 => mwf s1 /\ MInv w s1 /\ mpstore s1 w = mpstore s w).
   assert (HP : P s') ; [|destruct HP as (_ & H1 & H2); split; [exact H1|exact H2]].
   eapply (mreact1s_ind P p); [|split; [exact Hwf|split; [exact HI|reflexivity]]|exact Hstep].
   intros s1 s2 (Hw1 & HI1 & Hs1) H12. split; [eapply mstep_wf; eauto|].
-  destruct (minv_step1 w s1 (MReact1 p) s2 I Hw1 HI1 I eq_refl H12) as [HI2 Hs2].
+  destruct (minv_step1 w s1 (MReact1 p) s2 I Hw1 HI1 I H12) as [HI2 Hs2].
   split; [exact HI2|]. rewrite Hs2. exact Hs1.
+Qed.
+
+Lemma minv_publish_quiescent p s c s' :
+  mwf s -> MBasic s -> mquiescent s -> mstep s (MPublish p c) = Some s' -> MInv p s' /\ mpstore s' p = Some c.
+Proof.
+  intros Hwf HB Hqs Hstep. pose proof (mbasic_step1 s (MPublish p c) s' I Hwf HB I Hstep) as HB'.
+  apply mstep_publish in Hstep as (_ & Hc & Hl & _ & Hp & Hq).
+  assert (Hlk : forall a b, mlink s' a b = []) by (intros; unfold mlink; rewrite Hl; apply (mquiescent_link s _ _ Hqs)).
+  split; [|unfold mpstore; rewrite Hp; reflexivity].
+  constructor; intros; rewrite ?Hlk in *; auto.
+  - unfold mptok. rewrite Hp. apply (mquiescent_peer s p Hqs).
+  - unfold mptok, mpevents. rewrite Hq by assumption. destruct (mquiescent_peer s q Hqs) as (H1 & H2).
+    unfold mptok, mpevents in *. congruence.
+  - right. unfold mpevents. rewrite Hp. discriminate.
 Qed.
 
 Lemma mpublished_cons e tr :
   mpublished (e :: tr) = match e with MPublish _ c => c :: mpublished tr | _ => mpublished tr end.
 Proof. destruct e; reflexivity. Qed.
 
-Lemma mstore_after_lastd w s e tr :
-  lastd (mstore_after w s e) (mpublished tr) = lastd (mpstore s w) (mpublished (e :: tr)).
-Proof. rewrite mpublished_cons. destruct e; reflexivity. Qed.
-
-Lemma minv_run w tr : forall s s',
-  mwf s -> MInv w s -> Forall (mev_ok w) tr -> mscan mbad_S7 s tr = false -> mrun s tr = Some s' ->
-  mwf s' /\ MInv w s' /\ mpstore s' w = lastd (mpstore s w) (mpublished tr).
+Lemma minv_run tr : forall w s s',
+  mwf s -> MInv w s -> mhandover_at_quiescence w s tr = true -> mrun s tr = Some s' ->
+  exists w', mwf s' /\ MInv w' s' /\ mpstore s' w' = lastd (mpstore s w) (mpublished tr).
 Proof.
-  induction tr as [|e tr IH]; intros s s' Hwf HI Hok Hbad Hrun.
-  - simpl in Hrun. inversion Hrun; subst. auto.
-  - cbn [mrun] in Hrun. cbn [mscan] in Hbad. destruct (mstep s e) as [s1|] eqn:Hstep; [|discriminate].
-    apply orb_false_iff in Hbad as [Hb1 Hb2]. apply Forall_cons in Hok as [He Hok].
-    destruct (minv_step w s e s1 Hwf HI He Hb1 Hstep) as [HI1 Hs1].
-    destruct (IH s1 s' (mstep_wf _ _ _ Hwf Hstep) HI1 Hok Hb2 Hrun) as (Hwf' & HI' & Hs').
-    split; [exact Hwf'|]. split; [exact HI'|]. rewrite Hs', Hs1. apply mstore_after_lastd.
+  induction tr as [|e tr IH]; intros w s s' Hwf HI Hho Hrun.
+  - simpl in Hrun. inversion Hrun; subst. exists w. auto.
+  - cbn [mrun] in Hrun. cbn [mhandover_at_quiescence] in Hho.
+    destruct (mstep s e) as [s1|] eqn:Hstep; [|discriminate].
+    pose proof (mstep_wf _ _ _ Hwf Hstep) as Hwf1.
+    assert (H1 : exists w1, MInv w1 s1 /\ mhandover_at_quiescence w1 s1 tr = true /\
+                            lastd (mpstore s1 w1) (mpublished tr) = lastd (mpstore s w) (mpublished (e :: tr))).
+    { destruct e as [p v|p|p|src dst|c].
+      - apply andb_true_iff in Hho as [Hh1 Hho]. exists p. rewrite mpublished_cons, lastd_cons.
+        apply orb_true_iff in Hh1 as [Hh1|Hh1].
+        + apply bool_decide_eq_true in Hh1. subst p.
+          destruct (minv_step w s (MPublish w v) s1 Hwf HI eq_refl Hstep) as [HI1 Hs1]. rewrite Hs1. auto.
+        + apply bool_decide_eq_true in Hh1.
+          destruct (minv_publish_quiescent p s v s1 Hwf (mi_basic _ _ HI) Hh1 Hstep) as [HI1 Hs1]. rewrite Hs1. auto.
+      - exists w. destruct (minv_step w s (MReact p) s1 Hwf HI I Hstep) as [HI1 Hs1]. rewrite Hs1. auto.
+      - exists w. destruct (minv_step w s (MReact1 p) s1 Hwf HI I Hstep) as [HI1 Hs1]. rewrite Hs1. auto.
+      - exists w. destruct (minv_step w s (MDeliver src dst) s1 Hwf HI I Hstep) as [HI1 Hs1]. rewrite Hs1. auto.
+      - exists w. destruct (minv_step w s (MJoin c) s1 Hwf HI I Hstep) as [HI1 Hs1]. rewrite Hs1. auto. }
+    destruct H1 as (w1 & HI1 & Hho1 & Hla).
+    destruct (IH w1 s1 s' Hwf1 HI1 Hho1 Hrun) as (w' & Hwf' & HI' & Hs').
+    exists w'. split; [exact Hwf'|]. split; [exact HI'|]. rewrite Hs'. exact Hla.
 Qed.
 
-Lemma minv_init w n : mpeers (minit n) w -> MInv w (minit n).
+Lemma minv_init w n : MInv w (minit n).
 Proof.
-  intros Hw. constructor; unfold mlatest, mpstore, mpevents, mptok; intros; rewrite ?minit_getp, ?minit_link in *; simpl; auto.
-  apply (mwf_exists _ _ (minit_wf n)). exact Hw.
-Qed.
-
-Lemma mev_ok_of w tr : monly_publisher w tr -> Forall (mev_ok w) tr.
-Proof.
-  unfold monly_publisher. induction tr as [|e tr IH]; intros Hp; [constructor|].
-  destruct e as [p v|p|p|src dst|c]; simpl in Hp; try (constructor; [exact I|apply IH; assumption]).
-  apply Forall_cons in Hp as [-> Hp]. constructor; [reflexivity|apply IH; assumption].
+  constructor; try apply mbasic_init; unfold mlatest, mpstore, mpevents, mptok; intros; rewrite ?minit_getp, ?minit_link in *; simpl; auto.
 Qed.
 
 Lemma minv_quiescent_agree w s : MInv w s -> mquiescent s -> forall q, mpeers s q -> mpstore s q = mpstore s w.
@@ -2323,275 +2871,535 @@ Proof.
   unfold mlatest in H. rewrite !(mquiescent_link s _ _ Hq) in H. exact H.
 Qed.
 
-(* Materials, one publisher (present from the start), bursts and overwrites, fresh clients joining at ANY
-   moment, every interleaving: outside the class S7 every quiescent state shows the last published content
-   on every peer. *)
-Theorem M06_single_publisher_outside_S7 n w tr s' :
-  mrun (minit n) tr = Some s' -> mpeers (minit n) w -> monly_publisher w tr ->
-  mknown_S7 (minit n) tr = false -> mquiescent s' ->
+(* M06, the general form: the publisher changes only in quiescent states, the same peer publishes at ANY pace,
+   fresh clients join at ANY moment (the snapshot carries the content: there is no join window) *)
+Theorem M06_handover n w0 tr s' :
+  mrun (minit n) tr = Some s' -> mhandover_at_quiescence w0 (minit n) tr = true -> mquiescent s' ->
   forall q, mpeers s' q -> mpstore s' q = last (mpublished tr).
 Proof.
-  intros Hrun Hw Hop Hk Hq q Hpq.
-  destruct (minv_run w tr (minit n) s' (minit_wf n) (minv_init w n Hw) (mev_ok_of w tr Hop) Hk Hrun) as (_ & HI & Hs).
-  rewrite (minv_quiescent_agree w s' HI Hq q Hpq), Hs.
+  intros Hrun Hho Hq q Hpq.
+  destruct (minv_run tr w0 (minit n) s' (minit_wf n) (minv_init w0 n) Hho Hrun) as (w' & _ & HI & Hs).
+  rewrite (minv_quiescent_agree w' s' HI Hq q Hpq), Hs.
   unfold mpstore at 1. rewrite minit_getp. apply lastd_None_last.
 Qed.
-Print Assumptions M06_single_publisher_outside_S7.
+Print Assumptions M06_handover.
 
-(* ---------- drain separation for materials ---------------------------------------------------------- *)
-
-Definition MK (w : peer) (s : mstate) : nat := (mpevents s w + length (mlink s w host))%nat.
-Definition MCnt (w : peer) (s : mstate) : Prop :=
-  forall q, mpeers s q -> q <> w -> (MK w s + length (mlink s host q) + mpevents s q <= 1)%nat.
-
-Lemma mcnt_ext w s s' :
-  (forall q, mgetp s' q = mgetp s q) -> (forall a b, mlink s' a b = mlink s a b) -> mconn s' = mconn s ->
-  MCnt w s -> MCnt w s'.
+Lemma mhandover_only_publisher w tr : monly_publisher w tr -> forall s, mhandover_at_quiescence w s tr = true.
 Proof.
-  intros Hg Hl Hc HC q Hp Hne. unfold MK, mpeers, mpevents in *. rewrite ?Hg, ?Hl, ?Hc in *. apply HC; assumption.
+  unfold monly_publisher. induction tr as [|e tr IH]; intros Hop s; [reflexivity|]. cbn [mhandover_at_quiescence].
+  destruct (mstep s e) as [s1|]; [|reflexivity].
+  destruct e as [p v|p|p|src dst|c]; simpl in Hop; try (apply IH; exact Hop).
+  apply Forall_cons in Hop as [-> Hop]. rewrite bool_decide_eq_true_2 by reflexivity. simpl. apply IH. exact Hop.
 Qed.
 
-Lemma mcnt_step1 w s e s' :
-  match e with MReact1 _ | MDeliver _ _ => True | _ => False end ->
-  mwf s -> MInv w s -> MCnt w s -> mstep s e = Some s' -> MCnt w s' /\ mbad_S7 s e = false.
+Lemma mhandover_drain_separated tr : forall w s, mops_at_quiescence s tr = true -> mhandover_at_quiescence w s tr = true.
 Proof.
-  intros He Hwf HI HC Hstep. pose proof (mwf_nodup s Hwf) as Hnd. pose proof (mwf_link_hh s Hwf) as Hhh.
-  destruct e as [p v|p|p|src dst|c]; try contradiction.
-  - (* MReact1 *)
-    split; [|reflexivity].
-    apply mstep_react1 in Hstep as (Hex & Hc & _ & Hp & Hq & Hl); [|exact Hnd].
-    destruct (mreact1_cases (mgetp s p)) as [[E0 E]|[(k & E0 & E1 & E)|[(k & c & E0 & E1 & E2 & E)|(k & c & E0 & E1 & E2 & E)]]].
-    + eapply mcnt_ext; [| |exact Hc|exact HC].
-      * intros q. destruct (decide (q = p)) as [->|Hne]; [rewrite Hp, E; reflexivity|apply Hq; exact Hne].
-      * intros a b. rewrite Hl, E. reflexivity.
-    + exfalso. eapply (mi_ev_store _ _ HI p); [unfold mpevents; rewrite E0; discriminate|exact E1].
-    + assert (Hpw : p <> w). { intros ->. pose proof (mi_tok _ _ HI) as Ht. unfold mptok in Ht. congruence. }
-      rewrite E in Hp, Hl. cbn [fst snd] in Hp, Hl.
-      assert (Hlk : forall a b, mlink s' a b = mlink s a b) by (intros; rewrite Hl; reflexivity).
-      intros q Hpq Hne. unfold mpeers in Hpq. rewrite Hc in Hpq. specialize (HC q Hpq Hne).
-      unfold MK, mpevents in *. rewrite !Hlk, (Hq w) by congruence.
-      destruct (decide (q = p)) as [->|Hnq]; [rewrite Hp; simpl; lia|rewrite Hq by assumption; exact HC].
-    + destruct (decide (p = w)) as [->|Hpw].
-      2:{ exfalso. destruct (mi_recv _ _ HI p Hpw) as [[H0 _]|[_ H1]]; unfold mpevents, mptok in *; congruence. }
-      rewrite E in Hp, Hl. cbn [fst snd] in Hp, Hl. unfold mann_links in Hl.
-      intros q Hpq Hne. unfold mpeers in Hpq. rewrite Hc in Hpq. specialize (HC q Hpq Hne).
-      unfold MK, mpevents in *. rewrite (Hq q) by assumption. rewrite Hp. cbn [mevents].
-      rewrite E0 in HC. rewrite !Hl. unfold mdsts_of. destruct (decide (w = host)) as [->|Hwh].
-      * change (host =? host)%N with true. cbv iota.
-        destruct (decide (host = host /\ host ∈ mconn s)) as [[_ Hin]|_]; [exfalso; apply (mwf_host s Hwf Hin)|].
-        destruct (decide (host = host /\ q ∈ mconn s)) as [_|Hn].
-        -- rewrite app_length. simpl. lia.
-        -- exfalso. apply Hn. split; [reflexivity|]. destruct Hpq as [?|?]; [contradiction|assumption].
-      * destruct (w =? host)%N eqn:E'; [apply N.eqb_eq in E'; contradiction|].
-        destruct (decide (w = w /\ host ∈ [host])) as [_|Hn]; [|exfalso; apply Hn; split; [reflexivity|apply elem_of_list_singleton; reflexivity]].
-        destruct (decide (host = w /\ _)) as [[Hf _]|_]; [congruence|].
-        rewrite app_length. simpl. lia.
-  - (* MDeliver *)
-    pose proof Hstep as Hstep0.
-    apply mstep_deliver in Hstep as (c & rest & Hl0 & Hd & Hc & _ & Hp & Hq & Hl); [|exact Hnd].
-    destruct (mdeliver_shape w s src dst c rest Hwf HI Hl0) as (Hdw & Hshape).
-    assert (Hpd : mpeers s dst) by (apply (mwf_exists s dst Hwf); exact Hd).
-    assert (He0 : mpevents s dst = 0%nat).
-    { pose proof (HC dst Hpd Hdw) as H. destruct Hshape as [(-> & _ & _)|(-> & -> & _ & _)].
-      - rewrite Hl0 in H. simpl in H. lia.
-      - unfold MK in H. rewrite Hl0 in H. simpl in H. lia. }
-    split; [|simpl; rewrite Hl0, He0; reflexivity].
-    assert (Hpe : mpevents s' dst = 1%nat) by (unfold mpevents at 1; rewrite Hp; cbn [mevents]; rewrite He0; reflexivity).
-    intros q Hpq Hne. unfold mpeers in Hpq. rewrite Hc in Hpq. pose proof (HC q Hpq Hne) as HCq.
-    assert (Hew : mpevents s' w = mpevents s w) by (unfold mpevents; rewrite Hq by congruence; reflexivity).
-    unfold MK in *. rewrite Hew. rewrite !Hl.
-    destruct Hshape as [(-> & Hin & Hdh)|(-> & -> & Hwh & Hin)].
-    + destruct (decide ((w, host) = (host, dst))) as [Heq|_]; [inversion Heq; congruence|].
-      destruct (decide (dst = host /\ _)) as [[? _]|_]; [contradiction|].
-      destruct (decide (dst = host /\ _)) as [[? _]|_]; [contradiction|]. rewrite !app_nil_r.
-      destruct (decide (q = dst)) as [->|Hnq].
-      * destruct (decide ((host, dst) = (host, dst))) as [_|?]; [|congruence].
-        rewrite Hpe. rewrite Hl0 in HCq. simpl in *. lia.
-      * destruct (decide ((host, q) = (host, dst))) as [Heq|_]; [inversion Heq; congruence|].
-        unfold mpevents in *. rewrite (Hq q) by assumption. exact HCq.
-    + destruct (decide ((w, host) = (w, host))) as [_|?]; [|congruence].
-      destruct (decide (host = host /\ w = host /\ _)) as [(_ & ? & _)|_]; [contradiction|]. rewrite app_nil_r.
-      rewrite Hl0 in HCq. cbn [length] in HCq.
-      destruct (decide (q = host)) as [->|Hnq].
-      * destruct (decide ((host, host) = (w, host))) as [Heq|_]; [inversion Heq; congruence|].
-        destruct (decide (host = host /\ host = host /\ host ∈ others w (mconn s))) as [(_ & _ & Hin')|_].
-        { apply elem_of_others in Hin' as [_ Hin']. exfalso. apply (mwf_host s Hwf Hin'). }
-        rewrite app_nil_r, Hpe. lia.
-      * destruct (decide ((host, q) = (w, host))) as [Heq|_]; [inversion Heq; congruence|].
-        destruct (decide (host = host /\ host = host /\ q ∈ others w (mconn s))) as [_|Hn].
-        -- unfold mpevents in *. rewrite (Hq q) by assumption. rewrite app_length. simpl. lia.
-        -- exfalso. apply Hn. split; [reflexivity|]. split; [reflexivity|]. apply elem_of_others. split; [exact Hne|].
-           destruct Hpq as [?|?]; [contradiction|assumption].
+  induction tr as [|e tr IH]; intros w s Hops; [reflexivity|]. cbn [mhandover_at_quiescence mops_at_quiescence] in *.
+  destruct (mstep s e) as [s1|]; [|reflexivity]. apply andb_true_iff in Hops as [H1 Hops].
+  destruct e as [p v|p|p|src dst|c]; try (apply IH; exact Hops).
+  simpl in H1. rewrite H1, orb_true_r. simpl. apply IH. exact Hops.
 Qed.
 
-Lemma mcnt_quiescent w s : mquiescent s -> MCnt w s.
-Proof.
-  intros Hq q _ _. unfold MK. rewrite !(mquiescent_link s _ _ Hq).
-  destruct (mquiescent_peer s w Hq) as (-> & _). destruct (mquiescent_peer s q Hq) as (-> & _). simpl. lia.
-Qed.
+(* M1.  M06 at full strength: ONE publisher (host or client, present from the start or joining later) at ANY
+   pace, fresh clients joining at ANY moment, every interleaving *)
+Theorem M06_single_publisher n w tr s' :
+  mrun (minit n) tr = Some s' -> monly_publisher w tr -> mquiescent s' ->
+  forall q, mpeers s' q -> mpstore s' q = last (mpublished tr).
+Proof. intros Hrun Hop. apply (M06_handover n w tr s' Hrun). apply mhandover_only_publisher. exact Hop. Qed.
+Print Assumptions M06_single_publisher.
 
-Lemma mcnt_publish w s c s' : mquiescent s -> mstep s (MPublish w c) = Some s' -> MCnt w s'.
-Proof.
-  intros Hqs Hstep. apply mstep_publish in Hstep as (_ & Hc & Hl & _ & Hp & Hq).
-  intros q _ Hne. unfold MK, mlink, mpevents. rewrite Hl, Hp, (Hq q) by assumption. cbn [mevents].
-  fold (mlink s w host). fold (mlink s host q). rewrite !(mquiescent_link s _ _ Hqs).
-  destruct (mquiescent_peer s w Hqs) as (-> & _). destruct (mquiescent_peer s q Hqs) as (He & _).
-  unfold mpevents in *. rewrite He. simpl. lia.
-Qed.
+Definition M06_statement : Prop :=
+  forall n p tr s',
+    mrun (minit n) tr = Some s' -> monly_publisher p tr -> mquiescent s' ->
+    forall q, mpeers s' q -> mpstore s' q = last (mpublished tr).
+Theorem M06_holds : M06_statement.
+Proof. exact M06_single_publisher. Qed.
 
-Lemma mcnt_join w s c s' : mquiescent s -> mstep s (MJoin c) = Some s' -> MCnt w s'.
-Proof.
-  intros Hqs Hstep. apply mstep_join in Hstep as (Hch & Hcn & Hnone & Hc & _ & Hg & Hl).
-  intros q _ Hne. unfold MK, mpevents. rewrite !Hg, !Hl. rewrite !(mquiescent_link s _ _ Hqs).
-  destruct (mquiescent_peer s w Hqs) as (He & _). destruct (mquiescent_peer s q Hqs) as (Heq & _).
-  unfold mpevents in *. rewrite He, Heq.
-  assert (Hs : (length (msnapshot s) <= 1)%nat) by (unfold msnapshot; destruct (mpstore s host); simpl; lia).
-  destruct (decide ((w, host) = (host, c))) as [Heq'|_]; [inversion Heq'; congruence|].
-  destruct (decide ((host, q) = (host, c))); simpl; lia.
-Qed.
+(* M2.  Any number of publishers, drain separated *)
+Theorem M06_drain_separated n tr s' :
+  mrun (minit n) tr = Some s' -> mops_at_quiescence (minit n) tr = true -> mquiescent s' ->
+  forall q, mpeers s' q -> mpstore s' q = last (mpublished tr).
+Proof. intros Hrun Hops. apply (M06_handover n host tr s' Hrun). apply mhandover_drain_separated. exact Hops. Qed.
+Print Assumptions M06_drain_separated.
 
-Lemma mds_run w tr : forall s s',
-  mwf s -> MInv w s -> MCnt w s -> Forall (mev_ok w) tr -> mops_at_quiescence s tr = true -> mrun s tr = Some s' ->
-  mwf s' /\ MInv w s' /\ MCnt w s' /\ mscan mbad_S7 s tr = false /\ mpstore s' w = lastd (mpstore s w) (mpublished tr).
-Proof.
-  induction tr as [|e tr IH]; intros s s' Hwf HI HC Hok Hops Hrun.
-  - simpl in Hrun. inversion Hrun; subst. auto.
-  - cbn [mrun] in Hrun. cbn [mops_at_quiescence] in Hops. cbn [mscan].
-    destruct (mstep s e) as [s1|] eqn:Hstep; [|discriminate].
-    apply andb_true_iff in Hops as [Hop1 Hops]. apply Forall_cons in Hok as [He Hok].
-    assert (H1 : MInv w s1 /\ MCnt w s1 /\ mbad_S7 s e = false /\ mpstore s1 w = mstore_after w s e).
-    { destruct e as [p v|p|p|src dst|c].
-      - simpl in He. subst p. simpl in Hop1. apply bool_decide_eq_true in Hop1.
-        destruct (minv_step1 w s (MPublish w v) s1 I Hwf HI eq_refl eq_refl Hstep) as [HI1 Hs1].
-        split; [exact HI1|]. split; [eapply mcnt_publish; eauto|]. split; [reflexivity|exact Hs1].
-      - apply mstep_react_runs in Hstep.
-        pose (P := fun s1 => mwf s1 /\ MInv w s1 /\ MCnt w s1 /\ mpstore s1 w = mpstore s w).
-        assert (HP : P s1); [|destruct HP as (_ & HI1 & HC1 & Hs1); auto].
-        eapply (mreact1s_ind P p); [|split; [exact Hwf|split; [exact HI|split; [exact HC|reflexivity]]]|exact Hstep].
-        intros s2 s3 (Hw2 & HI2 & HC2 & Hs2) H23. split; [eapply mstep_wf; eauto|].
-        destruct (minv_step1 w s2 (MReact1 p) s3 I Hw2 HI2 I eq_refl H23) as [HI3 Hs3].
-        destruct (mcnt_step1 w s2 (MReact1 p) s3 I Hw2 HI2 HC2 H23) as [HC3 _].
-        split; [exact HI3|]. split; [exact HC3|]. rewrite Hs3. exact Hs2.
-      - destruct (mcnt_step1 w s (MReact1 p) s1 I Hwf HI HC Hstep) as [HC1 Hb].
-        destruct (minv_step1 w s (MReact1 p) s1 I Hwf HI I Hb Hstep) as [HI1 Hs1]. auto.
-      - destruct (mcnt_step1 w s (MDeliver src dst) s1 I Hwf HI HC Hstep) as [HC1 Hb].
-        destruct (minv_step1 w s (MDeliver src dst) s1 I Hwf HI I Hb Hstep) as [HI1 Hs1]. auto.
-      - simpl in Hop1. apply bool_decide_eq_true in Hop1.
-        destruct (minv_step1 w s (MJoin c) s1 I Hwf HI I eq_refl Hstep) as [HI1 Hs1].
-        split; [exact HI1|]. split; [eapply mcnt_join; eauto|]. split; [reflexivity|exact Hs1]. }
-    destruct H1 as (HI1 & HC1 & Hb & Hs1).
-    destruct (IH s1 s' (mstep_wf _ _ _ Hwf Hstep) HI1 HC1 Hok Hops Hrun) as (Hwf' & HI' & HC' & Hsc & Hs').
-    split; [exact Hwf'|]. split; [exact HI'|]. split; [exact HC'|]. split; [rewrite Hb, Hsc; reflexivity|].
-    rewrite Hs', Hs1. apply mstore_after_lastd.
-Qed.
+(* the old S7 witness for materials ("older overwrites newer"): the host writes 20 and 30 while the clients do not
+   step; each client applies both updates before its react system runs: two events, two tokens, no echo; the
+   host writes 40: everybody ends with 40 *)
+Definition w_material : list mevent :=
+  [MPublish 0 20; MReact 0; MPublish 0 30; MReact 0;
+   MDeliver 0 1; MDeliver 0 1; MDeliver 0 2; MDeliver 0 2; MReact 1; MReact 2;
+   MPublish 0 40; MReact 0; MDeliver 0 1; MReact 1; MDeliver 0 2; MReact 2].
 
-(* drain-separated overwrites of a material by one publisher replicate; fresh clients may join in quiescent
-   states whoever the publisher is *)
-Theorem M06_drain_separated_overwrites_replicate n w tr s' :
-  mrun (minit n) tr = Some s' -> mpeers (minit n) w -> monly_publisher w tr ->
-  mops_at_quiescence (minit n) tr = true -> mquiescent s' ->
-  mknown_S7 (minit n) tr = false /\ forall q, mpeers s' q -> mpstore s' q = last (mpublished tr).
-Proof.
-  intros Hrun Hw Hop Hops Hq.
-  destruct (mds_run w tr (minit n) s' (minit_wf n) (minv_init w n Hw) (mcnt_quiescent w _ (minit_quiescent n))
-              (mev_ok_of w tr Hop) Hops Hrun) as (_ & HI & _ & Hsc & Hs).
-  split; [exact Hsc|]. intros q Hpq.
-  rewrite (minv_quiescent_agree w s' HI Hq q Hpq), Hs.
-  unfold mpstore at 1. rewrite minit_getp. apply lastd_None_last.
-Qed.
-Print Assumptions M06_drain_separated_overwrites_replicate.
+Example material_burst_converges :
+  (fun s => mview s [0; 1; 2]) <$> mrun (minit 2) w_material = Some ([Some 40; Some 40; Some 40], true) /\
+  monly_publisher 0 w_material /\ mops_at_quiescence (minit 2) w_material = false /\
+  mtotal_sent (minit 2) w_material = 6%nat.
+Proof. split; [vm_compute; reflexivity|]. split; [unfold monly_publisher; vm_compute; repeat constructor|]. split; vm_compute; reflexivity. Qed.
 
-Lemma mplain_trace rest :
-  Forall mplain rest -> mpublished rest = [] /\ mpublishers rest = [] /\ forall s, mops_at_quiescence s rest = true.
-Proof.
-  induction 1 as [|e rest He _ (IH1 & IH2 & IH4)]; [repeat split|].
-  destruct e; simpl in He; try contradiction; (split; [exact IH1|]; split; [exact IH2|]);
-    intros s; cbn [mops_at_quiescence]; (destruct (mstep s _); [|reflexivity]); rewrite IH4; reflexivity.
-Qed.
+(* the old echo cycle: after two publications of the host applied together by both clients, the exchange now
+   simply stops: nothing is sent back *)
+Definition w_echo_pre : list mevent :=
+  [MPublish 0 20; MReact 0; MPublish 0 30; MReact 0;
+   MDeliver 0 1; MDeliver 0 1; MDeliver 0 2; MDeliver 0 2; MReact 1; MReact 2].
 
-Theorem M06_first_publication_replicates n p c rest s' :
-  Forall mplain rest -> mrun (minit n) (MPublish p c :: rest) = Some s' -> mquiescent s' ->
-  forall q, mpeers s' q -> mpstore s' q = Some c.
-Proof.
-  intros Hpl Hrun Hq q Hpq. destruct (mplain_trace rest Hpl) as (H1 & H2 & H4).
-  assert (Hw : mpeers (minit n) p).
-  { cbn [mrun] in Hrun. destruct (mstep (minit n) (MPublish p c)) as [s1|] eqn:Hs; [|discriminate].
-    apply mstep_publish in Hs as (Hex & _). apply (mwf_exists _ _ (minit_wf n)). exact Hex. }
-  destruct (M06_drain_separated_overwrites_replicate n p (MPublish p c :: rest) s' Hrun Hw) as [_ Hall]; try assumption.
-  - unfold monly_publisher. simpl. rewrite H2. repeat constructor.
-  - cbn [mops_at_quiescence]. cbn [mrun] in Hrun. destruct (mstep (minit n) (MPublish p c)) as [s1|]; [|discriminate].
-    rewrite H4. simpl. rewrite andb_true_r. apply bool_decide_eq_true. apply minit_quiescent.
-  - rewrite (Hall q Hpq), mpublished_cons, H1. reflexivity.
-Qed.
-Print Assumptions M06_first_publication_replicates.
+Example material_echo_cycle_gone :
+  (fun s => (mview s [0; 1; 2], (fun p => mlink s p 0) <$> [1; 2])) <$> mrun (minit 2) w_echo_pre
+    = Some (([Some 30; Some 30; Some 30], true), [[]; []]) /\
+  mtotal_sent (minit 2) w_echo_pre = 4%nat.
+Proof. split; vm_compute; reflexivity. Qed.
 
+(* non-vacuity: a client publishes a burst with a join in mid-flight; then hand-over to the host *)
 Example M06_nonvacuous :
+  let tr := [MPublish 1 10; MReact 1; MPublish 1 20; MDeliver 1 0; MJoin 3; MReact 1; MReact 0; MDeliver 1 0; MReact 0;
+             MDeliver 0 3; MDeliver 0 3; MReact 3; MDeliver 0 2; MDeliver 0 2; MReact 2;
+             MPublish 0 30; MPublish 0 40; MReact 0; MDeliver 0 1; MDeliver 0 1; MDeliver 0 2; MDeliver 0 3; MDeliver 0 2; MDeliver 0 3;
+             MReact 1; MReact 2; MReact 3] in
+  mhandover_at_quiescence 1 (minit 2) tr = true /\ mops_at_quiescence (minit 2) tr = false /\
+  monly_publisher 1 (take 15 tr) /\
+  (fun s => mview s [0; 1; 2; 3]) <$> mrun (minit 2) (take 15 tr) = Some ([Some 20; Some 20; Some 20; Some 20], true) /\
+  (fun s => mview s [0; 1; 2; 3]) <$> mrun (minit 2) tr = Some ([Some 40; Some 40; Some 40; Some 40], true).
+Proof.
+  split; [vm_compute; reflexivity|]. split; [vm_compute; reflexivity|].
+  split; [unfold monly_publisher; vm_compute; repeat constructor|]. split; vm_compute; reflexivity.
+Qed.
+
+Example M06_drain_separated_nonvacuous :
   let tr := [MPublish 1 10; MReact 1; MDeliver 1 0; MDeliver 0 2; MReact 0; MReact 2;
              MJoin 3; MDeliver 0 3; MReact 3;
-             MPublish 1 20; MReact 1; MDeliver 1 0; MReact 0; MDeliver 0 2; MDeliver 0 3; MReact 2; MReact 3] in
-  monly_publisher 1 tr /\ mops_at_quiescence (minit 2) tr = true /\
-  (fun s => mview s [0; 1; 2; 3]) <$> mrun (minit 2) tr = Some ([Some 20; Some 20; Some 20; Some 20], true).
-Proof. split; [unfold monly_publisher; vm_compute; repeat constructor|]. split; vm_compute; reflexivity. Qed.
+             MPublish 2 20; MReact 2; MDeliver 2 0; MReact 0; MDeliver 0 1; MDeliver 0 3; MReact 1; MReact 3;
+             MPublish 0 30; MReact 0; MDeliver 0 1; MDeliver 0 2; MDeliver 0 3; MReact 1; MReact 2; MReact 3] in
+  mops_at_quiescence (minit 2) tr = true /\
+  (fun s => mview s [0; 1; 2; 3]) <$> mrun (minit 2) tr = Some ([Some 30; Some 30; Some 30; Some 30], true).
+Proof. split; vm_compute; reflexivity. Qed.
 
-(* a burst outside S7 with a join in mid-flight *)
-Example M06_outside_S7_nonvacuous :
-  let tr := [MPublish 1 10; MReact 1; MPublish 1 20; MDeliver 1 0; MJoin 3; MReact 1; MReact 0; MDeliver 1 0; MReact 0;
-             MDeliver 0 3; MReact 3; MDeliver 0 3; MReact 3; MDeliver 0 2; MReact 2; MDeliver 0 2; MReact 2] in
-  monly_publisher 1 tr /\ mknown_S7 (minit 2) tr = false /\ mops_at_quiescence (minit 2) tr = false /\
-  (fun s => mview s [0; 1; 2; 3]) <$> mrun (minit 2) tr = Some ([Some 20; Some 20; Some 20; Some 20], true).
-Proof. split; [unfold monly_publisher; vm_compute; repeat constructor|]. split; [|split]; vm_compute; reflexivity. Qed.
-
-(* ---------- unbounded echo traffic ----------------------------------------------------------------- *)
-
-Lemma mrun_app s tr1 tr2 : mrun s (tr1 ++ tr2) = match mrun s tr1 with Some s1 => mrun s1 tr2 | None => None end.
-Proof. revert s. induction tr1 as [|e tr1 IH]; intros s; simpl; [reflexivity|]. destruct (mstep s e); auto. Qed.
-
-Lemma mtotal_sent_app s tr1 tr2 s1 :
-  mrun s tr1 = Some s1 -> mtotal_sent s (tr1 ++ tr2) = (mtotal_sent s tr1 + mtotal_sent s1 tr2)%nat.
+(* outside the property: two publishers NOT drain separated may end quiescent and disagree *)
+Theorem material_concurrent_publishers_disagree :
+  exists n tr s',
+    mrun (minit n) tr = Some s' /\ mquiescent s' /\ mpublished tr = [10; 20] /\
+    mhandover_at_quiescence 1 (minit n) tr = false /\
+    mpstore s' 0 = Some 20 /\ mpstore s' 1 = Some 20 /\ mpstore s' 2 = Some 10.
 Proof.
-  revert s. induction tr1 as [|e tr1 IH]; intros s Hrun; simpl in Hrun.
-  - inversion Hrun; subst. reflexivity.
-  - cbn [app mtotal_sent]. destruct (mstep s e) as [s2|]; [|discriminate]. rewrite (IH s2 Hrun). lia.
+  exists 2%nat, [MPublish 1 10; MPublish 2 20; MReact 1; MReact 2; MDeliver 1 0; MDeliver 2 0; MDeliver 0 2; MDeliver 0 1;
+                 MReact 0; MReact 1; MReact 2].
+  match goal with |- exists s', mrun ?s0 ?tr = _ /\ _ =>
+    destruct (mrun_obs (fun s => (mquiescentb s, mpstore s 0, mpstore s 1, mpstore s 2)) s0 tr (true, Some 20, Some 20, Some 10))
+      as (s' & Hrun & Hobs); [vm_compute; reflexivity|] end.
+  injection Hobs as Hq H0 H1 H2. apply bool_decide_eq_true in Hq.
+  exists s'. split; [exact Hrun|]. split; [exact Hq|]. split; [reflexivity|]. split; [vm_compute; reflexivity|]. auto.
 Qed.
 
-Fixpoint repeat_tr (k : nat) (tr : list mevent) : list mevent :=
-  match k with O => [] | S k => tr ++ repeat_tr k tr end.
+(* ---------- M4: traffic and termination for materials -------------------------------------------------- *)
 
-(* two publications of the host can cause any number of messages: the C09 style bound
-   "messages <= publications * f(n)" does NOT hold for materials outside drain separation *)
-Theorem material_traffic_unbounded :
-  forall B : nat, exists tr s',
-    mrun (minit 2) tr = Some s' /\ monly_publisher 0 tr /\ length (mpublished tr) = 2%nat /\
-    (mtotal_sent (minit 2) tr > B)%nat.
+Definition mallp (s : mstate) : list peer := host :: mconn s.
+Definition mpsum (F : mpeer -> nat) (s : mstate) : nat := sumf (fun p => F (mgetp s p)) (mallp s).
+Definition mlsum_down (s : mstate) : nat := sumf (fun c => length (mlink s host c)) (mconn s).
+Definition mlsum_up (s : mstate) : nat := sumf (fun c => length (mlink s c host)) (mconn s).
+Definition mcredit (x : mpeer) : nat := (mevents x - mtok x)%nat.
+Definition MSC := mpsum mcredit.
+Definition MST := mpsum mtok.
+
+Lemma mallp_nodup s : mwf s -> NoDup (mallp s).
+Proof. intros Hwf. apply NoDup_cons. split; [apply mwf_host; exact Hwf|apply mwf_nodup; exact Hwf]. Qed.
+
+Lemma mpsum_update F s s' p :
+  mwf s -> mconn s' = mconn s -> is_Some (mp s !! p) -> (forall q, q <> p -> mgetp s' q = mgetp s q) ->
+  (mpsum F s' + F (mgetp s p) = mpsum F s + F (mgetp s' p))%nat.
 Proof.
-  intros B.
-  assert (Hpre : mrun (minit 2) w_echo_pre = Some s_echo) by (apply (by_decide _ (dec := decide _)); vm_compute; reflexivity).
-  assert (Hloop : mrun s_echo w_echo_loop = Some s_echo) by (apply (by_decide _ (dec := decide _)); vm_compute; reflexivity).
-  assert (Hsent : mtotal_sent s_echo w_echo_loop = 6%nat) by (vm_compute; reflexivity).
-  assert (Hk : forall k, mrun s_echo (repeat_tr k w_echo_loop) = Some s_echo /\
-                         mtotal_sent s_echo (repeat_tr k w_echo_loop) = (6 * k)%nat /\
-                         mpublishers (repeat_tr k w_echo_loop) = [] /\ mpublished (repeat_tr k w_echo_loop) = []).
-  { induction k as [|k (IH1 & IH2 & IH3 & IH4)]; [repeat split|]. cbn [repeat_tr].
-    split; [rewrite mrun_app, Hloop; exact IH1|]. split; [rewrite (mtotal_sent_app _ _ _ _ Hloop), Hsent, IH2; lia|].
-    unfold mpublishers, mpublished in *. rewrite !omap_app, IH3, IH4. split; reflexivity. }
-  destruct (Hk (S B)) as (H1 & H2 & H3 & H4).
-  exists (w_echo_pre ++ repeat_tr (S B) w_echo_loop), s_echo.
-  split; [rewrite mrun_app, Hpre; exact H1|].
-  split; [unfold monly_publisher, mpublishers in *; rewrite omap_app, H3; vm_compute; repeat constructor|].
-  split; [unfold mpublished in *; rewrite omap_app, H4; reflexivity|].
-  rewrite (mtotal_sent_app _ _ _ _ Hpre), H2. lia.
+  intros Hwf Hc Hex Hq. unfold mpsum, mallp. rewrite Hc.
+  apply (sumf_update (fun p => F (mgetp s p)) (fun p => F (mgetp s' p))); [apply (mallp_nodup s Hwf)| |].
+  - unfold mallp. apply elem_of_cons. apply (mwf_exists s p Hwf). exact Hex.
+  - intros x _ Hne. rewrite Hq by assumption. reflexivity.
 Qed.
-Print Assumptions material_traffic_unbounded.
 
-Print Assumptions C06_refuted.
-Print Assumptions C06_burst_overwrite_refuted.
-Print Assumptions C06_republish_by_other_peer_refuted.
-Print Assumptions C06_host_stale_after_join_refuted.
-Print Assumptions join_preloaded_refuted.
+Lemma mlsum_same s s' :
+  mconn s' = mconn s -> (forall a b, mlink s' a b = mlink s a b) -> mlsum_down s' = mlsum_down s /\ mlsum_up s' = mlsum_up s.
+Proof. intros Hc Hl. unfold mlsum_down, mlsum_up. rewrite Hc. split; apply sumf_ext; intros; rewrite Hl; reflexivity. Qed.
+
+Lemma mdelta_publish s p v s' :
+  mwf s -> MBasic s -> mstep s (MPublish p v) = Some s' ->
+  mconn s' = mconn s /\ MSC s' = S (MSC s) /\ MST s' = MST s /\ mlsum_down s' = mlsum_down s /\ mlsum_up s' = mlsum_up s.
+Proof.
+  intros Hwf HB Hstep. apply mstep_publish in Hstep as (Hex & Hc & Hl & _ & Hp & Hq).
+  assert (Hlk : forall a b, mlink s' a b = mlink s a b) by (intros; unfold mlink; rewrite Hl; reflexivity).
+  destruct (mlsum_same s s' Hc Hlk) as [H1 H2]. split; [exact Hc|].
+  pose proof (mpsum_update mcredit s s' p Hwf Hc Hex Hq) as HC.
+  pose proof (mpsum_update mtok s s' p Hwf Hc Hex Hq) as HT.
+  rewrite Hp in HC, HT. unfold mcredit in HC, HT. cbn [mevents mtok] in HC, HT.
+  destruct (HB p) as (Hle & _). unfold MSC, MST, mcredit, mptok, mpevents in *. repeat split; try assumption; lia.
+Qed.
+
+Lemma mdelta_react1 s p s' :
+  mwf s -> MBasic s -> mstep s (MReact1 p) = Some s' ->
+  mconn s' = mconn s /\
+  ((mpevents s p = 0%nat /\ moriginates s p = None /\ MSC s' = MSC s /\ MST s' = MST s /\ mlsum_down s' = mlsum_down s /\ mlsum_up s' = mlsum_up s) \/
+   (mpevents s p <> 0%nat /\ moriginates s p = None /\ MSC s' = MSC s /\ S (MST s') = MST s /\ mlsum_down s' = mlsum_down s /\ mlsum_up s' = mlsum_up s) \/
+   (mpevents s p <> 0%nat /\ moriginates s p <> None /\ S (MSC s') = MSC s /\ MST s' = MST s /\
+    ((p = host /\ mlsum_down s' = (mlsum_down s + length (mconn s))%nat /\ mlsum_up s' = mlsum_up s) \/
+     (p <> host /\ p ∈ mconn s /\ mlsum_down s' = mlsum_down s /\ mlsum_up s' = S (mlsum_up s))))).
+Proof.
+  intros Hwf HB Hstep. pose proof (mwf_nodup s Hwf) as Hnd.
+  apply mstep_react1 in Hstep as (Hex & Hc & _ & Hp & Hq & Hl); [|exact Hnd]. split; [exact Hc|].
+  pose proof (mpsum_update mcredit s s' p Hwf Hc Hex Hq) as HC.
+  pose proof (mpsum_update mtok s s' p Hwf Hc Hex Hq) as HT.
+  rewrite Hp in HC, HT. unfold moriginates, mpevents.
+  destruct (mreact1_cases (mgetp s p)) as [[E0 E]|[(k & E0 & E1 & E)|[(k & c & t & E0 & E1 & E2 & E)|(k & c & E0 & E1 & E2 & E)]]];
+    rewrite E in *; cbn [fst snd] in *; unfold mcredit in HC, HT; cbn [mevents mtok] in HC, HT; unfold mann_links in Hl.
+  - destruct (mlsum_same s s' Hc Hl) as [H1 H2]. unfold MSC, MST, mcredit. left. repeat split; try assumption; lia.
+  - exfalso. destruct (HB p) as (_ & H2). apply H2; [unfold mpevents; rewrite E0; discriminate|exact E1].
+  - destruct (mlsum_same s s' Hc Hl) as [H1 H2]. unfold MSC, MST, mcredit. right. left.
+    rewrite E0, E2 in *. repeat split; try assumption; try lia.
+  - unfold MSC, MST, mcredit. right. right. rewrite E0, E2 in *.
+    split; [lia|]. split; [discriminate|]. split; [lia|]. split; [lia|].
+    unfold mlsum_down, mlsum_up. rewrite Hc. destruct (decide (p = host)) as [->|Hph].
+    + left. split; [reflexivity|]. split.
+      * rewrite (sumf_add_const (fun c => length (mlink s host c)) _ (mconn s) 1); [lia|].
+        intros x Hx. rewrite Hl. unfold mdsts_of. change (host =? host)%N with true. cbv iota.
+        destruct (decide (host = host /\ x ∈ mconn s)) as [_|Hn]; [rewrite app_length; reflexivity|tauto].
+      * apply sumf_ext. intros x Hx. rewrite Hl. cdec as [[-> _]|_]; [exfalso; apply (mwf_host s Hwf Hx)|reflexivity].
+    + right. split; [exact Hph|].
+      assert (Hin : p ∈ mconn s). { apply (mwf_exists s p Hwf) in Hex as [?|?]; [contradiction|assumption]. }
+      split; [exact Hin|]. split.
+      * apply sumf_ext. intros x Hx. rewrite Hl. cdec as [[Heq _]|_]; [congruence|reflexivity].
+      * pose proof (sumf_update (fun c => length (mlink s c host)) (fun c => length (mlink s' c host)) (mconn s) p Hnd Hin) as HU.
+        cbv beta in HU. rewrite (Hl p host) in HU. unfold mdsts_of in HU. destruct (p =? host)%N eqn:E'; [apply N.eqb_eq in E'; contradiction|].
+        destruct (decide (p = p /\ host ∈ [host])) as [_|Hn]; [|exfalso; apply Hn; split; [reflexivity|apply elem_of_list_singleton; reflexivity]].
+        rewrite app_length in HU. simpl in HU.
+        assert (H : (sumf (fun c => length (mlink s' c host)) (mconn s) + length (mlink s p host)
+                     = sumf (fun c => length (mlink s c host)) (mconn s) + (length (mlink s p host) + 1))%nat); [|lia].
+        apply HU. intros x Hx Hne. rewrite Hl. cdec as [[Heq _]|_]; [contradiction|reflexivity].
+Qed.
+
+Lemma mdelta_deliver s src dst s' :
+  mwf s -> MBasic s -> mstep s (MDeliver src dst) = Some s' ->
+  mconn s' = mconn s /\ MSC s' = MSC s /\ MST s' = S (MST s) /\
+  ((dst = host /\ src ∈ mconn s /\ S (mlsum_up s') = mlsum_up s /\
+    mlsum_down s' = (mlsum_down s + length (others src (mconn s)))%nat /\ msent1 s (MDeliver src dst) = length (others src (mconn s))) \/
+   (dst <> host /\ mlsum_up s' = mlsum_up s /\ S (mlsum_down s') = mlsum_down s /\ msent1 s (MDeliver src dst) = 0%nat)).
+Proof.
+  intros Hwf HB Hstep. pose proof (mwf_nodup s Hwf) as Hnd.
+  apply mstep_deliver in Hstep as (o & rest & Hl0 & Hex & Hc & _ & Hp & Hq & Hl); [|exact Hnd]. split; [exact Hc|].
+  pose proof (mpsum_update mcredit s s' dst Hwf Hc Hex Hq) as HC.
+  pose proof (mpsum_update mtok s s' dst Hwf Hc Hex Hq) as HT.
+  rewrite Hp in HC, HT. unfold mcredit in HC, HT. cbn [mevents mtok] in HC, HT.
+  destruct (HB dst) as (Hle & _). unfold MSC, MST, mcredit, mptok, mpevents in *. split; [lia|]. split; [lia|].
+  assert (Hne0 : mlink s src dst <> []) by (rewrite Hl0; discriminate).
+  unfold mlsum_down, mlsum_up. rewrite Hc. cbn [msent1]. rewrite Hl0.
+  destruct (mwf_link s src dst Hwf Hne0) as [[-> Hin]|[-> Hin]].
+  - assert (Hdh : dst <> host) by (intros ->; apply (mwf_host s Hwf Hin)).
+    right. split; [exact Hdh|]. destruct (dst =? host)%N eqn:E; [apply N.eqb_eq in E; contradiction|].
+    split; [|split; [|reflexivity]].
+    + apply sumf_ext. intros x Hx. rewrite Hl.
+      destruct (decide ((x, host) = (host, dst))) as [Heq|_]; [inversion Heq; congruence|].
+      destruct (decide (dst = host /\ _)) as [[? _]|_]; [contradiction|]. rewrite app_nil_r. reflexivity.
+    + pose proof (sumf_update (fun c => length (mlink s host c)) (fun c => length (mlink s' host c)) (mconn s) dst Hnd Hin) as HU.
+      cbv beta in HU. rewrite (Hl host dst), Hl0 in HU.
+      destruct (decide ((host, dst) = (host, dst))) as [_|?]; [|congruence].
+      destruct (decide (dst = host /\ _)) as [[? _]|_]; [contradiction|]. rewrite app_nil_r in HU. cbn [length] in HU.
+      assert (H : (sumf (fun c => length (mlink s' host c)) (mconn s) + S (length rest)
+                   = sumf (fun c => length (mlink s host c)) (mconn s) + length rest)%nat); [|lia].
+      apply HU. intros x Hx Hne. rewrite Hl.
+      destruct (decide ((host, x) = (host, dst))) as [Heq|_]; [inversion Heq; congruence|].
+      destruct (decide (dst = host /\ _)) as [[? _]|_]; [contradiction|]. rewrite app_nil_r. reflexivity.
+  - assert (Hsh : src <> host) by (intros ->; apply (mwf_host s Hwf Hin)).
+    left. split; [reflexivity|]. split; [exact Hin|]. change (host =? host)%N with true. cbv iota.
+    split; [|split; [|reflexivity]].
+    + pose proof (sumf_update (fun c => length (mlink s c host)) (fun c => length (mlink s' c host)) (mconn s) src Hnd Hin) as HU.
+      cbv beta in HU. rewrite (Hl src host), Hl0 in HU.
+      destruct (decide ((src, host) = (src, host))) as [_|?]; [|congruence].
+      destruct (decide (host = host /\ src = host /\ _)) as [(_ & ? & _)|_]; [contradiction|]. rewrite app_nil_r in HU. cbn [length] in HU.
+      assert (H : (sumf (fun c => length (mlink s' c host)) (mconn s) + S (length rest)
+                   = sumf (fun c => length (mlink s c host)) (mconn s) + length rest)%nat); [|lia].
+      apply HU. intros x Hx Hne. rewrite Hl.
+      destruct (decide ((x, host) = (src, host))) as [Heq|_]; [inversion Heq; congruence|].
+      destruct (decide (host = host /\ x = host /\ _)) as [(_ & -> & _)|_]; [exfalso; apply (mwf_host s Hwf Hx)|]. rewrite app_nil_r. reflexivity.
+    + unfold others. apply (sumf_add_filter (fun c => length (mlink s host c)) _ (fun c => c <> src)).
+      intros x Hx. rewrite Hl. destruct (decide ((host, x) = (src, host))) as [Heq|_]; [inversion Heq; congruence|].
+      rewrite app_length. f_equal. destruct (decide (x <> src)) as [Hy|Hn].
+      * destruct (decide (host = host /\ host = host /\ x ∈ others src (mconn s))) as [_|Hn]; [reflexivity|].
+        exfalso. apply Hn. split; [reflexivity|]. split; [reflexivity|]. apply elem_of_others. auto.
+      * destruct (decide (host = host /\ host = host /\ x ∈ others src (mconn s))) as [(_ & _ & Hy)|_]; [|reflexivity].
+        apply elem_of_others in Hy as [Hy _]. contradiction.
+Qed.
+
+Lemma mdelta_join s c s' :
+  mwf s -> mstep s (MJoin c) = Some s' ->
+  mconn s' = mconn s ++ [c] /\ MSC s' = MSC s /\ MST s' = MST s /\
+  mlsum_down s' = (mlsum_down s + msent1 s (MJoin c))%nat /\ mlsum_up s' = mlsum_up s /\ (msent1 s (MJoin c) <= 1)%nat.
+Proof.
+  intros Hwf Hstep. apply mstep_join in Hstep as (Hch & Hcn & Hnone & Hc & _ & Hg & Hl).
+  assert (Hlc : mlink s host c = []) by (apply mwf_link_nil; [exact Hwf|apply mwf_host; exact Hwf|exact Hcn]).
+  assert (Hlc' : mlink s c host = []) by (apply mwf_link_nil; [exact Hwf|exact Hcn|apply mwf_host; exact Hwf]).
+  assert (Hc0 : mgetp s c = mpeer0) by (unfold mgetp; rewrite Hnone; reflexivity).
+  split; [exact Hc|].
+  assert (HF : forall F, F mpeer0 = 0%nat -> mpsum F s' = mpsum F s).
+  { intros F HF. unfold mpsum, mallp. rewrite Hc. cbn [sumf]. rewrite sumf_app. cbn [sumf]. rewrite !Hg, Hc0, HF.
+    rewrite (sumf_ext (fun p => F (mgetp s' p)) (fun p => F (mgetp s p)) (mconn s)); [lia|]. intros x _. rewrite Hg. reflexivity. }
+  split; [apply HF; reflexivity|]. split; [apply HF; reflexivity|].
+  unfold mlsum_down, mlsum_up. rewrite Hc, !sumf_app. cbn [sumf msent1]. rewrite !Hl.
+  destruct (decide ((host, c) = (host, c))) as [_|?]; [|congruence].
+  destruct (decide ((c, host) = (host, c))) as [Heq|_]; [inversion Heq; congruence|].
+  rewrite Hlc, Hlc'. cbn [app length].
+  rewrite (sumf_ext (fun x => length (mlink s' host x)) (fun x => length (mlink s host x)) (mconn s)).
+  2:{ intros x Hx. rewrite Hl. cdec as [Heq|_]; [inversion Heq; congruence|reflexivity]. }
+  rewrite (sumf_ext (fun x => length (mlink s' x host)) (fun x => length (mlink s x host)) (mconn s)).
+  2:{ intros x Hx. rewrite Hl. cdec as [Heq|_]; [inversion Heq; subst; exfalso; apply (mwf_host s Hwf Hx)|reflexivity]. }
+  unfold msnapshot. destruct (mpstore s host); simpl; repeat split; lia.
+Qed.
+
+Definition MPhi (M : nat) (s : mstate) : nat := (MSC s * M + mlsum_up s * (M - 1))%nat.
+Definition mmu (s : mstate) : nat :=
+  let N := length (mconn s) in (MSC s * (2 * N + 1) + MST s + 2 * mlsum_down s + 2 * N * mlsum_up s)%nat.
+Definition mcost (M : nat) (e : mevent) : nat := match e with MPublish _ _ => M | MJoin _ => 1%nat | _ => 0%nat end.
+Definition meff1 (s : mstate) (e : mevent) : nat :=
+  match e with
+  | MReact p | MReact1 p => match mpevents s p with O => 0%nat | S _ => 1%nat end
+  | MDeliver _ _ => 1%nat
+  | _ => 0%nat
+  end.
+Fixpoint meffective (s : mstate) (tr : list mevent) : nat :=
+  match tr with
+  | [] => 0%nat
+  | e :: tr => match mstep s e with Some s' => (meff1 s e + meffective s' tr)%nat | None => 0%nat end
+  end.
+
+Lemma mcounts_step1 M s e s' :
+  msingle e -> mwf s -> MBasic s -> mstep s e = Some s' -> (length (mconn s') <= M)%nat ->
+  (msent1 s e + MPhi M s' <= MPhi M s + mcost M e)%nat /\
+  (mplain e -> mconn s' = mconn s /\ (meff1 s e + mmu s' <= mmu s)%nat).
+Proof.
+  intros He Hwf HB Hstep HM. destruct e as [p v|p|p|src dst|c]; [|contradiction| | |].
+  - destruct (mdelta_publish s p v s' Hwf HB Hstep) as (Hc & HC & HT & HD & HU).
+    unfold MPhi. rewrite HC, HU. cbn [msent1 mcost mplain]. split; [lia|]. intros [].
+  - destruct (mdelta_react1 s p s' Hwf HB Hstep) as (Hc & Hcases). rewrite Hc in HM.
+    unfold MPhi, mmu. rewrite Hc. cbn [msent1 mcost meff1].
+    destruct Hcases as [(He0 & Ho & HC & HT & HD & HU)|[(He0 & Ho & HC & HT & HD & HU)|(He0 & Ho & HC & HT & Hph)]].
+    + rewrite Ho, HC, HT, HD, HU, He0. split; [lia|]. intros _. split; [reflexivity|lia].
+    + rewrite Ho, HC, HD, HU. destruct (mpevents s p); [congruence|]. split; [lia|]. intros _. split; [reflexivity|lia].
+    + destruct (moriginates s p) as [c|]; [|congruence]. destruct (mpevents s p); [congruence|]. unfold mdsts_of.
+      destruct Hph as [(-> & HD & HU)|(Hph & Hin & HD & HU)]; rewrite HD, HU, HT.
+      * change (host =? host)%N with true. cbv iota. split; [nia|]. intros _. split; [reflexivity|nia].
+      * destruct (p =? host)%N eqn:E; [apply N.eqb_eq in E; contradiction|]. cbn [length].
+        assert (length (mconn s) >= 1)%nat by (destruct (mconn s); [inversion Hin|simpl; lia]).
+        split; [nia|]. intros _. split; [reflexivity|nia].
+  - destruct (mdelta_deliver s src dst s' Hwf HB Hstep) as (Hc & HC & HT & Hcases). rewrite Hc in HM.
+    unfold MPhi, mmu. rewrite Hc, HC, HT. cbn [mcost meff1].
+    destruct Hcases as [(-> & Hin & HU & HD & Hs)|(Hdh & HU & HD & Hs)]; rewrite Hs.
+    + pose proof (others_length_lt src (mconn s) Hin). rewrite HD. split; [nia|]. intros _. split; [reflexivity|nia].
+    + rewrite HU. split; [lia|]. intros _. split; [reflexivity|nia].
+  - destruct (mdelta_join s c s' Hwf Hstep) as (Hc & HC & HT & HD & HU & Hs).
+    unfold MPhi. rewrite HC, HU. cbn [mcost mplain]. split; [lia|]. intros [].
+Qed.
+
+Lemma mcounts_react M p k : forall s s',
+  mwf s -> MBasic s -> (length (mconn s) <= M)%nat -> mreact_n k s p = Some s' ->
+  mwf s' /\ MBasic s' /\ mconn s' = mconn s /\
+  (msent_react k s p + MPhi M s' <= MPhi M s)%nat /\
+  (mmu s' <= mmu s)%nat /\ (k <> 0%nat -> mpevents s p <> 0%nat -> mmu s' < mmu s)%nat.
+Proof.
+  induction k as [|k IH]; intros s s' Hwf HB HM Hrun; cbn [mreact_n msent_react] in *.
+  - inversion Hrun; subst. split; [exact Hwf|]. split; [exact HB|]. split; [reflexivity|]. split; [lia|]. split; [lia|]. intros H0. congruence.
+  - destruct (mreact1 s p) as [s1|] eqn:H1; [|discriminate].
+    assert (Hs1 : mstep s (MReact1 p) = Some s1) by exact H1.
+    pose proof (mstep_wf _ _ _ Hwf Hs1) as Hwf1. pose proof (mbasic_step1 s (MReact1 p) s1 I Hwf HB I Hs1) as HB1.
+    assert (Hc1 : mconn s1 = mconn s) by (apply mstep_react1 in Hs1 as (_ & Hc & _); [exact Hc|apply mwf_nodup; exact Hwf]).
+    destruct (mcounts_step1 M s (MReact1 p) s1 I Hwf HB Hs1) as (Ha & Hcd); [rewrite Hc1; exact HM|].
+    destruct (Hcd I) as [_ Hd]. cbn [mcost meff1] in *.
+    destruct (IH s1 s' Hwf1 HB1) as (Hwf' & HB' & Hc' & Ha' & Hd' & _); [rewrite Hc1; exact HM|exact Hrun|].
+    split; [exact Hwf'|]. split; [exact HB'|]. split; [congruence|]. split; [lia|]. split; [lia|].
+    intros _ He. destruct (mpevents s p); [congruence|]. lia.
+Qed.
+
+Lemma mjoins_cons e tr : mjoins (e :: tr) = match e with MJoin c => c :: mjoins tr | _ => mjoins tr end.
+Proof. destruct e; reflexivity. Qed.
+
+Lemma mbasic_step s e s' : mwf s -> MBasic s -> mstep s e = Some s' -> MBasic s'.
+Proof. intros Hwf HB Hstep. eapply (mstep_lift MBasic (fun _ => True)); [exact mbasic_step1|auto|exact Hwf|exact HB|exact I|exact Hstep]. Qed.
+
+Lemma mcounts_run M tr : forall s s',
+  mwf s -> MBasic s -> (length (mconn s) + length (mjoins tr) <= M)%nat -> mrun s tr = Some s' ->
+  (mtotal_sent s tr + MPhi M s' <= MPhi M s + length (mpublished tr) * M + length (mjoins tr))%nat.
+Proof.
+  induction tr as [|e tr IH]; intros s s' Hwf HB HM Hrun.
+  - simpl in Hrun. inversion Hrun; subst. simpl. lia.
+  - cbn [mrun] in Hrun. cbn [mtotal_sent]. destruct (mstep s e) as [s1|] eqn:Hstep; [|discriminate].
+    pose proof (mstep_wf _ _ _ Hwf Hstep) as Hwf1. pose proof (mbasic_step s e s1 Hwf HB Hstep) as HB1.
+    rewrite mjoins_cons in HM. rewrite mpublished_cons, mjoins_cons.
+    assert (H1 : (length (mconn s1) + length (mjoins tr) <= M)%nat /\ (msent_by s e + MPhi M s1 <= MPhi M s + mcost M e)%nat).
+    { destruct e as [p v|p|p|src dst|c]; cbn beta iota in HM.
+      - assert (Hc : mconn s1 = mconn s) by (apply mstep_publish in Hstep as (_ & Hc & _); exact Hc).
+        destruct (mcounts_step1 M s (MPublish p v) s1 I Hwf HB Hstep) as (Ha & _); [rewrite Hc; lia|]. split; [rewrite Hc; lia|exact Ha].
+      - cbn [msent_by]. pose proof Hstep as Hstep'. simpl in Hstep'. unfold mpevents.
+        destruct (mp s !! p) as [x|] eqn:Hx; [|discriminate]. rewrite (mgetp_exists _ _ _ Hx).
+        destruct (mcounts_react M p (mevents x) s s1 Hwf HB) as (_ & _ & Hc & Ha & _); [lia|exact Hstep'|].
+        split; [rewrite Hc; lia|]. cbn [mcost]. lia.
+      - assert (Hc : mconn s1 = mconn s) by (apply mstep_react1 in Hstep as (_ & Hc & _); [exact Hc|apply mwf_nodup; exact Hwf]).
+        destruct (mcounts_step1 M s (MReact1 p) s1 I Hwf HB Hstep) as (Ha & _); [rewrite Hc; lia|]. split; [rewrite Hc; lia|exact Ha].
+      - assert (Hc : mconn s1 = mconn s) by (apply mstep_deliver in Hstep as (o & rest & _ & _ & Hc & _); [exact Hc|apply mwf_nodup; exact Hwf]).
+        destruct (mcounts_step1 M s (MDeliver src dst) s1 I Hwf HB Hstep) as (Ha & _); [rewrite Hc; lia|]. split; [rewrite Hc; lia|exact Ha].
+      - assert (Hcj : mconn s1 = mconn s ++ [c]) by (apply mstep_join in Hstep as (_ & _ & _ & Hcj & _); exact Hcj).
+        assert (Hlen : length (mconn s1) = S (length (mconn s))) by (rewrite Hcj, app_length; simpl; lia).
+        cbn [length] in HM. destruct (mcounts_step1 M s (MJoin c) s1 I Hwf HB Hstep) as (Ha & _); [lia|]. split; [lia|exact Ha]. }
+    destruct H1 as (HM1 & Ha). pose proof (IH s1 s' Hwf1 HB1 HM1 Hrun) as Ha'.
+    destruct e as [p v|p|p|src dst|c]; cbn [mcost length] in *; lia.
+Qed.
+
+Lemma mcounters_quiescent s : mquiescent s -> MSC s = 0%nat /\ MST s = 0%nat /\ mlsum_down s = 0%nat /\ mlsum_up s = 0%nat.
+Proof.
+  intros Hq. unfold MSC, MST, mpsum, mlsum_down, mlsum_up.
+  repeat split; apply sumf_zero; intros x _; try (rewrite (mquiescent_link s _ _ Hq); reflexivity);
+    destruct (mquiescent_peer s x Hq) as (H1 & H2); unfold mpevents, mptok, mcredit in *; rewrite ?H1, ?H2; reflexivity.
+Qed.
+
+(* the global traffic bound for materials, for EVERY run: the old unbounded echo is gone *)
+Theorem mtraffic_bound n tr s' :
+  mrun (minit n) tr = Some s' ->
+  (mtotal_sent (minit n) tr <= length (mpublished tr) * (n + length (mjoins tr)) + length (mjoins tr))%nat.
+Proof.
+  intros Hrun.
+  pose proof (mcounts_run (n + length (mjoins tr)) tr (minit n) s' (minit_wf n) (mbasic_init n)) as Ha.
+  destruct (mcounters_quiescent _ (minit_quiescent n)) as (H1 & H2 & H3 & H4).
+  unfold MPhi in Ha. rewrite H1, H4 in Ha. simpl mconn in Ha. rewrite length_clients in Ha. specialize (Ha ltac:(lia) Hrun). lia.
+Qed.
+Print Assumptions mtraffic_bound.
+
+Lemma mplain_trace rest : Forall mplain rest -> mpublished rest = [] /\ mjoins rest = [].
+Proof. induction 1 as [|e rest He _ (IH1 & IH2)]; [auto|]. destruct e; simpl in He; try contradiction; auto. Qed.
+
+(* one publication in a quiescent state costs at most n messages *)
+Theorem mpublication_cost n tr0 s p c rest s' :
+  mrun (minit n) tr0 = Some s -> mquiescent s -> Forall mplain rest -> mrun s (MPublish p c :: rest) = Some s' ->
+  (mtotal_sent s (MPublish p c :: rest) <= length (mconn s))%nat.
+Proof.
+  intros Hrun0 Hq Hpl Hrun. destruct (mplain_trace rest Hpl) as (Hp1 & Hp3).
+  pose proof (mcounts_run (length (mconn s)) (MPublish p c :: rest) s s' (mrun_wf _ _ _ (minit_wf n) Hrun0) (mbasic_invariant n tr0 s Hrun0)) as Ha.
+  rewrite mjoins_cons, mpublished_cons, Hp1, Hp3 in Ha.
+  destruct (mcounters_quiescent s Hq) as (H1 & H2 & H3 & H4). unfold MPhi in Ha. rewrite H1, H4 in Ha. cbn [length] in Ha.
+  specialize (Ha ltac:(lia) Hrun). lia.
+Qed.
+Print Assumptions mpublication_cost.
+
+(* unconditional termination of the exchange *)
+Theorem mplain_steps_bounded tr : forall s s',
+  mwf s -> MBasic s -> Forall mplain tr -> mrun s tr = Some s' -> (meffective s tr + mmu s' <= mmu s)%nat.
+Proof.
+  induction tr as [|e tr IH]; intros s s' Hwf HB Hpl Hrun.
+  - simpl in Hrun. inversion Hrun; subst. simpl. lia.
+  - cbn [mrun meffective] in *. destruct (mstep s e) as [s1|] eqn:Hstep; [|discriminate].
+    apply Forall_cons in Hpl as [He Hpl]. pose proof (mstep_wf _ _ _ Hwf Hstep) as Hwf1.
+    pose proof (mbasic_step s e s1 Hwf HB Hstep) as HB1. specialize (IH s1 s' Hwf1 HB1 Hpl Hrun).
+    assert (H1 : (meff1 s e + mmu s1 <= mmu s)%nat); [|lia].
+    destruct e as [p v|p|p|src dst|c]; try contradiction.
+    + pose proof Hstep as Hstep'. simpl in Hstep'. cbn [meff1]. unfold mpevents.
+      destruct (mp s !! p) as [x|] eqn:Hx; [|discriminate]. rewrite (mgetp_exists _ _ _ Hx).
+      destruct (mcounts_react (length (mconn s)) p (mevents x) s s1 Hwf HB) as (_ & _ & _ & _ & Hle & Hlt); [lia|exact Hstep'|].
+      destruct (mevents x) as [|k] eqn:Ek; [lia|].
+      assert (mmu s1 < mmu s)%nat; [|lia]. apply Hlt; [discriminate|]. unfold mpevents. rewrite (mgetp_exists _ _ _ Hx), Ek. discriminate.
+    + assert (Hc : mconn s1 = mconn s) by (apply mstep_react1 in Hstep as (_ & Hc & _); [exact Hc|apply mwf_nodup; exact Hwf]).
+      destruct (mcounts_step1 (length (mconn s)) s (MReact1 p) s1 I Hwf HB Hstep) as (_ & Hd); [rewrite Hc; lia|]. apply (Hd I).
+    + assert (Hc : mconn s1 = mconn s) by (apply mstep_deliver in Hstep as (o & rest & _ & _ & Hc & _); [exact Hc|apply mwf_nodup; exact Hwf]).
+      destruct (mcounts_step1 (length (mconn s)) s (MDeliver src dst) s1 I Hwf HB Hstep) as (_ & Hd); [rewrite Hc; lia|]. apply (Hd I).
+Qed.
+Print Assumptions mplain_steps_bounded.
+
+Lemma mnot_quiescent_progress s :
+  mwf s -> MBasic s -> ~ mquiescent s -> exists e s1, mplain e /\ mstep s e = Some s1 /\ meff1 s e = 1%nat.
+Proof.
+  intros Hwf HB Hnq. unfold mquiescent in Hnq.
+  destruct (decide (map_Forall (fun _ l => l = []) (mlinks s))) as [HA|HA].
+  - assert (HnB : ~ map_Forall (fun _ x => mpeer_idle x) (mp s)) by tauto.
+    apply map_not_Forall in HnB; [|apply _]. destruct HnB as (p & x & Hx & Hni).
+    destruct (mevents x) as [|k] eqn:Ek.
+    + exfalso. apply Hni. split; [exact Ek|]. destruct (HB p) as (Hle & _). unfold mptok, mpevents in Hle.
+      rewrite (mgetp_exists _ _ _ Hx), Ek in Hle. lia.
+    + exists (MReact1 p). destruct (mstep s (MReact1 p)) as [s1|] eqn:E.
+      * exists s1. split; [exact I|]. split; [reflexivity|]. cbn [meff1]. unfold mpevents. rewrite (mgetp_exists _ _ _ Hx), Ek. reflexivity.
+      * exfalso. simpl in E. unfold mreact1 in E. rewrite Hx in E. destruct (mreact1_peer x). discriminate.
+  - apply map_not_Forall in HA; [|apply _]. destruct HA as ([a b] & l & Hl & Hne).
+    assert (Hlk : mlink s a b = l) by (unfold mlink, lget; rewrite Hl; reflexivity).
+    destruct l as [|o rest]; [congruence|].
+    assert (Hex : is_Some (mp s !! b)).
+    { apply (mwf_exists s b Hwf). destruct (mwf_link s a b Hwf) as [[_ H]|[H _]]; [rewrite Hlk; discriminate|right; exact H|left; exact H]. }
+    destruct Hex as [x Hx]. exists (MDeliver a b). destruct (mstep s (MDeliver a b)) as [s1|] eqn:E.
+    + exists s1. split; [exact I|]. split; reflexivity.
+    + exfalso. simpl in E. rewrite Hlk, Hx in E. discriminate.
+Qed.
+
+Theorem mquiescence_reachable s :
+  mwf s -> MBasic s -> exists tr s', Forall mplain tr /\ mrun s tr = Some s' /\ mquiescent s'.
+Proof.
+  remember (mmu s) as m eqn:Hm. revert s Hm. induction m as [m IH] using lt_wf_ind. intros s Hm Hwf HB.
+  destruct (decide (mquiescent s)) as [Hq|Hnq]; [exists [], s; split; [apply Forall_nil_2|split; [reflexivity|exact Hq]]|].
+  destruct (mnot_quiescent_progress s Hwf HB Hnq) as (e & s1 & He & Hstep & Heff).
+  pose proof (mplain_steps_bounded [e] s s1 Hwf HB (Forall_cons_2 _ _ _ He (Forall_nil_2 _))) as Hb.
+  cbn [mrun meffective] in Hb. rewrite Hstep in Hb. specialize (Hb eq_refl). rewrite Heff in Hb.
+  pose proof (mstep_wf _ _ _ Hwf Hstep) as Hwf1. pose proof (mbasic_step s e s1 Hwf HB Hstep) as HB1.
+  destruct (IH (mmu s1)) with (s := s1) as (tr & s' & Hpl & Hrun & Hq'); [lia|reflexivity|exact Hwf1|exact HB1|].
+  exists (e :: tr), s'. split; [constructor; assumption|]. split; [|exact Hq']. cbn [mrun]. rewrite Hstep. exact Hrun.
+Qed.
+Print Assumptions mquiescence_reachable.
+
+Corollary mexchange_terminates n tr0 s :
+  mrun (minit n) tr0 = Some s ->
+  (forall tr s', Forall mplain tr -> mrun s tr = Some s' -> (meffective s tr <= mmu s)%nat) /\
+  (exists tr s', Forall mplain tr /\ mrun s tr = Some s' /\ mquiescent s').
+Proof.
+  intros Hrun. pose proof (mrun_wf _ _ _ (minit_wf n) Hrun) as Hwf. pose proof (mbasic_invariant n tr0 s Hrun) as HB. split.
+  - intros tr s' Hpl Hr. pose proof (mplain_steps_bounded tr s s' Hwf HB Hpl Hr). lia.
+  - apply mquiescence_reachable; assumption.
+Qed.
+Print Assumptions mexchange_terminates.
+
+Example mtraffic_nonvacuous :
+  mtotal_sent (minit 2) w_material = 6%nat /\ length (mpublished w_material) = 3%nat /\
+  (fun s => (mmu s, meffective s [MDeliver 0 1; MDeliver 0 1; MDeliver 0 2; MDeliver 0 2; MReact 1; MReact 2]))
+    <$> mrun (minit 2) (take 4 w_echo_pre) = Some (8%nat, 6%nat).
+Proof. vm_compute. auto. Qed.
+
+(* ================================================================================================
+   Summary: the literal properties, and the assumptions of everything above
+   ================================================================================================ *)
+
+Lemma no_joins_ok s tr : no_joins tr -> joins_ok s tr.
+Proof.
+  unfold no_joins, joins_ok, fresh_joins, known_join_window. intros Hnj. split; [rewrite Hnj; constructor|].
+  revert s. induction tr as [|e tr IH]; intros s; [reflexivity|]. cbn [scan]. rewrite joins_cons in Hnj.
+  destruct e as [p v|p|p|src dst|p|c pre]; try discriminate; cbn [bad_join_window orb];
+    match goal with |- context [astep ?s0 ?e0] => destruct (astep s0 e0) end; try reflexivity; apply IH; exact Hnj.
+Qed.
+
+(* The literal property C06: while one peer alone publishes the id (bursts and overwrites included), every
+   quiescent state shows the last published content on every peer.  REFUTED before the repairs (S7, S12). *)
+Definition C06_statement : Prop :=
+  forall n p tr s',
+    arun (ainit n) tr = Some s' -> only_publisher p tr -> no_joins tr -> aquiescent s' ->
+    forall q, peers s' q -> pstore s' q = last (published tr).
+
+Theorem C06_holds : C06_statement.
+Proof. intros n p tr s' Hrun Hop Hnj. apply (C06_single_publisher n p tr s' Hrun Hop). apply no_joins_ok. exact Hnj. Qed.
+Print Assumptions C06_holds.
+
+Example host_serves_only_for_joins_nonvacuous :
+  only_publisher 1 ex_client_publishes /\ no_joins ex_client_publishes /\
+  (fun s => pserved s <$> [0; 1; 2]) <$> arun (ainit 2) ex_client_publishes = Some [None; Some 10; None].
+Proof. split; [only_pub|]. split; [reflexivity|vm_compute; reflexivity]. Qed.
+
+Example mno_echo_nonvacuous :
+  monly_publisher 0 w_echo_pre /\
+  (fun s => (fun q => (mptok s q, mpevents s q, moriginates s q)) <$> [1; 2]) <$> mrun (minit 2) (take 8 w_echo_pre)
+  = Some [(2, 2, None); (2, 2, None)]%nat.
+Proof. split; [unfold monly_publisher; vm_compute; repeat constructor|vm_compute; reflexivity]. Qed.
+
+Example awf_invariant_nonvacuous : exists s', arun (ainit 1) w_host_stale = Some s' /\ length (aconn s') = 3%nat.
+Proof. destruct (arun_obs (fun s => length (aconn s)) (ainit 1) w_host_stale 3%nat) as (s' & H1 & H2); [vm_compute; reflexivity|]. exists s'. split; [exact H1|exact H2]. Qed.
+
+Print Assumptions C06_any_join_refuted.
 Print Assumptions join_during_download_refuted.
-Print Assumptions join_before_react_refuted.
-Print Assumptions M06_refuted.
-Print Assumptions material_echo_cycle.
-Print Assumptions single_publisher_outside_S7_never_serves.
-Print Assumptions drain_separated_never_S7.
-Print Assumptions quiescent_is_drained.
+Print Assumptions join_during_overwrite_refuted.
+Print Assumptions join_preloaded_private_refuted.
+Print Assumptions concurrent_publishers_disagree.
+Print Assumptions concurrent_publishers_lose_update.
+Print Assumptions material_concurrent_publishers_disagree.
+Print Assumptions M06_holds.
+Print Assumptions basic_invariant.
+Print Assumptions mbasic_invariant.
+Print Assumptions mwf_invariant.
